@@ -15,22 +15,23 @@ func init() {
 	register(&PropSpec{
 		ID:    "C09",
 		Title: "Paging through search results with continue tokens neither skips nor repeats",
-		Explanation: "Decided (structural necessary conditions of exactly-once paging): " +
-			"T-clock — for every sort for which setResultContinue writes a token (derived from the program: LastModifiedDesc, CreatedDesc) the SAME corpus time function is used (i) as the sort key of the sorted candidate source picked for that sort (pickCandidateSource -> Corpus enumerator -> lazySortedPermanodes field -> pnTime as initialised in pkg/index, requested newest-first, flagged sorted), (ii) to compute the token time of the token's own ref (the last result), and (iii) in the continue matcher for the PermanodeContinueConstraint field that addContinueConstraint fills from the parsed token under that same sort; the sort default is fixed before the token is interpreted and the continue constraint is and-ed with the base constraint. " +
-			"T-tiebreak — byPermanodeTime.Less and the continue branch of PermanodeConstraint.blobMatches are evaluated abstractly over all 9 orderings (time <,=,> x ref <,=,>) and both must be the strict lexicographic order (time, then blob.Ref.Less): the matcher admits exactly the items that sort strictly after the token item; every sort in lazySortedPermanodes.sorted uses byPermanodeTime, reversed exactly when reverse is requested. " +
-			"T-codec — the token writer's format (literal prefix, integer verb, separator, ref verb) and the reader agree: same prefix and separator constants, the integer is written from a signed 64-bit UnixNano and parsed by a signed 64-bit base-10 parse, turned back into a time with time.Unix(0, n) (lossless), the ref part is parsed from behind the separator, and the reader's success results are those values. " +
-			"T-around — Handler.Query clears the result list on the path where an Around pivot was requested but no candidate equal to it matched. " +
-			"NOT decided: that the enumerator yields the slice in order, correctness of reversedCopy and of the sorted caches, the time functions' own values (only their identity), that blob.Parse inverts Ref.String, exactly-once coverage for a concrete world, effects of index mutation between pages, the 'around' window arithmetic, and unsorted (post-sorted) candidate sources, which never receive a token. Assumes a permanode time returned with ok=true is never the zero time.Time (the zero value is the 'unset' marker of PermanodeContinueConstraint).",
+		Explanation: "All sites are looked up by ROLE in the EFFECTIVE BODY of the property's entry points (Handler.Query for the search side; the Corpus enumerator the chosen send function calls for the index side; PermanodeConstraint.blobMatches for the matcher): the function itself, its function literals and, transitively (depth <= 8), the unexported same-package functions it calls statically, with helper parameters standing for the caller's arguments and call results for the helper's returned values; branch facts and the known q.Sort of a call site hold inside the helper; order facts are lifted to the lowest common activation. " +
+			"Decided (structural necessary conditions of exactly-once paging): " +
+			"T-clock — for every sort for which a token is written (the store to SearchResult.Continue; sorts derived from the program: LastModifiedDesc, CreatedDesc) the SAME corpus time function is used (i) as the sort key of the sorted candidate source picked for that sort (store to candidateSource.send under that sort -> Corpus enumerator -> lazySortedPermanodes field of the Corpus -> pnTime as initialised in pkg/index, requested newest-first, flagged sorted, the sorted slice handed to / ranged over with the caller's callback, every pnAndTime built in the sorting method keyed by lsp.pnTime of its own ref), (ii) to compute the token time of the token's own ref (the last result), and (iii) in the continue matcher for the PermanodeContinueConstraint field that receives the time rebuilt from the token under that same sort; no store to SearchQuery.Sort and no replacement of SearchQuery.Constraint can follow the wrapping of the constraint, and the continue constraint is and-ed with the previous constraint. " +
+			"T-tiebreak — the Less method of the type handed to sort.Sort/sort.Stable and the continue branch of PermanodeConstraint.blobMatches are evaluated abstractly (following calls into same-package helpers along the path the ordering determines) over all 9 orderings (time <,=,> x ref <,=,>) and both must be the strict lexicographic order (time, then blob.Ref.Less): the matcher admits exactly the items that sort strictly after the token item; every sort in the sorting method is reversed exactly when reverse is requested. " +
+			"T-codec — the token writer's format (literal prefix, integer verb, separator, ref verb) and the reader (the strconv/strings/time/blob calls applied to text derived from SearchQuery.Continue, wherever they live) agree: same prefix and separator constants, the integer is written from a signed 64-bit UnixNano and parsed by a signed 64-bit base-10 parse, turned back into a time with time.Unix(0, n) (lossless), the ref part is parsed from behind the separator, the continue constraint receives exactly those values, and only where both parses are known to have succeeded (success carried across helper calls: a helper call counts as success where its ok/err result says so and every may-succeed return inside is itself success-dominated). " +
+			"T-around — the 'pivot found' flag (variable or field) is only set for a candidate equal to q.Around that the matcher accepted, and the result list is cleared on the path where the flag is false, before the results are used for the reply. " +
+			"NOT decided: that the enumerator yields the slice in order, correctness of reversedCopy and of the sorted caches, the time functions' own values (only their identity), that blob.Parse inverts Ref.String, exactly-once coverage for a concrete world, effects of index mutation between pages, the 'around' window arithmetic, and unsorted (post-sorted) candidate sources, which never receive a token. Assumes a permanode time returned with ok=true is never the zero time.Time (the zero value is the 'unset' marker of PermanodeContinueConstraint). Helpers reached only through interface calls or function values (other than literals called once, and the send/clock function values the rules resolve explicitly) are not followed: sites moved behind such a call are reported Undecided/violated, never silently accepted.",
 		RuleDocs: map[string]string{
-			"T-clock":    "per continuable sort (cases of setResultContinue that write a token): time function of the sorted source == of the token writer == of the matcher mode filled by addContinueConstraint for that sort; plus key/ref consistency, newest-first, sorted flag, sort default before token interpretation, and-conjunction",
-			"T-tiebreak": "abstract evaluation over the 9 (time,ref) orderings of byPermanodeTime.Less and of the continue branch of PermanodeConstraint.blobMatches against the strict lexicographic order; sort calls in lazySortedPermanodes.sorted use byPermanodeTime with Reverse iff reverse",
-			"T-around":   "Handler.Query: the flag set where q.Around equals a candidate is tested after enumeration and res.Blobs is cleared where it is false",
-			"T-codec":    "writer format string of setResultContinue vs reader parsePermanodeContinueToken: prefix, separator, signedness/width/base of the integer, UnixNano <-> time.Unix(0,n), ref parsed behind the separator, results returned",
+			"T-clock":    "per continuable sort (sorts under which the store to SearchResult.Continue is reached): time function of the sorted source == of the token writer == of the matcher mode that receives the token time under that sort; plus key/ref consistency, newest-first, sorted flag, slice handed to the callback enumeration, Sort/Constraint final once the constraint is wrapped, and-conjunction — all looked up in the effective body of Handler.Query / the enumerators",
+			"T-tiebreak": "abstract interprocedural evaluation over the 9 (time,ref) orderings of the Less method of the sorted type and of the continue branch of PermanodeConstraint.blobMatches against the strict lexicographic order; sort calls in the effective body of the sorting method are over that type with Reverse iff reverse",
+			"T-around":   "effective body of Handler.Query: the flag set where q.Around equals a candidate is set only under 'the matcher accepted that candidate', is tested after enumeration and res.Blobs is cleared where it is false, before the token writer / describe use the results",
+			"T-codec":    "writer format string (fmt.Sprintf feeding SearchResult.Continue) vs the reader calls on text derived from SearchQuery.Continue: prefix, separator, signedness/width/base of the integer, UnixNano <-> time.Unix(0,n), ref parsed behind the separator, the constraint receives those values and only under success of both parses (success-dominance across helper calls)",
 		},
 		Run:       runC09,
 		DesignRef: "DESIGN.md §4 C09",
-		Technique: "static analysis: agreement of function values resolved under branch facts (value dependence over go/ssa), abstract evaluation of comparators over a finite order domain, writer/reader table agreement",
-		LevelText: "Decides structural necessary conditions only: one clock per continuable sort across source, token writer and continue matcher; sort comparator and continue matcher implement the same strict (time, ref) order; token writer and reader agree on format, signedness and unit. Does not decide exactly-once coverage for any concrete world, enumeration order of the slice, cache correctness, nor the 'around' window arithmetic (only that a missed pivot yields nothing).",
+		Technique: "static analysis over effective bodies (virtual inlining of same-package helpers with parameter/result mapping): agreement of function values resolved under branch facts (value dependence over go/ssa), abstract interprocedural evaluation of comparators over a finite order domain, writer/reader table agreement, success-dominance across calls",
+		LevelText: "Decides structural necessary conditions only: one clock per continuable sort across source, token writer and continue matcher; sort comparator and continue matcher implement the same strict (time, ref) order; token writer and reader agree on format, signedness and unit; a missed or non-matching 'around' pivot yields nothing. Does not decide exactly-once coverage for any concrete world, enumeration order of the slice, cache correctness, nor the 'around' window arithmetic.",
 	})
 }
 
@@ -50,11 +51,21 @@ type c09Ctx struct {
 	tCorpus   *types.Named // index.Corpus
 	tLSP      *types.Named // index.lazySortedPermanodes
 	tPnTime   *types.Named // index.pnAndTime
-	tByPT     *types.Named // index.byPermanodeTime
+
+	q *c09Frame // root activation of Handler.Query
+
+	frames      map[c09FrameKey]*c09Frame
+	roots       map[*ssa.Function]*c09Frame
+	reaches     map[c09ReachKey]*c09Reach
+	litCalls    map[*ssa.Function]c09LitCall
+	origins     map[c09V]c09V
+	originDepth int
 }
 
 func c09NewCtx(p *Program, r *Reporter) *c09Ctx {
-	cx := &c09Ctx{p: p, r: r, sortNames: map[int64]string{}}
+	cx := &c09Ctx{p: p, r: r, sortNames: map[int64]string{},
+		frames: map[c09FrameKey]*c09Frame{}, roots: map[*ssa.Function]*c09Frame{},
+		reaches: map[c09ReachKey]*c09Reach{}, litCalls: map[*ssa.Function]c09LitCall{}, origins: map[c09V]c09V{}}
 	cx.tQuery = p.NamedType("pkg/search", "SearchQuery")
 	cx.tResult = p.NamedType("pkg/search", "SearchResult")
 	cx.tPC = p.NamedType("pkg/search", "PermanodeConstraint")
@@ -64,12 +75,11 @@ func c09NewCtx(p *Program, r *Reporter) *c09Ctx {
 	cx.tCorpus = p.NamedType("pkg/index", "Corpus")
 	cx.tLSP = p.NamedType("pkg/index", "lazySortedPermanodes")
 	cx.tPnTime = p.NamedType("pkg/index", "pnAndTime")
-	cx.tByPT = p.NamedType("pkg/index", "byPermanodeTime")
 	st := p.NamedType("pkg/search", "SortType")
 	scope := p.Pkg("pkg/search").Types.Scope()
 	for _, n := range scope.Names() {
 		if c, ok := scope.Lookup(n).(*types.Const); ok && types.Identical(c.Type(), st) && c.Val().Kind() == constant.Int {
-			if v, ok := constant.Int64Val(c.Val()); ok && c09Exported(n) {
+			if v, ok := constant.Int64Val(c.Val()); ok && token.IsExported(n) {
 				cx.sortNames[v] = n
 			}
 		}
@@ -77,10 +87,9 @@ func c09NewCtx(p *Program, r *Reporter) *c09Ctx {
 	if len(cx.sortNames) == 0 {
 		brokenf("anchor unresolved: no SortType constants in pkg/search")
 	}
+	cx.q = cx.root(p.Func("pkg/search", "Handler", "Query"))
 	return cx
 }
-
-func c09Exported(n string) bool { return n != "" && n[0] >= 'A' && n[0] <= 'Z' }
 
 func (cx *c09Ctx) sortName(k int64) string {
 	if n, ok := cx.sortNames[k]; ok {
@@ -99,14 +108,23 @@ func c09IsRef(t types.Type) bool {
 	return IsNamed(t, "perkeep.org/pkg/blob", "Ref") && !c09IsPtr(t)
 }
 func c09IsPtr(t types.Type) bool { _, ok := t.(*types.Pointer); return ok }
+func c09IsBool(t types.Type) bool {
+	b, ok := t.Underlying().(*types.Basic)
+	return ok && b.Info()&types.IsBoolean != 0
+}
+func c09IsFuncType(t types.Type) bool { _, ok := t.Underlying().(*types.Signature); return ok }
 
-// c09FieldRef describes a FieldAddr (address of a field) or Field (value of a
+// c09Fld describes a FieldAddr (address of a field) or Field (value of a
 // field of a struct value).
 type c09Fld struct {
 	Base  ssa.Value
 	Owner *types.Named
 	Name  string
 	Type  types.Type
+}
+
+func (f c09Fld) is(owner *types.Named, name string) bool {
+	return f.Owner != nil && owner != nil && f.Owner.Obj() == owner.Obj() && (name == "" || f.Name == name)
 }
 
 func c09FieldRef(v ssa.Value) (c09Fld, bool) {
@@ -145,19 +163,17 @@ func c09LoadedField(v ssa.Value) (c09Fld, bool) {
 	return c09Fld{}, false
 }
 
-// c09StoresToField lists every store, in the given functions (literals
-// included), whose address is field `name` of struct type owner.
+// c09StoresToField lists every store, in the given functions, whose address
+// is field `name` of struct type owner.
 func c09StoresToField(fns []*ssa.Function, owner *types.Named, name string) []*ssa.Store {
 	var out []*ssa.Store
 	for _, fn := range fns {
 		for _, b := range fn.Blocks {
 			for _, in := range b.Instrs {
-				st, ok := in.(*ssa.Store)
-				if !ok {
-					continue
-				}
-				if f, ok := c09FieldRef(st.Addr); ok && f.Owner != nil && f.Owner.Obj() == owner.Obj() && f.Name == name {
-					out = append(out, st)
+				if st, ok := in.(*ssa.Store); ok {
+					if f, ok := c09FieldRef(st.Addr); ok && f.is(owner, name) {
+						out = append(out, st)
+					}
 				}
 			}
 		}
@@ -237,19 +253,1200 @@ func c09Varargs(v ssa.Value) []ssa.Value {
 	return out
 }
 
+func c09SortedKeys[T any](m map[int64]T) []int64 {
+	var ks []int64
+	for k := range m {
+		ks = append(ks, k)
+	}
+	sort.Slice(ks, func(i, j int) bool { return ks[i] < ks[j] })
+	return ks
+}
+
+// c09StripIface removes interface conversions only (the concrete named type
+// of the operand is what matters).
+func c09StripIface(v ssa.Value) ssa.Value {
+	for {
+		switch x := v.(type) {
+		case *ssa.MakeInterface:
+			v = x.X
+		case *ssa.ChangeInterface:
+			v = x.X
+		default:
+			return v
+		}
+	}
+}
+
+// ---------------------------------------------------------------------------
+// Effective bodies: activations (frames), values in frames, sites
+//
+// A rule that looks for a site "in function F" looks in F's effective body: F,
+// its function literals and, transitively, the unexported same-package
+// functions F calls statically. A frame is one activation of a declared
+// function inside such a body, identified by its chain of call sites; a value
+// is always paired with the frame it lives in, so that a helper's parameter can
+// be followed to the caller's argument and a call to a helper to the value the
+// helper returns.
+
+const (
+	c09MaxDepth  = 8
+	c09MaxFrames = 24 // call chains considered per (root, function)
+)
+
+type c09Frame struct {
+	fn     *ssa.Function       // declared (top-level) function this activation runs
+	site   ssa.CallInstruction // the call (in parent's nest) that enters fn; nil for a root
+	parent *c09Frame
+	depth  int
+}
+
+type c09FrameKey struct {
+	parent *c09Frame
+	site   ssa.CallInstruction
+	fn     *ssa.Function // for activations entered through a function value (site == nil)
+}
+
+// c09V is a value in an activation.
+type c09V struct {
+	V ssa.Value
+	F *c09Frame
+}
+
+// c09Site is an instruction in an activation.
+type c09Site struct {
+	In ssa.Instruction
+	F  *c09Frame
+}
+
+func (s c09Site) val(v ssa.Value) c09V { return c09V{v, s.F} }
+func (s c09Site) store() *ssa.Store    { st, _ := s.In.(*ssa.Store); return st }
+func (s c09Site) call() CallSite {
+	ci, _ := s.In.(ssa.CallInstruction)
+	return CallSite{s.In.Parent(), ci}
+}
+func (s c09Site) top() *ssa.Function { return TopFunc(s.In.Parent()) }
+
+func (cx *c09Ctx) root(fn *ssa.Function) *c09Frame {
+	fn = TopFunc(fn)
+	if f, ok := cx.roots[fn]; ok {
+		return f
+	}
+	f := &c09Frame{fn: fn}
+	cx.roots[fn] = f
+	return f
+}
+
+// c09Callee: the declared function or function literal a call statically
+// enters (also a literal bound to the called local variable).
+func c09Callee(ci ssa.CallInstruction) *ssa.Function {
+	cc := ci.Common()
+	if cc.IsInvoke() {
+		return nil
+	}
+	if f := cc.StaticCallee(); f != nil {
+		return f
+	}
+	switch x := originValue(cc.Value).(type) {
+	case *ssa.MakeClosure:
+		f, _ := x.Fn.(*ssa.Function)
+		return f
+	case *ssa.Function:
+		return x
+	}
+	return nil
+}
+
+// c09Followable: callee belongs to the effective body of code in `from`'s
+// package: a declared, unexported, non-generic source function of the same
+// package.
+func c09Followable(callee, from *ssa.Function) bool {
+	if callee == nil || callee.Blocks == nil || callee.Synthetic != "" || callee.Parent() != nil {
+		return false
+	}
+	if callee.Pkg == nil || callee.Pkg != TopFunc(from).Pkg {
+		return false
+	}
+	if callee.Origin() != nil || callee.TypeParams().Len() > 0 {
+		return false
+	}
+	return !token.IsExported(callee.Name())
+}
+
+// child returns the activation entered by the call `site` executed in frame F
+// (nil when the callee is not followed). force follows any declared source
+// function (used for the Corpus enumerator a send function calls).
+func (cx *c09Ctx) child(F *c09Frame, site ssa.CallInstruction, force bool) *c09Frame {
+	if F == nil || site == nil {
+		return nil
+	}
+	callee := c09Callee(site)
+	if callee == nil || callee.Parent() != nil || callee.Blocks == nil {
+		return nil
+	}
+	if !force && !c09Followable(callee, F.fn) {
+		return nil
+	}
+	if F.depth >= c09MaxDepth {
+		return nil
+	}
+	for a := F; a != nil; a = a.parent {
+		if a.fn == callee {
+			return nil // recursion
+		}
+	}
+	key := c09FrameKey{F, site, nil}
+	if ch, ok := cx.frames[key]; ok {
+		return ch
+	}
+	ch := &c09Frame{fn: callee, site: site, parent: F, depth: F.depth + 1}
+	cx.frames[key] = ch
+	return ch
+}
+
+// valueChild: an activation of fn that frame F's code hands out as a function
+// value (method value, function passed as callback): it belongs to the
+// effective body, but its parameters are opaque and it is not ordered against
+// F's instructions.
+func (cx *c09Ctx) valueChild(F *c09Frame, fn *ssa.Function) *c09Frame {
+	if F == nil || fn == nil || F.depth >= c09MaxDepth {
+		return nil
+	}
+	for a := F; a != nil; a = a.parent {
+		if a.fn == fn {
+			return nil
+		}
+	}
+	key := c09FrameKey{F, nil, fn}
+	if ch, ok := cx.frames[key]; ok {
+		return ch
+	}
+	ch := &c09Frame{fn: fn, parent: F, depth: F.depth + 1}
+	cx.frames[key] = ch
+	return ch
+}
+
+// c09ValueFunc: the declared function behind a function used as a value (the
+// method behind a bound-method wrapper).
+func (cx *c09Ctx) valueFunc(f *ssa.Function) *ssa.Function {
+	if f == nil || f.Parent() != nil {
+		return nil
+	}
+	if f.Synthetic == "" {
+		return f
+	}
+	if mo, ok := f.Object().(*types.Func); ok && mo != nil {
+		if d := cx.p.SSA.FuncValue(mo); d != nil && d.Synthetic == "" {
+			return d
+		}
+	}
+	return nil
+}
+
+// A function literal that is only ever called, at exactly one place of its
+// enclosing declared function, behaves like a block of that function: its
+// parameters stand for that call's arguments.
+type c09LitCall struct {
+	site ssa.CallInstruction
+}
+
+func (cx *c09Ctx) litCall(lit *ssa.Function) ssa.CallInstruction {
+	if lit == nil || lit.Parent() == nil {
+		return nil
+	}
+	if lc, ok := cx.litCalls[lit]; ok {
+		return lc.site
+	}
+	cx.litCalls[lit] = c09LitCall{}
+	var site ssa.CallInstruction
+	n, bad := 0, false
+	isLit := func(v ssa.Value) bool {
+		switch x := v.(type) {
+		case *ssa.MakeClosure:
+			return x.Fn == ssa.Value(lit)
+		case *ssa.Function:
+			return x == lit
+		}
+		return false
+	}
+	for _, g := range c09WithLits(TopFunc(lit)) {
+		for _, b := range g.Blocks {
+			for _, in := range b.Instrs {
+				if ci, ok := in.(ssa.CallInstruction); ok && c09Callee(ci) == lit {
+					if _, isCall := ci.(*ssa.Call); !isCall {
+						bad = true // go/defer of the literal: runs elsewhere
+					}
+					site = ci
+					n++
+					for _, a := range ci.Common().Args {
+						if isLit(a) || isLit(originValue(a)) {
+							bad = true
+						}
+					}
+					continue
+				}
+				if mc, ok := in.(*ssa.MakeClosure); ok && mc.Fn == ssa.Value(lit) {
+					continue // creation
+				}
+				for _, op := range in.Operands(nil) {
+					if *op == nil || !isLit(*op) {
+						continue
+					}
+					// the literal value may only be stored into a plain local variable
+					var al *ssa.Alloc
+					if st, isStore := in.(*ssa.Store); isStore && st.Val == *op {
+						al, _ = st.Addr.(*ssa.Alloc)
+					}
+					if al == nil || !plainVariable(al) {
+						bad = true
+						continue
+					}
+					// every load of that variable must be the operand of a call
+					for _, ld := range c09LoadsOf(al) {
+						if ld.Referrers() == nil {
+							continue
+						}
+						for _, u := range nonDebug(*ld.Referrers()) {
+							ci, isCall := u.(ssa.CallInstruction)
+							if !isCall || ci.Common().Value != ssa.Value(ld) {
+								bad = true
+							}
+						}
+					}
+				}
+			}
+		}
+	}
+	if n != 1 || bad {
+		return nil
+	}
+	cx.litCalls[lit] = c09LitCall{site}
+	return site
+}
+
+// c09LoadsOf lists the loads of a plain variable, in its function and the
+// literals that capture it.
+func c09LoadsOf(al *ssa.Alloc) []*ssa.UnOp {
+	var out []*ssa.UnOp
+	var walk func(addr ssa.Value, depth int)
+	walk = func(addr ssa.Value, depth int) {
+		refs := addr.Referrers()
+		if refs == nil || depth > 8 {
+			return
+		}
+		for _, r := range *refs {
+			switch r := r.(type) {
+			case *ssa.UnOp:
+				if r.Op == token.MUL {
+					out = append(out, r)
+				}
+			case *ssa.MakeClosure:
+				fn := r.Fn.(*ssa.Function)
+				for i, b := range r.Bindings {
+					if b == addr && i < len(fn.FreeVars) {
+						walk(fn.FreeVars[i], depth+1)
+					}
+				}
+			}
+		}
+	}
+	walk(al, 0)
+	return out
+}
+
+func c09ParamIndex(p *ssa.Parameter) int {
+	for i, q := range p.Parent().Params {
+		if q == p {
+			return i
+		}
+	}
+	return -1
+}
+
+// paramArg: the caller's argument a parameter stands for in frame F.
+func (cx *c09Ctx) paramArg(p *ssa.Parameter, F *c09Frame) (c09V, bool) {
+	g := p.Parent()
+	idx := c09ParamIndex(p)
+	if idx < 0 {
+		return c09V{}, false
+	}
+	var site ssa.CallInstruction
+	up := F
+	if g.Parent() == nil {
+		if F == nil || F.fn != g || F.site == nil {
+			return c09V{}, false
+		}
+		site, up = F.site, F.parent
+	} else if site = cx.litCall(g); site == nil {
+		return c09V{}, false
+	}
+	args := site.Common().Args
+	if len(args) != len(g.Params) {
+		return c09V{}, false
+	}
+	return c09V{args[idx], up}, true
+}
+
+// callReturns: the returns of the function a call enters, and the activation
+// they live in, when the callee is part of the effective body.
+func (cx *c09Ctx) callReturns(call *ssa.Call, F *c09Frame) ([]ReturnInfo, *c09Frame, bool) {
+	callee := c09Callee(call)
+	if callee == nil || callee.Blocks == nil {
+		return nil, nil, false
+	}
+	if callee.Parent() != nil {
+		if cx.litCall(callee) != ssa.CallInstruction(call) {
+			return nil, nil, false
+		}
+		return Returns(callee), F, true
+	}
+	G := cx.child(F, call, false)
+	if G == nil {
+		return nil, nil, false
+	}
+	return Returns(callee), G, true
+}
+
+// uniqueResult: result idx of a call into the effective body, when every
+// return of the callee yields the same value.
+func (cx *c09Ctx) uniqueResult(call *ssa.Call, idx int, F *c09Frame) (c09V, bool) {
+	rets, G, ok := cx.callReturns(call, F)
+	if !ok || len(rets) == 0 {
+		return c09V{}, false
+	}
+	var first c09V
+	for i, ri := range rets {
+		if idx >= len(ri.Results) {
+			return c09V{}, false
+		}
+		o := cx.origin(c09V{ri.Results[idx], G})
+		if i == 0 {
+			first = o
+		} else if o != first {
+			return c09V{}, false
+		}
+	}
+	return first, true
+}
+
+// origin is originValue across the effective body: value-preserving wrappers,
+// loads of single-assignment variables, helper parameters (-> the caller's
+// argument), calls of helpers whose returns agree (-> the returned value), and
+// phis all of whose edges agree.
+func (cx *c09Ctx) origin(v c09V) c09V {
+	if v.V == nil {
+		return v
+	}
+	if o, ok := cx.origins[v]; ok {
+		return o
+	}
+	if cx.originDepth > 24 {
+		return c09V{originValue(v.V), v.F}
+	}
+	cx.originDepth++
+	defer func() { cx.originDepth-- }()
+	start := v
+	for i := 0; i < 64 && v.V != nil; i++ {
+		v.V = originValue(v.V)
+		var nv c09V
+		ok := false
+		switch x := v.V.(type) {
+		case *ssa.Parameter:
+			nv, ok = cx.paramArg(x, v.F)
+		case *ssa.Call:
+			if x.Call.Signature().Results().Len() == 1 {
+				nv, ok = cx.uniqueResult(x, 0, v.F)
+			}
+		case *ssa.Extract:
+			if call, isCall := x.Tuple.(*ssa.Call); isCall {
+				nv, ok = cx.uniqueResult(call, x.Index, v.F)
+			}
+		case *ssa.Phi:
+			var first c09V
+			same, n := true, 0
+			for _, e := range x.Edges {
+				if e == ssa.Value(x) {
+					continue
+				}
+				if _, isPhi := e.(*ssa.Phi); isPhi {
+					same = false // no phi cycles
+					break
+				}
+				o := cx.origin(c09V{e, v.F})
+				if n == 0 {
+					first = o
+				} else if o != first {
+					same = false
+				}
+				n++
+			}
+			if same && n > 0 {
+				nv, ok = first, true
+			}
+		}
+		if !ok {
+			break
+		}
+		v = nv
+	}
+	cx.origins[start] = v
+	return v
+}
+
+// originUntil is origin that stops as soon as stop(v) holds (origin strips
+// type conversions; a rule that needs the named type of a converted value
+// stops at the conversion).
+func (cx *c09Ctx) originUntil(v c09V, stop func(c09V) bool) c09V {
+	for i := 0; i < 64 && v.V != nil; i++ {
+		if stop(v) {
+			return v
+		}
+		var nv c09V
+		ok := false
+		switch x := v.V.(type) {
+		case *ssa.ChangeType:
+			nv, ok = c09V{x.X, v.F}, true
+		case *ssa.MakeInterface:
+			nv, ok = c09V{x.X, v.F}, true
+		case *ssa.ChangeInterface:
+			nv, ok = c09V{x.X, v.F}, true
+		case *ssa.UnOp:
+			if x.Op == token.MUL {
+				if r := resolveLoad(x); r != nil {
+					nv, ok = c09V{r, v.F}, true
+				}
+			}
+		case *ssa.Parameter:
+			nv, ok = cx.paramArg(x, v.F)
+		case *ssa.Call:
+			if x.Call.Signature().Results().Len() == 1 {
+				nv, ok = cx.uniqueResult(x, 0, v.F)
+			}
+		case *ssa.Extract:
+			if call, isCall := x.Tuple.(*ssa.Call); isCall {
+				nv, ok = cx.uniqueResult(call, x.Index, v.F)
+			}
+		case *ssa.Phi:
+			if o := originValue(x); o != ssa.Value(x) {
+				nv, ok = c09V{o, v.F}, true
+			}
+		}
+		if !ok {
+			return v
+		}
+		v = nv
+	}
+	return v
+}
+
+func (cx *c09Ctx) sameOrigin(a, b c09V) bool {
+	oa, ob := cx.origin(a), cx.origin(b)
+	if oa == ob {
+		return true
+	}
+	if ph, ok := oa.V.(*ssa.Phi); ok {
+		for _, e := range ph.Edges {
+			if cx.origin(c09V{e, oa.F}) == ob {
+				return true
+			}
+		}
+	}
+	if ph, ok := ob.V.(*ssa.Phi); ok {
+		for _, e := range ph.Edges {
+			if cx.origin(c09V{e, ob.F}) == oa {
+				return true
+			}
+		}
+	}
+	return false
+}
+
+// sameField: the same value, or reads of the same field of the same base
+// (go/ssa performs no CSE: `meta.Ref` read twice is two instructions).
+func (cx *c09Ctx) sameField(a, b c09V, depth int) bool {
+	if cx.sameOrigin(a, b) {
+		return true
+	}
+	if depth > 4 {
+		return false
+	}
+	oa, ob := cx.origin(a), cx.origin(b)
+	fa, ok1 := c09LoadedField(oa.V)
+	fb, ok2 := c09LoadedField(ob.V)
+	if !ok1 || !ok2 || fa.Name != fb.Name || fa.Owner == nil || fb.Owner == nil || fa.Owner.Obj() != fb.Owner.Obj() {
+		return false
+	}
+	return cx.sameField(c09V{fa.Base, oa.F}, c09V{fb.Base, ob.F}, depth+1)
+}
+
+// live: origin, and where that stops at a phi or at a helper whose returns
+// differ, the single non-constant value among the alternatives (sentinel
+// results such as `return "", -1` on a failure path are set aside). Only for
+// structural matching ("which call produced this text"), never to conclude
+// that a value is constant.
+func (cx *c09Ctx) live(v c09V) c09V {
+	o := cx.origin(v)
+	switch o.V.(type) {
+	case *ssa.Phi, *ssa.Extract, *ssa.Call:
+	default:
+		return o
+	}
+	var cand []c09V
+	for _, l := range cx.expandBySort(o) {
+		lo := cx.origin(l.V)
+		if _, isC := lo.V.(*ssa.Const); isC {
+			continue
+		}
+		dup := false
+		for _, c := range cand {
+			dup = dup || c == lo
+		}
+		if !dup {
+			cand = append(cand, lo)
+		}
+	}
+	if len(cand) == 1 {
+		return cand[0]
+	}
+	return o
+}
+
+func (cx *c09Ctx) constString(v c09V) (string, bool) { return ConstString(cx.origin(v).V) }
+func (cx *c09Ctx) constInt(v c09V) (int64, bool)     { return ConstInt(cx.origin(v).V) }
+
+// loadedField: v is (originates in) the value of a struct field.
+func (cx *c09Ctx) loadedField(v c09V) (c09Fld, c09V, bool) {
+	o := cx.origin(v)
+	f, ok := c09LoadedField(o.V)
+	return f, o, ok
+}
+
+// dependsOn is DependsOn across the effective body.
+func (cx *c09Ctx) dependsOn(v c09V, target func(c09V) bool) bool {
+	seen := map[c09V]bool{}
+	var walk func(v c09V, depth int) bool
+	walk = func(v c09V, depth int) bool {
+		if v.V == nil || depth > 60 {
+			return false
+		}
+		if seen[v] {
+			return false
+		}
+		seen[v] = true
+		if target(v) {
+			return true
+		}
+		if o := cx.origin(v); o != v {
+			if walk(o, depth+1) {
+				return true
+			}
+		}
+		switch x := v.V.(type) {
+		case *ssa.UnOp:
+			if x.Op == token.MUL {
+				if cell, ok := varOf(x.X); ok {
+					for _, st := range storesTo(cell) {
+						if walk(c09V{st.Val, v.F}, depth+1) {
+							return true
+						}
+					}
+				}
+			}
+		case *ssa.Alloc:
+			// a local whose address is used (`cand := pns[i]; cand.pn`): what was stored into it
+			for _, st := range storesTo(x) {
+				if walk(c09V{st.Val, v.F}, depth+1) {
+					return true
+				}
+			}
+		case *ssa.Parameter:
+			if a, ok := cx.paramArg(x, v.F); ok {
+				return walk(a, depth+1)
+			}
+			return false
+		case *ssa.Call:
+			if rets, G, ok := cx.callReturns(x, v.F); ok {
+				for _, ri := range rets {
+					for _, res := range ri.Results {
+						if walk(c09V{res, G}, depth+1) {
+							return true
+						}
+					}
+				}
+			}
+		case *ssa.Extract:
+			if call, isCall := x.Tuple.(*ssa.Call); isCall {
+				if rets, G, ok := cx.callReturns(call, v.F); ok {
+					for _, ri := range rets {
+						if x.Index < len(ri.Results) && walk(c09V{ri.Results[x.Index], G}, depth+1) {
+							return true
+						}
+					}
+					return false
+				}
+			}
+		}
+		if in, ok := v.V.(ssa.Instruction); ok {
+			for _, op := range in.Operands(nil) {
+				if *op != nil && walk(c09V{*op, v.F}, depth+1) {
+					return true
+				}
+			}
+		}
+		return false
+	}
+	return walk(v, 0)
+}
+
+// ---------------------------------------------------------------------------
+// Reach and sites
+
+type c09Edge struct {
+	site ssa.CallInstruction // nil: the callee is handed out as a function value
+	from *ssa.Function       // declared caller; nil when the site lies in the start nest
+}
+
+type c09ReachKey struct {
+	start *ssa.Function
+	F     *c09Frame
+}
+
+// c09Reach is the effective body that starts at function `start` (a declared
+// function or one of its literals) running in frame F.
+type c09Reach struct {
+	start  *ssa.Function
+	F      *c09Frame
+	fns    []*ssa.Function
+	edges  map[*ssa.Function][]c09Edge
+	frames map[*ssa.Function][]*c09Frame
+}
+
+func (cx *c09Ctx) reach(start *ssa.Function, F *c09Frame) *c09Reach {
+	key := c09ReachKey{start, F}
+	if rc, ok := cx.reaches[key]; ok {
+		return rc
+	}
+	rc := &c09Reach{start: start, F: F, edges: map[*ssa.Function][]c09Edge{}, frames: map[*ssa.Function][]*c09Frame{}}
+	cx.reaches[key] = rc
+	seen := map[*ssa.Function]bool{F.fn: true}
+	scan := func(region, from *ssa.Function) []*ssa.Function {
+		var next []*ssa.Function
+		for _, g := range c09WithLits(region) {
+			for _, b := range g.Blocks {
+				for _, in := range b.Instrs {
+					ci, isCall := in.(ssa.CallInstruction)
+					// functions of the package handed out as values (method values, callbacks)
+					for _, op := range in.Operands(nil) {
+						f, isF := (*op).(*ssa.Function)
+						if !isF || (isCall && ci.Common().Value == *op) {
+							continue
+						}
+						if d := cx.valueFunc(f); c09Followable(d, region) {
+							dup := false
+							for _, e := range rc.edges[d] {
+								dup = dup || (e.site == nil && e.from == from)
+							}
+							if !dup {
+								rc.edges[d] = append(rc.edges[d], c09Edge{nil, from})
+							}
+							if !seen[d] {
+								seen[d] = true
+								rc.fns = append(rc.fns, d)
+								next = append(next, d)
+							}
+						}
+					}
+					if !isCall {
+						continue
+					}
+					callee := c09Callee(ci)
+					if !c09Followable(callee, region) {
+						continue
+					}
+					rc.edges[callee] = append(rc.edges[callee], c09Edge{ci, from})
+					if !seen[callee] {
+						seen[callee] = true
+						rc.fns = append(rc.fns, callee)
+						next = append(next, callee)
+					}
+				}
+			}
+		}
+		return next
+	}
+	level := scan(start, nil)
+	for d := F.depth + 1; d < c09MaxDepth && len(level) > 0; d++ {
+		var nl []*ssa.Function
+		for _, fn := range level {
+			nl = append(nl, scan(fn, fn)...)
+		}
+		level = nl
+	}
+	return rc
+}
+
+func (rc *c09Reach) framesTo(cx *c09Ctx, fn *ssa.Function, depth int) []*c09Frame {
+	if fs, ok := rc.frames[fn]; ok {
+		return fs
+	}
+	if depth > c09MaxDepth {
+		return nil
+	}
+	rc.frames[fn] = nil // recursion guard
+	var out []*c09Frame
+	seen := map[*c09Frame]bool{}
+	for _, e := range rc.edges[fn] {
+		parents := []*c09Frame{rc.F}
+		if e.from != nil {
+			parents = rc.framesTo(cx, e.from, depth+1)
+		}
+		for _, P := range parents {
+			var ch *c09Frame
+			if e.site == nil {
+				ch = cx.valueChild(P, fn)
+			} else {
+				ch = cx.child(P, e.site, false)
+			}
+			if ch != nil && !seen[ch] && len(out) < c09MaxFrames {
+				seen[ch] = true
+				out = append(out, ch)
+			}
+		}
+	}
+	rc.frames[fn] = out
+	return out
+}
+
+// sites lists the instructions satisfying pred in the effective body starting
+// at `start` (frame F), each paired with every activation it runs in.
+func (cx *c09Ctx) sites(start *ssa.Function, F *c09Frame, pred func(ssa.Instruction) bool) []c09Site {
+	rc := cx.reach(start, F)
+	var out []c09Site
+	scan := func(region *ssa.Function, frames func() []*c09Frame) {
+		for _, g := range c09WithLits(region) {
+			for _, b := range g.Blocks {
+				for _, in := range b.Instrs {
+					if pred(in) {
+						for _, fr := range frames() {
+							out = append(out, c09Site{in, fr})
+						}
+					}
+				}
+			}
+		}
+	}
+	scan(start, func() []*c09Frame { return []*c09Frame{F} })
+	for _, fn := range rc.fns {
+		fn := fn
+		scan(fn, func() []*c09Frame { return rc.framesTo(cx, fn, 0) })
+	}
+	return out
+}
+
+func (cx *c09Ctx) fieldStores(start *ssa.Function, F *c09Frame, owner *types.Named, name string) []c09Site {
+	return cx.sites(start, F, func(in ssa.Instruction) bool {
+		st, ok := in.(*ssa.Store)
+		if !ok {
+			return false
+		}
+		f, ok := c09FieldRef(st.Addr)
+		return ok && f.is(owner, name)
+	})
+}
+
+func (cx *c09Ctx) callSites(start *ssa.Function, F *c09Frame, pred func(CallSite) bool) []c09Site {
+	return cx.sites(start, F, func(in ssa.Instruction) bool {
+		ci, ok := in.(ssa.CallInstruction)
+		return ok && pred(CallSite{in.Parent(), ci})
+	})
+}
+
+// ---------------------------------------------------------------------------
+// Facts, order and success across activations
+
+type c09Fact struct {
+	Cond c09V
+	Val  bool
+}
+
+// implied lists what `cond == val` implies: itself, the operand of a negation,
+// and for the phi go/ssa builds for `a && b` / `a || b` used as a value the
+// conjuncts (disjuncts) that must all have held (failed).
+func (cx *c09Ctx) implied(cond c09V, val bool, depth int) []c09Fact {
+	out := []c09Fact{{cond, val}}
+	if depth > 6 {
+		return out
+	}
+	switch x := cond.V.(type) {
+	case *ssa.UnOp:
+		if x.Op == token.NOT {
+			out = append(out, cx.implied(c09V{x.X, cond.F}, !val, depth+1)...)
+		} else if x.Op == token.MUL {
+			if r := resolveLoad(x); r != nil {
+				out = append(out, cx.implied(c09V{r, cond.F}, val, depth+1)...)
+			}
+		}
+	case *ssa.Phi:
+		if !c09IsBool(x.Type()) {
+			break
+		}
+		live := -1
+		for i, e := range x.Edges {
+			if c, ok := e.(*ssa.Const); ok && c.Value != nil && c.Value.Kind() == constant.Bool && constant.BoolVal(c.Value) != val {
+				continue // this edge yields the other truth value
+			}
+			if live >= 0 {
+				live = -2
+				break
+			}
+			live = i
+		}
+		if live >= 0 {
+			out = append(out, cx.implied(c09V{x.Edges[live], cond.F}, val, depth+1)...)
+			pred := x.Block().Preds[live]
+			for _, f := range FactsAt(pred) {
+				out = append(out, cx.implied(c09V{f.Cond, cond.F}, f.Val, depth+1)...)
+			}
+		}
+	case *ssa.Parameter:
+		if a, ok := cx.paramArg(x, cond.F); ok {
+			out = append(out, cx.implied(a, val, depth+1)...)
+		}
+	}
+	return out
+}
+
+// callerBlock: the block (and frame) from which the function of block b was
+// entered, when that is statically unique.
+func (cx *c09Ctx) callerBlock(b *ssa.BasicBlock, F *c09Frame) (*ssa.BasicBlock, *c09Frame) {
+	g := b.Parent()
+	if g.Parent() != nil {
+		if site := cx.litCall(g); site != nil {
+			return site.Block(), F
+		}
+		return nil, nil
+	}
+	if F != nil && F.fn == g && F.site != nil {
+		return F.site.Block(), F.parent
+	}
+	return nil, nil
+}
+
+// factsAt: the branch facts known at block b of frame F: those of b's
+// dominators and, transitively, those known at the call that entered b's
+// function (they still hold while the helper runs).
+func (cx *c09Ctx) factsAt(b *ssa.BasicBlock, F *c09Frame) []c09Fact {
+	var out []c09Fact
+	for i := 0; b != nil && i <= c09MaxDepth*2; i++ {
+		for _, f := range FactsAt(b) {
+			out = append(out, cx.implied(c09V{f.Cond, F}, f.Val, 0)...)
+		}
+		b, F = cx.callerBlock(b, F)
+	}
+	return out
+}
+
+// knownTrue: value v is known to be `want` at block b of frame F.
+func (cx *c09Ctx) known(b *ssa.BasicBlock, F *c09Frame, v c09V, want bool) bool {
+	ov := cx.origin(v)
+	for _, f := range cx.factsAt(b, F) {
+		if f.Val == want && (f.Cond == v || cx.origin(f.Cond) == ov) {
+			return true
+		}
+	}
+	return false
+}
+
+// knownNil: what the facts at b say about v == nil.
+func (cx *c09Ctx) knownNil(b *ssa.BasicBlock, F *c09Frame, v c09V) (known, isNil bool) {
+	for _, f := range cx.factsAt(b, F) {
+		bo, ok := f.Cond.V.(*ssa.BinOp)
+		if !ok || (bo.Op != token.EQL && bo.Op != token.NEQ) {
+			continue
+		}
+		var other ssa.Value
+		switch {
+		case IsNilConst(bo.Y):
+			other = bo.X
+		case IsNilConst(bo.X):
+			other = bo.Y
+		default:
+			continue
+		}
+		if !cx.sameOrigin(c09V{other, f.Cond.F}, v) {
+			continue
+		}
+		return true, (bo.Op == token.EQL) == f.Val
+	}
+	return false, false
+}
+
+func c09LCA(a, b *c09Frame) *c09Frame {
+	for a != nil && b != nil && a != b {
+		if a.depth >= b.depth {
+			a = a.parent
+		} else {
+			b = b.parent
+		}
+	}
+	if a == b {
+		return a
+	}
+	return nil
+}
+
+// liftTo: the instruction of frame A's nest that leads to site s (s.In itself
+// when s runs in A, else the call that enters the chain towards s.F).
+func c09LiftTo(s c09Site, A *c09Frame) ssa.Instruction {
+	in, f := s.In, s.F
+	for f != nil && f != A {
+		if f.site == nil {
+			return nil // entered through a function value: not ordered against the caller's instructions
+		}
+		in, f = f.site, f.parent
+	}
+	if f != A {
+		return nil
+	}
+	return in
+}
+
+// lift brings two sites into one function of their lowest common activation.
+func (cx *c09Ctx) lift(a, b c09Site) (ia, ib ssa.Instruction, A *c09Frame) {
+	A = c09LCA(a.F, b.F)
+	if A == nil {
+		return nil, nil, nil
+	}
+	ia, ib = c09LiftTo(a, A), c09LiftTo(b, A)
+	if ia == nil || ib == nil {
+		return nil, nil, nil
+	}
+	// literals called at one place: hoist to that call
+	hoist := func(in, other ssa.Instruction) ssa.Instruction {
+		for i := 0; i < 8 && in.Parent() != other.Parent() && in.Parent().Parent() != nil; i++ {
+			// do not hoist out of a literal that also encloses the other instruction
+			enc := false
+			for g := other.Parent(); g != nil; g = g.Parent() {
+				if g == in.Parent() {
+					enc = true
+				}
+			}
+			if enc {
+				break
+			}
+			site := cx.litCall(in.Parent())
+			if site == nil {
+				break
+			}
+			in = site
+		}
+		return in
+	}
+	ia = hoist(ia, ib)
+	ib = hoist(ib, ia)
+	return ia, ib, A
+}
+
+// precedes: a executes before b on every path to b.
+func (cx *c09Ctx) precedes(a, b c09Site) bool {
+	ia, ib, _ := cx.lift(a, b)
+	if ia == nil || ia == ib {
+		return false
+	}
+	return Precedes(ia, ib)
+}
+
+// reachableAfter: may b execute after a? known=false when the two cannot be
+// brought into one function.
+func (cx *c09Ctx) reachableAfter(a, b c09Site) (reach, known bool) {
+	ia, ib, _ := cx.lift(a, b)
+	if ia == nil || ia.Parent() != ib.Parent() {
+		return true, false
+	}
+	if ia == ib {
+		return false, true
+	}
+	return ReachableFrom(ia, nil)[ib], true
+}
+
+// succeededAt: call c (of frame F) is known to have reported success at block b
+// of the same function: its trailing error is nil / its trailing bool is true.
+func (cx *c09Ctx) succeededAt(c *ssa.Call, F *c09Frame, b *ssa.BasicBlock) (bool, string) {
+	res := c.Call.Signature().Results()
+	if res.Len() == 0 {
+		return true, ""
+	}
+	last := res.At(res.Len() - 1).Type()
+	rv := ResultValue(c, res.Len()-1)
+	switch {
+	case isErrorType(last):
+		if rv == nil {
+			return false, "the error result of " + (CallSite{c.Parent(), c}).CalleeKey() + " is discarded"
+		}
+		if k, isNil := cx.knownNil(b, F, c09V{rv, F}); k && isNil {
+			return true, ""
+		}
+		return false, "the site is not on the err == nil edge of " + (CallSite{c.Parent(), c}).CalleeKey()
+	case c09IsBool(last) && res.Len() > 1:
+		if rv == nil {
+			return false, "the ok result of " + (CallSite{c.Parent(), c}).CalleeKey() + " is discarded"
+		}
+		if cx.known(b, F, c09V{rv, F}, true) {
+			return true, ""
+		}
+		return false, "the site is not on the ok edge of " + (CallSite{c.Parent(), c}).CalleeKey()
+	}
+	return true, ""
+}
+
+// successDominated (H2 across calls): every path to site S has passed through
+// call P and P reported success. A call to a helper that contains P counts as
+// "P succeeded" on the edge where the helper's own ok/err result says success,
+// provided every return of the helper that may report success is itself
+// success-dominated by P (or returns the success result of the call that leads
+// to P, under the same proviso).
+func (cx *c09Ctx) successDominated(P, S c09Site, depth int) (bool, string) {
+	if depth > c09MaxDepth*2 {
+		return false, "call chain too deep"
+	}
+	ip, is, A := cx.lift(P, S)
+	if ip == nil {
+		return false, "the call and the site do not share an activation"
+	}
+	if ip.Parent() != is.Parent() || ip == is || !Precedes(ip, is) {
+		return false, "the call does not dominate the site"
+	}
+	call, ok := ip.(*ssa.Call)
+	if !ok {
+		return false, "the call is deferred or spawned"
+	}
+	if ok, why := cx.succeededAt(call, A, is.Block()); !ok {
+		return false, why
+	}
+	if ip == P.In && P.F == A {
+		return true, ""
+	}
+	G := cx.entered(call, A)
+	if G == nil {
+		return false, "cannot follow the call towards " + P.call().CalleeKey()
+	}
+	return cx.returnsDominated(P, call, G, depth+1)
+}
+
+// entered: the activation a call of frame A runs its callee in (A itself for a
+// literal called at one place).
+func (cx *c09Ctx) entered(call *ssa.Call, A *c09Frame) *c09Frame {
+	callee := c09Callee(call)
+	if callee == nil {
+		return nil
+	}
+	if callee.Parent() != nil {
+		if cx.litCall(callee) == ssa.CallInstruction(call) {
+			return A
+		}
+		return nil
+	}
+	return cx.child(A, call, false)
+}
+
+// returnsDominated: every return of the function entered by `call` (running
+// in G) that may report success is success-dominated by P.
+func (cx *c09Ctx) returnsDominated(P c09Site, call *ssa.Call, G *c09Frame, depth int) (bool, string) {
+	callee := c09Callee(call)
+	if callee == nil || depth > c09MaxDepth*2 {
+		return false, "call chain too deep"
+	}
+	res := callee.Signature.Results()
+	succIdx := -1
+	if res.Len() > 0 {
+		if t := res.At(res.Len() - 1).Type(); isErrorType(t) || (c09IsBool(t) && res.Len() > 1) {
+			succIdx = res.Len() - 1
+		}
+	}
+	// the instruction of the callee that leads to P
+	var inner *ssa.Call
+	if in := c09LiftTo(P, G); in != nil {
+		inner, _ = in.(*ssa.Call)
+	}
+	for _, ri := range Returns(callee) {
+		if succIdx >= 0 && succIdx < len(ri.Results) {
+			sv := cx.origin(c09V{ri.Results[succIdx], G})
+			if c, isC := sv.V.(*ssa.Const); isC && c.Value != nil && c.Value.Kind() == constant.Bool && !constant.BoolVal(c.Value) {
+				continue // reports ok = false
+			}
+			if isErrorType(res.At(succIdx).Type()) && isNonNilErrorExpr(sv.V) {
+				continue // reports an error
+			}
+			// the result is known to report failure on this path (`if !ok { return }`)
+			if c09IsBool(res.At(succIdx).Type()) && cx.known(ri.Ret.Block(), G, c09V{ri.Results[succIdx], G}, false) {
+				continue
+			}
+			if isErrorType(res.At(succIdx).Type()) {
+				if k, isNil := cx.knownNil(ri.Ret.Block(), G, c09V{ri.Results[succIdx], G}); k && !isNil {
+					continue
+				}
+			}
+			// the return hands on the success result of the call that leads to P
+			if inner != nil && inner.Parent() == ri.Ret.Parent() && Precedes(inner, ri.Ret) {
+				if n := inner.Call.Signature().Results().Len(); n > 0 {
+					if irv := ResultValue(inner, n-1); irv != nil && cx.sameOrigin(c09V{irv, G}, c09V{ri.Results[succIdx], G}) {
+						if inner == P.In && P.F == G {
+							continue
+						}
+						if H := cx.entered(inner, G); H != nil {
+							if ok, _ := cx.returnsDominated(P, inner, H, depth+1); ok {
+								continue
+							}
+						}
+					}
+				}
+			}
+		}
+		if ok, why := cx.successDominated(P, c09Site{ri.Ret, G}, depth+1); !ok {
+			return false, fmt.Sprintf("inside %s a return that may report success is not preceded by a successful %s (%s)", FuncKey(callee), P.call().CalleeKey(), why)
+		}
+	}
+	return true, ""
+}
+
+// boolAt: what the facts at block b (frame F) say about a boolean the caller
+// recognises with isTarget.
+func (cx *c09Ctx) boolAt(b *ssa.BasicBlock, F *c09Frame, isTarget func(c09V) bool) (known, val bool) {
+	for _, f := range cx.factsAt(b, F) {
+		if isTarget(f.Cond) {
+			return true, f.Val
+		}
+	}
+	return false, false
+}
+
+// boolOnEdge: the same for the CFG edge pred->succ.
+func (cx *c09Ctx) boolOnEdge(pred, succ *ssa.BasicBlock, F *c09Frame, isTarget func(c09V) bool) (known, val bool) {
+	if n := len(pred.Instrs); n > 0 {
+		if ifi, ok := pred.Instrs[n-1].(*ssa.If); ok && len(pred.Succs) == 2 && pred.Succs[0] != pred.Succs[1] {
+			for _, f := range cx.implied(c09V{ifi.Cond, F}, pred.Succs[0] == succ, 0) {
+				if isTarget(f.Cond) {
+					return true, f.Val
+				}
+			}
+		}
+	}
+	return cx.boolAt(pred, F, isTarget)
+}
+
 // ---------------------------------------------------------------------------
 // Sort facts: which SortType constant q.Sort is known to equal
 
 // sortOfCond interprets cond==val as "SearchQuery.Sort == k".
-func (cx *c09Ctx) sortOfCond(cond ssa.Value, val bool) (int64, bool) {
+func (cx *c09Ctx) sortOfCond(cond c09V, val bool) (int64, bool) {
+	c := cond.V
 	for {
-		if u, ok := cond.(*ssa.UnOp); ok && u.Op == token.NOT {
-			cond, val = u.X, !val
+		if u, ok := c.(*ssa.UnOp); ok && u.Op == token.NOT {
+			c, val = u.X, !val
 			continue
 		}
 		break
 	}
-	bo, ok := cond.(*ssa.BinOp)
+	bo, ok := c.(*ssa.BinOp)
 	if !ok || !((bo.Op == token.EQL && val) || (bo.Op == token.NEQ && !val)) {
 		return 0, false
 	}
@@ -257,18 +1454,18 @@ func (cx *c09Ctx) sortOfCond(cond ssa.Value, val bool) (int64, bool) {
 	if _, isC := x.(*ssa.Const); isC {
 		x, y = y, x
 	}
-	k, ok := ConstInt(y)
+	k, ok := cx.constInt(c09V{y, cond.F})
 	if !ok {
 		return 0, false
 	}
-	f, ok := c09LoadedField(originValue(x))
-	if !ok || f.Owner == nil || f.Owner.Obj() != cx.tQuery.Obj() || f.Name != "Sort" {
+	f, _, ok := cx.loadedField(c09V{x, cond.F})
+	if !ok || !f.is(cx.tQuery, "Sort") {
 		return 0, false
 	}
 	return k, true
 }
 
-// sortSet is the set of SortType constants q.Sort may equal at a program
+// c09SortSet is the set of SortType constants q.Sort may equal at a program
 // point; nil means unknown (any).
 type c09SortSet map[int64]bool
 
@@ -283,44 +1480,52 @@ func (s c09SortSet) clone() c09SortSet {
 	return o
 }
 
-// negSortOfCond interprets cond==val as "SearchQuery.Sort != k".
-func (cx *c09Ctx) negSortOfCond(cond ssa.Value, val bool) (int64, bool) {
-	return cx.sortOfCond(cond, !val)
+type c09BF struct {
+	b *ssa.BasicBlock
+	F *c09Frame
 }
 
-// possibleSorts computes the sorts possible at entry of block b from the
-// dominating facts and, failing a positive fact, from the union over the
-// incoming edges (this is how `if q.Sort == A || q.Sort == B { ... }` and an
-// `else` arm inside it are understood).
-func (cx *c09Ctx) possibleSorts(b *ssa.BasicBlock, busy map[*ssa.BasicBlock]bool) c09SortSet {
+// possibleSorts computes the sorts possible at entry of block b (frame F) from
+// the dominating facts and, failing a positive fact, from the union over the
+// incoming edges (this is how `if q.Sort == A || q.Sort == B { ... }`, an
+// `else` arm inside it and the early-return form are understood); at the entry
+// of a helper the sorts possible at the call that entered it.
+func (cx *c09Ctx) possibleSorts(b *ssa.BasicBlock, F *c09Frame, busy map[c09BF]bool) c09SortSet {
 	var set c09SortSet
 	excl := map[int64]bool{}
-	for _, f := range FactsAt(b) {
-		if k, ok := cx.sortOfCond(f.Cond, f.Val); ok {
-			if set == nil {
-				set = c09SortSet{k: true}
-			} else if !set[k] {
-				set = c09SortSet{}
+	for _, ft := range FactsAt(b) {
+		for _, f := range cx.implied(c09V{ft.Cond, F}, ft.Val, 0) {
+			if k, ok := cx.sortOfCond(f.Cond, f.Val); ok {
+				if set == nil {
+					set = c09SortSet{k: true}
+				} else if !set[k] {
+					set = c09SortSet{}
+				}
+			} else if k, ok := cx.sortOfCond(f.Cond, !f.Val); ok {
+				excl[k] = true
 			}
-		} else if k, ok := cx.negSortOfCond(f.Cond, f.Val); ok {
-			excl[k] = true
 		}
 	}
-	if set == nil && len(b.Preds) > 0 && !busy[b] && len(busy) < 40 {
-		busy[b] = true
-		union := c09SortSet{}
-		for _, p := range b.Preds {
-			ps := cx.possibleOnEdge(p, b, busy)
-			if ps == nil {
-				union = nil
-				break
+	key := c09BF{b, F}
+	if set == nil && !busy[key] && len(busy) < 80 {
+		busy[key] = true
+		if len(b.Preds) > 0 {
+			union := c09SortSet{}
+			for _, p := range b.Preds {
+				ps := cx.possibleOnEdge(p, b, F, busy)
+				if ps == nil {
+					union = nil
+					break
+				}
+				for k := range ps {
+					union[k] = true
+				}
 			}
-			for k := range ps {
-				union[k] = true
-			}
+			set = union
+		} else if up, upF := cx.callerBlock(b, F); up != nil {
+			set = cx.possibleSorts(up, upF, busy)
 		}
-		delete(busy, b)
-		set = union
+		delete(busy, key)
 	}
 	if set == nil {
 		return nil
@@ -332,23 +1537,38 @@ func (cx *c09Ctx) possibleSorts(b *ssa.BasicBlock, busy map[*ssa.BasicBlock]bool
 	return set
 }
 
-func (cx *c09Ctx) possibleOnEdge(pred, succ *ssa.BasicBlock, busy map[*ssa.BasicBlock]bool) c09SortSet {
+func (cx *c09Ctx) possibleOnEdge(pred, succ *ssa.BasicBlock, F *c09Frame, busy map[c09BF]bool) c09SortSet {
 	if n := len(pred.Instrs); n > 0 {
 		if ifi, ok := pred.Instrs[n-1].(*ssa.If); ok && len(pred.Succs) == 2 && pred.Succs[0] != pred.Succs[1] {
 			val := pred.Succs[0] == succ
-			if k, ok := cx.sortOfCond(ifi.Cond, val); ok {
-				return c09SortSet{k: true}
+			var pos c09SortSet
+			var neg []int64
+			for _, f := range cx.implied(c09V{ifi.Cond, F}, val, 0) {
+				if k, ok := cx.sortOfCond(f.Cond, f.Val); ok {
+					if pos == nil {
+						pos = c09SortSet{k: true}
+					} else if !pos[k] {
+						pos = c09SortSet{}
+					}
+				} else if k, ok := cx.sortOfCond(f.Cond, !f.Val); ok {
+					neg = append(neg, k)
+				}
 			}
-			if k, ok := cx.negSortOfCond(ifi.Cond, val); ok {
-				ps := cx.possibleSorts(pred, busy).clone()
-				if ps != nil {
-					delete(ps, k)
+			if pos != nil {
+				return pos
+			}
+			if len(neg) > 0 {
+				ps := cx.possibleSorts(pred, F, busy).clone()
+				for _, k := range neg {
+					if ps != nil {
+						delete(ps, k)
+					}
 				}
 				return ps
 			}
 		}
 	}
-	return cx.possibleSorts(pred, busy)
+	return cx.possibleSorts(pred, F, busy)
 }
 
 func c09Single(s c09SortSet) (int64, bool) {
@@ -361,72 +1581,110 @@ func c09Single(s c09SortSet) (int64, bool) {
 	return 0, false
 }
 
-func (cx *c09Ctx) sortAt(b *ssa.BasicBlock) (int64, bool) {
-	return c09Single(cx.possibleSorts(b, map[*ssa.BasicBlock]bool{}))
+func (cx *c09Ctx) sortAt(b *ssa.BasicBlock, F *c09Frame) (int64, bool) {
+	return c09Single(cx.possibleSorts(b, F, map[c09BF]bool{}))
 }
 
 // sortOnEdge: the sort known on the CFG edge pred->succ.
-func (cx *c09Ctx) sortOnEdge(pred, succ *ssa.BasicBlock) (int64, bool) {
-	return c09Single(cx.possibleOnEdge(pred, succ, map[*ssa.BasicBlock]bool{}))
+func (cx *c09Ctx) sortOnEdge(pred, succ *ssa.BasicBlock, F *c09Frame) (int64, bool) {
+	return c09Single(cx.possibleOnEdge(pred, succ, F, map[c09BF]bool{}))
 }
 
 type c09Leaf struct {
-	V       ssa.Value
+	V       c09V
 	Sort    int64
 	HasSort bool
 }
 
 // expandBySort splits a value into the values it may take, each tagged with
-// the SortType constant q.Sort is known to equal where that value is chosen
-// (phi edges under dominating `q.Sort == K` facts).
-func (cx *c09Ctx) expandBySort(v ssa.Value) []c09Leaf {
+// the SortType constant q.Sort is known to equal where that value is chosen:
+// phi edges under dominating `q.Sort == K` facts, the returns of a helper
+// (under the facts of the return and of the call), helper parameters (the
+// caller's argument), loads of plain variables.
+func (cx *c09Ctx) expandBySort(v c09V) []c09Leaf {
 	var out []c09Leaf
-	seen := map[ssa.Value]bool{}
-	var walk func(v ssa.Value, k int64, has bool)
-	walk = func(v ssa.Value, k int64, has bool) {
-		for {
-			if ct, ok := v.(*ssa.ChangeType); ok {
-				v = ct.X
-				continue
-			}
-			break
-		}
-		if ph, ok := v.(*ssa.Phi); ok {
-			if seen[ph] {
+	seen := map[c09V]bool{}
+	var walk func(v c09V, k int64, has bool, depth int)
+	walk = func(v c09V, k int64, has bool, depth int) {
+		if depth < 40 {
+			switch x := v.V.(type) {
+			case *ssa.ChangeType:
+				walk(c09V{x.X, v.F}, k, has, depth+1)
 				return
-			}
-			seen[ph] = true
-			for i, e := range ph.Edges {
-				k2, has2 := cx.sortOnEdge(ph.Block().Preds[i], ph.Block())
-				if has && has2 && k != k2 {
-					continue // infeasible combination
+			case *ssa.Phi:
+				if seen[v] {
+					return
 				}
-				if has2 {
-					walk(e, k2, true)
-				} else {
-					walk(e, k, has)
+				seen[v] = true
+				for i, e := range x.Edges {
+					k2, has2 := cx.sortOnEdge(x.Block().Preds[i], x.Block(), v.F)
+					if has && has2 && k != k2 {
+						continue // infeasible combination
+					}
+					if has2 {
+						walk(c09V{e, v.F}, k2, true, depth+1)
+					} else {
+						walk(c09V{e, v.F}, k, has, depth+1)
+					}
+				}
+				return
+			case *ssa.Parameter:
+				if a, ok := cx.paramArg(x, v.F); ok {
+					walk(a, k, has, depth+1)
+					return
+				}
+			case *ssa.UnOp:
+				if x.Op == token.MUL {
+					if r := resolveLoad(x); r != nil {
+						walk(c09V{r, v.F}, k, has, depth+1)
+						return
+					}
+				}
+			case *ssa.Call, *ssa.Extract:
+				call, idx := (*ssa.Call)(nil), 0
+				if c, ok := x.(*ssa.Call); ok {
+					if c.Call.Signature().Results().Len() == 1 {
+						call = c
+					}
+				} else if ex := x.(*ssa.Extract); ex != nil {
+					call, _ = ex.Tuple.(*ssa.Call)
+					idx = ex.Index
+				}
+				if call != nil {
+					if rets, G, ok := cx.callReturns(call, v.F); ok && len(rets) > 0 {
+						if !has {
+							if k1, has1 := cx.sortAt(call.Block(), v.F); has1 {
+								k, has = k1, true
+							}
+						}
+						for _, ri := range rets {
+							if idx >= len(ri.Results) {
+								continue
+							}
+							k2, has2 := cx.sortAt(ri.Ret.Block(), G)
+							if has && has2 && k != k2 {
+								continue
+							}
+							if has2 {
+								walk(c09V{ri.Results[idx], G}, k2, true, depth+1)
+							} else {
+								walk(c09V{ri.Results[idx], G}, k, has, depth+1)
+							}
+						}
+						return
+					}
 				}
 			}
-			return
 		}
 		if !has {
-			if in, ok := v.(ssa.Instruction); ok && in.Block() != nil {
-				k, has = cx.sortAt(in.Block())
+			if in, ok := v.V.(ssa.Instruction); ok && in.Block() != nil {
+				k, has = cx.sortAt(in.Block(), v.F)
 			}
 		}
 		out = append(out, c09Leaf{v, k, has})
 	}
-	walk(v, 0, false)
+	walk(v, 0, false, 0)
 	return out
-}
-
-func c09SortedKeys[T any](m map[int64]T) []int64 {
-	var ks []int64
-	for k := range m {
-		ks = append(ks, k)
-	}
-	sort.Slice(ks, func(i, j int) bool { return ks[i] < ks[j] })
-	return ks
 }
 
 // ---------------------------------------------------------------------------
@@ -447,7 +1705,7 @@ func (w c09World) String() string {
 	return s
 }
 
-// c09Want: the item sorts strictly before the reference in ascending (time, ref) order.
+// want: the item sorts strictly before the reference in ascending (time, ref) order.
 func (w c09World) want() bool { return w.T < 0 || (w.T == 0 && w.R < 0) }
 
 const (
@@ -457,35 +1715,86 @@ const (
 	c09RoleZero // the time field of the continue constraint that is unset in this world
 )
 
+type c09Outcome struct {
+	results []c09V
+	kind    string // "return", "panic", "error"
+}
+
+// c09Eval walks the single path an ordering (world) determines, through the
+// root function and into the helpers it calls.
 type c09Eval struct {
 	cx     *c09Ctx
-	fn     *ssa.Function
+	root   *c09Frame
 	world  c09World
-	predOf map[*ssa.BasicBlock]*ssa.BasicBlock
+	predOf map[c09BF]*ssa.BasicBlock // frame-qualified block -> predecessor taken
+	calls  map[c09Site]*c09Outcome
 	// classification of operands (after path-sensitive resolution)
-	timeRole func(e *c09Eval, v ssa.Value) int
-	refRole  func(e *c09Eval, v ssa.Value) int
+	timeRole func(e *c09Eval, v c09V) int
+	refRole  func(e *c09Eval, v c09V) int
 	// extra atoms (returns handled, value)
-	atom func(e *c09Eval, v ssa.Value) (handled, val bool)
+	atom func(e *c09Eval, v c09V) (handled, val bool)
 	// time functions that produced the subject time on this path
 	timeFuncs map[*types.Func]bool
+	watch     *ssa.Call // lifted mode: the helper call that holds the predicate
+	consumed  bool      // the watched call's result has been used
+	depth     int
 	err       string // non-empty: could not interpret
 	bad       string // non-empty: construct that is wrong whatever the ordering (e.g. == on time.Time)
 }
 
-// resolve follows phis along the path taken, and value-preserving wrappers.
-func (e *c09Eval) resolve(v ssa.Value) ssa.Value {
-	for i := 0; i < 32; i++ {
-		switch x := v.(type) {
+func (e *c09Eval) fail(format string, args ...any) (bool, bool) {
+	if e.err == "" {
+		e.err = fmt.Sprintf(format, args...)
+	}
+	return false, false
+}
+
+// outcome evaluates a call into the effective body along the world's path.
+func (e *c09Eval) outcome(call *ssa.Call, F *c09Frame) *c09Outcome {
+	key := c09Site{call, F}
+	if o, ok := e.calls[key]; ok {
+		return o
+	}
+	callee := c09Callee(call)
+	G := e.cx.entered(call, F)
+	if callee == nil || G == nil || callee.Blocks == nil {
+		return nil
+	}
+	if e.watch == call {
+		e.consumed = true
+	}
+	o := &c09Outcome{kind: "error"}
+	e.calls[key] = o
+	if e.depth > c09MaxDepth {
+		e.fail("helper calls nested too deep in an order predicate")
+		return o
+	}
+	e.depth++
+	ret, kind := e.walk(callee.Blocks[0], G, nil, false)
+	e.depth--
+	o.kind = kind
+	if kind == "return" {
+		for _, r := range ret.Results {
+			o.results = append(o.results, c09V{resolveReturnValue(r, ret), G})
+		}
+	}
+	return o
+}
+
+// resolve follows phis along the path taken, value-preserving wrappers, loads
+// of plain variables, helper parameters and the results of evaluated helper calls.
+func (e *c09Eval) resolve(v c09V) c09V {
+	for i := 0; i < 64 && v.V != nil; i++ {
+		switch x := v.V.(type) {
 		case *ssa.Phi:
-			pred, ok := e.predOf[x.Block()]
+			pred, ok := e.predOf[c09BF{x.Block(), v.F}]
 			if !ok {
 				return v
 			}
 			found := false
-			for i, p := range x.Block().Preds {
+			for j, p := range x.Block().Preds {
 				if p == pred {
-					v = x.Edges[i]
+					v.V = x.Edges[j]
 					found = true
 					break
 				}
@@ -494,19 +1803,48 @@ func (e *c09Eval) resolve(v ssa.Value) ssa.Value {
 				return v
 			}
 		case *ssa.ChangeType:
-			v = x.X
+			v.V = x.X
+		case *ssa.MakeInterface:
+			v.V = x.X
+		case *ssa.UnOp:
+			if x.Op != token.MUL {
+				return v
+			}
+			r := resolveLoad(x)
+			if r == nil {
+				return v
+			}
+			v.V = r
+		case *ssa.Parameter:
+			a, ok := e.cx.paramArg(x, v.F)
+			if !ok {
+				return v
+			}
+			v = a
+		case *ssa.Call:
+			if x.Call.Signature().Results().Len() != 1 {
+				return v
+			}
+			o := e.outcome(x, v.F)
+			if o == nil || o.kind != "return" || len(o.results) != 1 {
+				return v
+			}
+			v = o.results[0]
+		case *ssa.Extract:
+			call, ok := x.Tuple.(*ssa.Call)
+			if !ok {
+				return v
+			}
+			o := e.outcome(call, v.F)
+			if o == nil || o.kind != "return" || x.Index >= len(o.results) {
+				return v
+			}
+			v = o.results[x.Index]
 		default:
 			return v
 		}
 	}
 	return v
-}
-
-func (e *c09Eval) fail(format string, args ...any) (bool, bool) {
-	if e.err == "" {
-		e.err = fmt.Sprintf(format, args...)
-	}
-	return false, false
 }
 
 func c09Cmp(ord int, op string) bool {
@@ -520,27 +1858,22 @@ func c09Cmp(ord int, op string) bool {
 }
 
 // eval computes a boolean SSA value in the current world along the current path.
-func (e *c09Eval) eval(v ssa.Value) (val, ok bool) {
+func (e *c09Eval) eval(v c09V) (val, ok bool) {
 	v = e.resolve(v)
 	if e.atom != nil {
 		if h, val := e.atom(e, v); h {
 			return val, true
 		}
 	}
-	switch x := v.(type) {
+	switch x := v.V.(type) {
 	case *ssa.Const:
 		if x.Value != nil && x.Value.Kind() == constant.Bool {
 			return constant.BoolVal(x.Value), true
 		}
 	case *ssa.UnOp:
 		if x.Op == token.NOT {
-			val, ok := e.eval(x.X)
+			val, ok := e.eval(c09V{x.X, v.F})
 			return !val, ok
-		}
-		if x.Op == token.MUL {
-			if o := originValue(x); o != ssa.Value(x) {
-				return e.eval(o)
-			}
 		}
 	case *ssa.BinOp:
 		if x.Op == token.EQL || x.Op == token.NEQ {
@@ -548,9 +1881,9 @@ func (e *c09Eval) eval(v ssa.Value) (val, ok bool) {
 				e.bad = "time.Time values are compared with " + x.Op.String() + " (compares wall/monotonic/location representation, not the instant): a token time rebuilt by time.Unix never equals the stored time"
 				return false, false
 			}
-			if b, ok := x.X.Type().Underlying().(*types.Basic); ok && b.Info()&types.IsBoolean != 0 {
-				a, ok1 := e.eval(x.X)
-				bb, ok2 := e.eval(x.Y)
+			if c09IsBool(x.X.Type()) {
+				a, ok1 := e.eval(c09V{x.X, v.F})
+				bb, ok2 := e.eval(c09V{x.Y, v.F})
 				return (a == bb) == (x.Op == token.EQL), ok1 && ok2
 			}
 		}
@@ -560,7 +1893,7 @@ func (e *c09Eval) eval(v ssa.Value) (val, ok bool) {
 			if !cs.IsStatic("time", "Time", op) {
 				continue
 			}
-			a, b := x.Call.Args[0], x.Call.Args[1]
+			a, b := c09V{x.Call.Args[0], v.F}, c09V{x.Call.Args[1], v.F}
 			ra, rb := e.timeRole(e, a), e.timeRole(e, b)
 			switch {
 			case ra == c09RoleSubject && rb == c09RoleReference:
@@ -575,7 +1908,7 @@ func (e *c09Eval) eval(v ssa.Value) (val, ok bool) {
 			return e.fail("time.%s compares operands the rule cannot classify as item time / token time", op)
 		}
 		if cs.IsStatic("perkeep.org/pkg/blob", "Ref", "Less") {
-			ra, rb := e.refRole(e, x.Call.Args[0]), e.refRole(e, x.Call.Args[1])
+			ra, rb := e.refRole(e, c09V{x.Call.Args[0], v.F}), e.refRole(e, c09V{x.Call.Args[1], v.F})
 			switch {
 			case ra == c09RoleSubject && rb == c09RoleReference:
 				return e.world.R < 0, true
@@ -584,27 +1917,40 @@ func (e *c09Eval) eval(v ssa.Value) (val, ok bool) {
 			}
 			return e.fail("blob.Ref.Less compares operands the rule cannot classify as item ref / token ref")
 		}
+		if o := e.outcome(x, v.F); o != nil {
+			switch o.kind {
+			case "panic":
+				return e.fail("helper %s panics for this ordering", cs.CalleeKey())
+			case "error":
+				return e.fail("helper %s could not be evaluated", cs.CalleeKey())
+			}
+		}
 		return e.fail("branch on the result of %s, which the rule cannot interpret", cs.CalleeKey())
 	}
-	return e.fail("branch on value %s (%T), which the rule cannot interpret", v.Name(), v)
+	return e.fail("branch on value %s (%T), which the rule cannot interpret", v.V.Name(), v.V)
 }
 
-// run walks from block start along the single path the world determines.
-// inRegion(b)==false means the walk left the region: result `leave`.
-// It returns the boolean result (first result of the return reached).
-func (e *c09Eval) run(start *ssa.BasicBlock, inRegion func(*ssa.BasicBlock) bool, leave bool) (res bool, outcome string) {
+// walk follows the single path the world determines from block `start` of
+// frame F until a return. inRegion(b)==false (root frame only) means the walk
+// left the region under analysis: outcome "left".
+func (e *c09Eval) walk(start *ssa.BasicBlock, F *c09Frame, inRegion func(*ssa.BasicBlock) bool, lifted bool) (*ssa.Return, string) {
 	b := start
 	for steps := 0; steps < 400; steps++ {
 		if inRegion != nil && !inRegion(b) {
-			return leave, "left"
+			return nil, "left"
 		}
 		last := b.Instrs[len(b.Instrs)-1]
+		if lifted && e.consumed {
+			if _, isRet := last.(*ssa.Return); !isRet {
+				return nil, "left" // the helper's verdict has been acted on and the function goes on
+			}
+		}
 		var next *ssa.BasicBlock
 		switch t := last.(type) {
 		case *ssa.If:
-			val, ok := e.eval(t.Cond)
+			val, ok := e.eval(c09V{t.Cond, F})
 			if !ok {
-				return false, "error"
+				return nil, "error"
 			}
 			if val {
 				next = b.Succs[0]
@@ -614,31 +1960,41 @@ func (e *c09Eval) run(start *ssa.BasicBlock, inRegion func(*ssa.BasicBlock) bool
 		case *ssa.Jump:
 			next = b.Succs[0]
 		case *ssa.Return:
-			if len(t.Results) == 0 {
-				e.fail("return without a boolean result")
-				return false, "error"
-			}
-			rv := resolveReturnValue(t.Results[0], t)
-			val, ok := e.eval(rv)
-			if !ok {
-				return false, "error"
-			}
-			return val, "return"
+			return t, "return"
 		case *ssa.Panic:
-			return false, "panic"
+			return nil, "panic"
 		default:
 			e.fail("unexpected block terminator %T", last)
-			return false, "error"
+			return nil, "error"
 		}
-		e.predOf[next] = b
+		e.predOf[c09BF{next, F}] = b
 		b = next
 	}
 	e.fail("path did not terminate (loop in an order predicate)")
-	return false, "error"
+	return nil, "error"
 }
 
-// c09CheckOrder evaluates all worlds and compares with the strict (time, ref)
-// order. describe renders the consequence of a wrong verdict.
+// run evaluates the predicate from block start of the root frame: the boolean
+// first result of the return reached, or `leave` when the walk leaves the region.
+func (e *c09Eval) run(start *ssa.BasicBlock, inRegion func(*ssa.BasicBlock) bool, leave, lifted bool) (res bool, outcome string) {
+	ret, kind := e.walk(start, e.root, inRegion, lifted)
+	switch kind {
+	case "left":
+		return leave, "left"
+	case "return":
+		if len(ret.Results) == 0 {
+			e.fail("return without a boolean result")
+			return false, "error"
+		}
+		val, ok := e.eval(c09V{resolveReturnValue(ret.Results[0], ret), e.root})
+		if !ok {
+			return false, "error"
+		}
+		return val, "return"
+	}
+	return false, kind
+}
+
 type c09OrderResult struct {
 	undecided string
 	wrong     []string
@@ -647,15 +2003,26 @@ type c09OrderResult struct {
 	worlds    int
 }
 
-func c09CheckOrder(modes []string, mk func(w c09World) (*c09Eval, *ssa.BasicBlock, func(*ssa.BasicBlock) bool, bool), consequence func(w c09World, got bool) string) c09OrderResult {
+type c09Plan struct {
+	e        *c09Eval
+	start    *ssa.BasicBlock
+	inRegion func(*ssa.BasicBlock) bool
+	leave    bool
+	lifted   bool
+}
+
+// c09CheckOrder evaluates all worlds and compares with the strict (time, ref)
+// order. consequence renders the consequence of a wrong verdict.
+func c09CheckOrder(modes []string, mk func(w c09World) c09Plan, consequence func(w c09World, got bool) string) c09OrderResult {
 	res := c09OrderResult{funcs: map[string]map[*types.Func]bool{}}
 	for _, m := range modes {
 		res.funcs[m] = map[*types.Func]bool{}
 		for t := -1; t <= 1; t++ {
 			for r := -1; r <= 1; r++ {
 				w := c09World{m, t, r}
-				e, start, inRegion, leave := mk(w)
-				got, outcome := e.run(start, inRegion, leave)
+				pl := mk(w)
+				e := pl.e
+				got, outcome := e.run(pl.start, pl.inRegion, pl.leave, pl.lifted)
 				res.worlds++
 				for f := range e.timeFuncs {
 					res.funcs[m][f] = true
@@ -683,336 +2050,8 @@ func c09CheckOrder(modes []string, mk func(w c09World) (*c09Eval, *ssa.BasicBloc
 	return res
 }
 
-// ---------------------------------------------------------------------------
-// The continue matcher: PermanodeConstraint.blobMatches, branch under c.Continue != nil
-
-type c09Matcher struct {
-	fn      *ssa.Function
-	entry   *ssa.BasicBlock // first block under `c.Continue != nil`
-	modes   []string        // time-typed fields of PermanodeContinueConstraint
-	problem string
-}
-
-func (cx *c09Ctx) findMatcher() *c09Matcher {
-	fn := cx.p.Func("pkg/search", "PermanodeConstraint", "blobMatches")
-	m := &c09Matcher{fn: fn}
-	st := cx.tPCC.Underlying().(*types.Struct)
-	for i := 0; i < st.NumFields(); i++ {
-		if c09IsTime(st.Field(i).Type()) {
-			m.modes = append(m.modes, st.Field(i).Name())
-		}
-	}
-	var entries []*ssa.BasicBlock
-	for _, b := range fn.Blocks {
-		if len(b.Instrs) == 0 {
-			continue
-		}
-		ifi, ok := b.Instrs[len(b.Instrs)-1].(*ssa.If)
-		if !ok {
-			continue
-		}
-		bo, ok := ifi.Cond.(*ssa.BinOp)
-		if !ok || (bo.Op != token.NEQ && bo.Op != token.EQL) {
-			continue
-		}
-		x, y := bo.X, bo.Y
-		if IsNilConst(x) {
-			x, y = y, x
-		}
-		if !IsNilConst(y) {
-			continue
-		}
-		f, ok := c09LoadedField(originValue(x))
-		if !ok || f.Owner == nil || f.Owner.Obj() != cx.tPC.Obj() || !c09Is(f.Type, cx.tPCC) {
-			continue
-		}
-		if bo.Op == token.NEQ {
-			entries = append(entries, b.Succs[0])
-		} else {
-			entries = append(entries, b.Succs[1])
-		}
-	}
-	switch {
-	case len(entries) == 0:
-		m.problem = "blobMatches has no branch on PermanodeConstraint.Continue != nil: the continue constraint is never applied, every page returns the first page again"
-	case len(entries) > 1:
-		m.problem = "blobMatches tests PermanodeConstraint.Continue in more than one place; the rule follows a single continue branch"
-	case len(entries[0].Preds) != 1:
-		m.problem = "the continue branch is entered from several places; cannot delimit it"
-	default:
-		m.entry = entries[0]
-	}
-	return m
-}
-
-// timeCallFunc resolves the function called by a (time.Time, bool)-returning
-// call on the corpus.
-func (e *c09Eval) timeCallFunc(call *ssa.Call) *types.Func {
-	sig := call.Call.Signature()
-	if sig.Results().Len() != 2 || !c09IsTime(sig.Results().At(0).Type()) {
-		return nil
-	}
-	var f *types.Func
-	if call.Call.IsInvoke() {
-		return nil
-	}
-	if sc := call.Call.StaticCallee(); sc != nil {
-		f, _ = sc.Object().(*types.Func)
-	} else {
-		f = c09MethodOfFuncValue(e.resolve(call.Call.Value))
-	}
-	if f == nil {
-		return nil
-	}
-	rs := f.Type().(*types.Signature).Recv()
-	if rs == nil || !c09Is(rs.Type(), e.cx.tCorpus) {
-		return nil
-	}
-	return f
-}
-
-func c09MatcherTimeRole(e *c09Eval, v ssa.Value) int {
-	v = e.resolve(v)
-	if ex, ok := v.(*ssa.Extract); ok && ex.Index == 0 {
-		if call, ok := ex.Tuple.(*ssa.Call); ok {
-			f := e.timeCallFunc(call)
-			if f == nil || len(call.Call.Args) == 0 {
-				return c09RoleNone
-			}
-			arg := e.resolve(call.Call.Args[len(call.Call.Args)-1])
-			if c09MatcherRefRole(e, arg) != c09RoleSubject {
-				return c09RoleNone
-			}
-			e.timeFuncs[f] = true
-			return c09RoleSubject
-		}
-	}
-	if f, ok := c09LoadedField(v); ok && f.Owner != nil && f.Owner.Obj() == e.cx.tPCC.Obj() && c09IsTime(f.Type) {
-		if f.Name == e.world.Mode {
-			return c09RoleReference
-		}
-		return c09RoleZero
-	}
-	return c09RoleNone
-}
-
-func c09MatcherRefRole(e *c09Eval, v ssa.Value) int {
-	v = originValue(e.resolve(v))
-	if p, ok := v.(*ssa.Parameter); ok && c09IsRef(p.Type()) && p.Parent() == e.fn {
-		return c09RoleSubject
-	}
-	if f, ok := c09LoadedField(v); ok && f.Owner != nil && f.Owner.Obj() == e.cx.tPCC.Obj() && c09IsRef(f.Type) {
-		return c09RoleReference
-	}
-	return c09RoleNone
-}
-
-func c09MatcherAtom(e *c09Eval, v ssa.Value) (handled, val bool) {
-	switch x := v.(type) {
-	case *ssa.Extract:
-		if call, ok := x.Tuple.(*ssa.Call); ok && x.Index == 1 && e.timeCallFunc(call) != nil {
-			return true, true // the item has a time (items without one are never enumerated by the sorted source)
-		}
-	case *ssa.BinOp:
-		if x.Op == token.EQL || x.Op == token.NEQ {
-			a, b := x.X, x.Y
-			if IsNilConst(a) {
-				a, b = b, a
-			}
-			if IsNilConst(b) && c09IsPtr(a.Type()) && (c09Is(a.Type(), e.cx.tCorpus) || c09Is(a.Type(), e.cx.tPCC)) {
-				return true, x.Op == token.NEQ // corpus present, continue constraint present
-			}
-		}
-	case *ssa.Call:
-		if (CallSite{x.Parent(), x}).IsStatic("time", "Time", "IsZero") {
-			if f, ok := c09LoadedField(e.resolve(x.Call.Args[0])); ok && f.Owner != nil && f.Owner.Obj() == e.cx.tPCC.Obj() {
-				return true, f.Name != e.world.Mode
-			}
-		}
-	}
-	return false, false
-}
-
-func (cx *c09Ctx) checkMatcherOrder(m *c09Matcher) c09OrderResult {
-	inRegion := func(b *ssa.BasicBlock) bool { return m.entry == b || m.entry.Dominates(b) }
-	return c09CheckOrder(m.modes, func(w c09World) (*c09Eval, *ssa.BasicBlock, func(*ssa.BasicBlock) bool, bool) {
-		e := &c09Eval{cx: cx, fn: m.fn, world: w, predOf: map[*ssa.BasicBlock]*ssa.BasicBlock{m.entry: m.entry.Preds[0]},
-			timeRole: c09MatcherTimeRole, refRole: c09MatcherRefRole, atom: c09MatcherAtom, timeFuncs: map[*types.Func]bool{}}
-		return e, m.entry, inRegion, true
-	}, func(w c09World, got bool) string {
-		if got {
-			return "item is admitted although it does not sort after the token item: it is returned again on the next page (repeat)"
-		}
-		return "item is rejected although it sorts after the token item: it is never returned (skip)"
-	})
-}
-
-// ---------------------------------------------------------------------------
-// The sort comparator: byPermanodeTime.Less(i, j)
-
-func (cx *c09Ctx) checkComparatorOrder(fn *ssa.Function) c09OrderResult {
-	// params: receiver s, i, j
-	var ints []*ssa.Parameter
-	for _, p := range fn.Params {
-		if b, ok := p.Type().Underlying().(*types.Basic); ok && b.Kind() == types.Int {
-			ints = append(ints, p)
-		}
-	}
-	role := func(want func(types.Type) bool) func(e *c09Eval, v ssa.Value) int {
-		return func(e *c09Eval, v ssa.Value) int {
-			f, ok := c09LoadedField(e.resolve(v))
-			if !ok || !want(f.Type) || len(ints) != 2 {
-				return c09RoleNone
-			}
-			var idx ssa.Value
-			base := f.Base
-			if al, ok := base.(*ssa.Alloc); ok && al.Referrers() != nil {
-				// `a := s[i]` kept in a local because its fields are addressed: follow its single store
-				var only *ssa.Store
-				n := 0
-				for _, u := range *al.Referrers() {
-					if st, ok := u.(*ssa.Store); ok && st.Addr == ssa.Value(al) {
-						only = st
-						n++
-					}
-				}
-				readOnly := true
-				for _, u := range *al.Referrers() {
-					fa, isFA := u.(*ssa.FieldAddr)
-					if !isFA || fa.Referrers() == nil {
-						continue
-					}
-					for _, u2 := range nonDebug(*fa.Referrers()) {
-						if ld, ok := u2.(*ssa.UnOp); !ok || ld.Op != token.MUL {
-							readOnly = false // a field of the copy is written or its address escapes
-						}
-					}
-				}
-				if n == 1 && readOnly {
-					base = only.Val
-				}
-			}
-			switch b := base.(type) {
-			case *ssa.IndexAddr:
-				idx = b.Index
-			case *ssa.UnOp:
-				if ia, ok := b.X.(*ssa.IndexAddr); ok && b.Op == token.MUL {
-					idx = ia.Index
-				}
-			case *ssa.Index:
-				idx = b.Index
-			}
-			switch originValue(idx) {
-			case ssa.Value(ints[0]):
-				return c09RoleSubject
-			case ssa.Value(ints[1]):
-				return c09RoleReference
-			}
-			return c09RoleNone
-		}
-	}
-	return c09CheckOrder([]string{""}, func(w c09World) (*c09Eval, *ssa.BasicBlock, func(*ssa.BasicBlock) bool, bool) {
-		e := &c09Eval{cx: cx, fn: fn, world: w, predOf: map[*ssa.BasicBlock]*ssa.BasicBlock{},
-			timeRole: role(c09IsTime), refRole: role(c09IsRef), timeFuncs: map[*types.Func]bool{}}
-		return e, fn.Blocks[0], nil, false
-	}, func(w c09World, got bool) string {
-		if got {
-			return "Less(i,j) is true although element i does not sort before element j in (time, ref) order"
-		}
-		return "Less(i,j) is false although element i sorts before element j in (time, ref) order: equal-time permanodes have no fixed order, so the matcher's ref tie-break skips/repeats"
-	})
-}
-
-func ruleC09Tiebreak(cx *c09Ctx, m *c09Matcher) (matcherFuncs map[string]map[*types.Func]bool) {
-	p, r := cx.p, cx.r
-	// (1) comparator
-	less := p.Func("pkg/index", "byPermanodeTime", "Less")
-	cr := cx.checkComparatorOrder(less)
-	cx.reportOrder("T-tiebreak", FuncKey(less)+"#order", p.Pos(less.Pos()), cr,
-		"byPermanodeTime.Less is the strict lexicographic order (time, then blob.Ref.Less) on all 9 orderings")
-	// (2) matcher
-	mkey := FuncKey(m.fn) + "#continue-order"
-	if m.problem != "" {
-		r.Violation("T-tiebreak", mkey, p.Pos(m.fn.Pos()), m.problem)
-	} else {
-		mr := cx.checkMatcherOrder(m)
-		matcherFuncs = mr.funcs
-		cx.reportOrder("T-tiebreak", mkey, p.Pos(m.entry.Instrs[0].Pos()), mr,
-			fmt.Sprintf("for each of %v set, the continue branch admits exactly the items strictly after the token item in (time desc, ref desc) order: %d orderings evaluated", m.modes, mr.worlds))
-	}
-	// (3) direction and comparator of every sort in lazySortedPermanodes.sorted
-	sorted := p.Func("pkg/index", "lazySortedPermanodes", "sorted")
-	var rev *ssa.Parameter
-	for _, prm := range sorted.Params {
-		if b, ok := prm.Type().Underlying().(*types.Basic); ok && b.Kind() == types.Bool {
-			rev = prm
-		}
-	}
-	n := 0
-	for _, c := range CallsIn(sorted, true) {
-		f := c.Callee()
-		if f == nil || f.Pkg == nil || (f.Pkg.Pkg.Path() != "sort" && f.Pkg.Pkg.Path() != "slices") {
-			continue
-		}
-		if c.IsStatic("sort", "", "Reverse") {
-			continue
-		}
-		n++
-		key := fmt.Sprintf("%s#sort-call-%d", FuncKey(sorted), n)
-		site := p.Pos(c.Pos())
-		if !(c.IsStatic("sort", "", "Sort") || c.IsStatic("sort", "", "Stable")) || c.Fn != sorted {
-			r.Undecided("T-tiebreak", key, site, "sorts with "+c.CalleeKey()+": the rule only follows sort.Sort/sort.Stable over byPermanodeTime")
-			continue
-		}
-		arg := c09StripIface(c.Args()[0])
-		reversed := false
-		if call, ok := arg.(*ssa.Call); ok && (CallSite{sorted, call}).IsStatic("sort", "", "Reverse") {
-			reversed = true
-			arg = c09StripIface(call.Call.Args[0])
-		}
-		if !c09Is(arg.Type(), cx.tByPT) {
-			r.Violation("T-tiebreak", key, site, fmt.Sprintf("permanodes are sorted with %s instead of byPermanodeTime: the (time, ref) order the continue matcher assumes is not established", arg.Type()))
-			continue
-		}
-		known, want := false, false
-		for _, f := range FactsAt(c.Block()) {
-			cond, val := f.Cond, f.Val
-			if u, ok := cond.(*ssa.UnOp); ok && u.Op == token.NOT {
-				cond, val = u.X, !val
-			}
-			if rev != nil && originValue(cond) == ssa.Value(rev) {
-				known, want = true, val
-			}
-		}
-		switch {
-		case !known:
-			r.Undecided("T-tiebreak", key, site, "sort call is not under a fact about the reverse parameter")
-		case want != reversed:
-			r.Violation("T-tiebreak", key, site, fmt.Sprintf("reverse=%v is requested here but the slice is sorted %s: newest-first sources enumerate oldest-first, so the matcher (which admits older items) repeats/skips", want, map[bool]string{true: "descending", false: "ascending"}[reversed]))
-		default:
-			r.OK("T-tiebreak", key, site, fmt.Sprintf("sort over byPermanodeTime, sort.Reverse applied iff reverse (reverse=%v here)", want))
-		}
-	}
-	if n == 0 {
-		r.Violation("T-tiebreak", FuncKey(sorted)+"#sort-call", p.Pos(sorted.Pos()), "lazySortedPermanodes.sorted no longer sorts: enumeration order is map order")
-	}
-	r.Floor("T-tiebreak", 4)
-	return matcherFuncs
-}
-
-// c09StripIface removes interface conversions only (the concrete named type
-// of the operand is what matters).
-func c09StripIface(v ssa.Value) ssa.Value {
-	for {
-		switch x := v.(type) {
-		case *ssa.MakeInterface:
-			v = x.X
-		case *ssa.ChangeInterface:
-			v = x.X
-		default:
-			return v
-		}
-	}
+func (cx *c09Ctx) newEval(root *c09Frame, w c09World) *c09Eval {
+	return &c09Eval{cx: cx, root: root, world: w, predOf: map[c09BF]*ssa.BasicBlock{}, calls: map[c09Site]*c09Outcome{}, timeFuncs: map[*types.Func]bool{}}
 }
 
 func (cx *c09Ctx) reportOrder(rule, construct, site string, res c09OrderResult, okDetail string) {
@@ -1029,50 +2068,520 @@ func (cx *c09Ctx) reportOrder(rule, construct, site string, res c09OrderResult, 
 }
 
 // ---------------------------------------------------------------------------
-// Token writer: setResultContinue
+// The continue matcher: effective body of PermanodeConstraint.blobMatches, the
+// branch under `<PermanodeConstraint>.Continue != nil`
+
+type c09Matcher struct {
+	fn      *ssa.Function
+	root    *c09Frame
+	entry   *ssa.BasicBlock // first block under `c.Continue != nil` (root frame), or the block of the helper call (lifted)
+	lifted  *ssa.Call       // non-nil: the nil test lives in a helper entered by this call of the root
+	pos     token.Pos
+	modes   []string // time-typed fields of PermanodeContinueConstraint
+	problem string
+}
+
+func (cx *c09Ctx) findMatcher() *c09Matcher {
+	fn := cx.p.Func("pkg/search", "PermanodeConstraint", "blobMatches")
+	m := &c09Matcher{fn: fn, root: cx.root(fn), pos: fn.Pos()}
+	st := cx.tPCC.Underlying().(*types.Struct)
+	for i := 0; i < st.NumFields(); i++ {
+		if c09IsTime(st.Field(i).Type()) {
+			m.modes = append(m.modes, st.Field(i).Name())
+		}
+	}
+	// the branch on <PermanodeConstraint>.Continue ==/!= nil
+	nilTest := func(s c09Site) (isNeq, ok bool) {
+		ifi, isIf := s.In.(*ssa.If)
+		if !isIf {
+			return false, false
+		}
+		bo, isBo := ifi.Cond.(*ssa.BinOp)
+		if !isBo || (bo.Op != token.NEQ && bo.Op != token.EQL) {
+			return false, false
+		}
+		x, y := bo.X, bo.Y
+		if IsNilConst(x) {
+			x, y = y, x
+		}
+		if !IsNilConst(y) {
+			return false, false
+		}
+		f, _, isF := cx.loadedField(s.val(x))
+		if !isF || !f.is(cx.tPC, "") || !c09Is(f.Type, cx.tPCC) {
+			return false, false
+		}
+		return bo.Op == token.NEQ, true
+	}
+	tests := cx.sites(fn, m.root, func(in ssa.Instruction) bool {
+		_, ok := in.(*ssa.If)
+		return ok
+	})
+	var hits []c09Site
+	for _, s := range tests {
+		if _, ok := nilTest(s); ok {
+			hits = append(hits, s)
+		}
+	}
+	switch {
+	case len(hits) == 0:
+		m.problem = "blobMatches has no branch on PermanodeConstraint.Continue != nil: the continue constraint is never applied, every page returns the first page again"
+		return m
+	case len(hits) > 1:
+		m.problem = "blobMatches tests PermanodeConstraint.Continue in more than one place; the rule follows a single continue branch"
+		return m
+	}
+	h := hits[0]
+	neq, _ := nilTest(h)
+	if h.F == m.root && h.In.Parent() == fn {
+		b := h.In.Block()
+		m.entry = b.Succs[1]
+		if neq {
+			m.entry = b.Succs[0]
+		}
+		if len(m.entry.Preds) != 1 {
+			m.problem = "the continue branch is entered from several places; cannot delimit it"
+			m.entry = nil
+			return m
+		}
+		if len(m.entry.Instrs) > 0 {
+			m.pos = m.entry.Instrs[0].Pos()
+		}
+		return m
+	}
+	// the test lives in a helper: evaluate from the root's call towards it
+	in := c09LiftTo(h, m.root)
+	call, ok := in.(*ssa.Call)
+	if !ok || call.Parent() != fn {
+		m.problem = "the continue branch lives in a helper the rule cannot reach from blobMatches by a plain call"
+		return m
+	}
+	m.lifted, m.entry, m.pos = call, call.Block(), call.Pos()
+	return m
+}
+
+// timeCallFunc resolves the function called by a (time.Time, bool)-returning
+// call on the corpus.
+func (e *c09Eval) timeCallFunc(call *ssa.Call, F *c09Frame) *types.Func {
+	sig := call.Call.Signature()
+	if sig.Results().Len() != 2 || !c09IsTime(sig.Results().At(0).Type()) {
+		return nil
+	}
+	var f *types.Func
+	if call.Call.IsInvoke() {
+		return nil
+	}
+	if sc := call.Call.StaticCallee(); sc != nil {
+		f, _ = sc.Object().(*types.Func)
+	} else {
+		f = c09MethodOfFuncValue(e.resolve(c09V{call.Call.Value, F}).V)
+	}
+	if f == nil {
+		return nil
+	}
+	rs := f.Type().(*types.Signature).Recv()
+	if rs == nil || !c09Is(rs.Type(), e.cx.tCorpus) {
+		return nil
+	}
+	return f
+}
+
+func c09MatcherTimeRole(e *c09Eval, v c09V) int {
+	v = e.resolve(v)
+	if ex, ok := v.V.(*ssa.Extract); ok && ex.Index == 0 {
+		if call, ok := ex.Tuple.(*ssa.Call); ok {
+			f := e.timeCallFunc(call, v.F)
+			if f == nil || len(call.Call.Args) == 0 {
+				return c09RoleNone
+			}
+			arg := c09V{call.Call.Args[len(call.Call.Args)-1], v.F}
+			if c09MatcherRefRole(e, arg) != c09RoleSubject {
+				return c09RoleNone
+			}
+			e.timeFuncs[f] = true
+			return c09RoleSubject
+		}
+	}
+	if f, ok := c09LoadedField(v.V); ok && f.is(e.cx.tPCC, "") && c09IsTime(f.Type) {
+		if f.Name == e.world.Mode {
+			return c09RoleReference
+		}
+		return c09RoleZero
+	}
+	return c09RoleNone
+}
+
+func c09MatcherRefRole(e *c09Eval, v c09V) int {
+	v = e.resolve(v)
+	if p, ok := v.V.(*ssa.Parameter); ok && c09IsRef(p.Type()) && p.Parent() == e.root.fn && v.F == e.root {
+		return c09RoleSubject
+	}
+	if f, ok := c09LoadedField(v.V); ok && f.is(e.cx.tPCC, "") && c09IsRef(f.Type) {
+		return c09RoleReference
+	}
+	return c09RoleNone
+}
+
+func c09MatcherAtom(e *c09Eval, v c09V) (handled, val bool) {
+	switch x := v.V.(type) {
+	case *ssa.Extract:
+		if call, ok := x.Tuple.(*ssa.Call); ok && x.Index == 1 && e.timeCallFunc(call, v.F) != nil {
+			return true, true // the item has a time (items without one are never enumerated by the sorted source)
+		}
+	case *ssa.BinOp:
+		if x.Op == token.EQL || x.Op == token.NEQ {
+			a, b := x.X, x.Y
+			if IsNilConst(a) {
+				a, b = b, a
+			}
+			if IsNilConst(b) && c09IsPtr(a.Type()) && (c09Is(a.Type(), e.cx.tCorpus) || c09Is(a.Type(), e.cx.tPCC)) {
+				return true, x.Op == token.NEQ // corpus present, continue constraint present
+			}
+		}
+	case *ssa.Call:
+		if (CallSite{x.Parent(), x}).IsStatic("time", "Time", "IsZero") {
+			if f, ok := c09LoadedField(e.resolve(c09V{x.Call.Args[0], v.F}).V); ok && f.is(e.cx.tPCC, "") {
+				return true, f.Name != e.world.Mode
+			}
+		}
+	}
+	return false, false
+}
+
+func (cx *c09Ctx) checkMatcherOrder(m *c09Matcher) c09OrderResult {
+	inRegion := func(b *ssa.BasicBlock) bool { return m.entry == b || m.entry.Dominates(b) }
+	return c09CheckOrder(m.modes, func(w c09World) c09Plan {
+		e := cx.newEval(m.root, w)
+		e.timeRole, e.refRole, e.atom = c09MatcherTimeRole, c09MatcherRefRole, c09MatcherAtom
+		if m.lifted != nil {
+			e.watch = m.lifted
+			return c09Plan{e, m.entry, inRegion, true, true}
+		}
+		e.predOf[c09BF{m.entry, m.root}] = m.entry.Preds[0]
+		return c09Plan{e, m.entry, inRegion, true, false}
+	}, func(w c09World, got bool) string {
+		if got {
+			return "item is admitted although it does not sort after the token item: it is returned again on the next page (repeat)"
+		}
+		return "item is rejected although it sorts after the token item: it is never returned (skip)"
+	})
+}
+
+// ---------------------------------------------------------------------------
+// The sort comparator: <sorted type>.Less(i, j)
+
+func (cx *c09Ctx) checkComparatorOrder(fn *ssa.Function) c09OrderResult {
+	root := cx.root(fn)
+	// params: receiver s, i, j
+	var ints []*ssa.Parameter
+	for _, p := range fn.Params {
+		if b, ok := p.Type().Underlying().(*types.Basic); ok && b.Kind() == types.Int {
+			ints = append(ints, p)
+		}
+	}
+	role := func(want func(types.Type) bool) func(e *c09Eval, v c09V) int {
+		return func(e *c09Eval, v c09V) int {
+			v = e.resolve(v)
+			f, ok := c09LoadedField(v.V)
+			if !ok || !want(f.Type) || len(ints) != 2 {
+				return c09RoleNone
+			}
+			base := c09V{f.Base, v.F}
+			var idx ssa.Value
+			for i := 0; i < 8 && idx == nil; i++ {
+				base = e.resolve(base)
+				switch b := base.V.(type) {
+				case *ssa.Alloc:
+					// `a := s[i]` kept in a local because its fields are addressed: follow its single store
+					if b.Referrers() == nil {
+						return c09RoleNone
+					}
+					var only *ssa.Store
+					n := 0
+					readOnly := true
+					for _, u := range *b.Referrers() {
+						if st, ok := u.(*ssa.Store); ok && st.Addr == ssa.Value(b) {
+							only = st
+							n++
+						}
+						fa, isFA := u.(*ssa.FieldAddr)
+						if !isFA || fa.Referrers() == nil {
+							continue
+						}
+						for _, u2 := range nonDebug(*fa.Referrers()) {
+							if ld, ok := u2.(*ssa.UnOp); !ok || ld.Op != token.MUL {
+								readOnly = false // a field of the copy is written or its address escapes
+							}
+						}
+					}
+					if n != 1 || !readOnly {
+						return c09RoleNone
+					}
+					base = c09V{only.Val, base.F}
+				case *ssa.IndexAddr:
+					idx = b.Index
+				case *ssa.UnOp:
+					ia, ok := b.X.(*ssa.IndexAddr)
+					if !ok || b.Op != token.MUL {
+						return c09RoleNone
+					}
+					idx = ia.Index
+				case *ssa.Index:
+					idx = b.Index
+				default:
+					return c09RoleNone
+				}
+			}
+			if idx == nil {
+				return c09RoleNone
+			}
+			iv := e.resolve(c09V{idx, base.F})
+			if iv.F != root {
+				return c09RoleNone
+			}
+			switch iv.V {
+			case ssa.Value(ints[0]):
+				return c09RoleSubject
+			case ssa.Value(ints[1]):
+				return c09RoleReference
+			}
+			return c09RoleNone
+		}
+	}
+	return c09CheckOrder([]string{""}, func(w c09World) c09Plan {
+		e := cx.newEval(root, w)
+		e.timeRole, e.refRole = role(c09IsTime), role(c09IsRef)
+		return c09Plan{e, fn.Blocks[0], nil, false, false}
+	}, func(w c09World, got bool) string {
+		if got {
+			return "Less(i,j) is true although element i does not sort before element j in (time, ref) order"
+		}
+		return "Less(i,j) is false although element i sorts before element j in (time, ref) order: equal-time permanodes have no fixed order, so the matcher's ref tie-break skips/repeats"
+	})
+}
+
+// sortedElem: t is a named slice type whose elements are pnAndTime.
+func (cx *c09Ctx) sortedElem(t types.Type) bool {
+	n := NamedOf(t)
+	if n == nil || c09IsPtr(t) {
+		return false
+	}
+	sl, ok := n.Underlying().(*types.Slice)
+	return ok && c09Is(sl.Elem(), cx.tPnTime) && !c09IsPtr(sl.Elem())
+}
+
+func ruleC09Tiebreak(cx *c09Ctx, m *c09Matcher, sorters []*ssa.Function) (matcherFuncs map[string]map[*types.Func]bool) {
+	p, r := cx.p, cx.r
+	defer r.Floor("T-tiebreak", 3)
+	// (2) matcher
+	mkey := FuncKey(m.fn) + "#continue-order"
+	if m.problem != "" {
+		r.Violation("T-tiebreak", mkey, p.Pos(m.pos), m.problem)
+	} else {
+		mr := cx.checkMatcherOrder(m)
+		matcherFuncs = mr.funcs
+		cx.reportOrder("T-tiebreak", mkey, p.Pos(m.pos), mr,
+			fmt.Sprintf("for each of %v set, the continue branch admits exactly the items strictly after the token item in (time desc, ref desc) order: %d orderings evaluated", m.modes, mr.worlds))
+	}
+	// (3) direction and comparator of every sort in the effective body of the sorting method(s)
+	lessDone := map[*ssa.Function]bool{}
+	checkLess := func(t types.Type, site string) {
+		n := NamedOf(t)
+		var less *ssa.Function
+		if n != nil {
+			// the declared method (value or pointer receiver), not a synthetic wrapper
+			for _, rt := range []types.Type{n, types.NewPointer(n)} {
+				if sel := p.SSA.MethodSets.MethodSet(rt).Lookup(n.Obj().Pkg(), "Less"); sel != nil {
+					if f := p.SSA.MethodValue(sel); f != nil && f.Synthetic == "" && f.Blocks != nil {
+						less = f
+						break
+					}
+				}
+			}
+		}
+		if less == nil || less.Blocks == nil {
+			r.Undecided("T-tiebreak", typeKey(t)+"#order", site, "cannot find the Less method of the sorted type")
+			return
+		}
+		if lessDone[less] {
+			return
+		}
+		lessDone[less] = true
+		cr := cx.checkComparatorOrder(less)
+		cx.reportOrder("T-tiebreak", FuncKey(less)+"#order", p.Pos(less.Pos()), cr,
+			typeKey(t)+".Less is the strict lexicographic order (time, then blob.Ref.Less) on all 9 orderings")
+	}
+	if len(sorters) == 0 {
+		r.Undecided("T-tiebreak", "pkg/index#sort-call", "?", "no sorting method of lazySortedPermanodes could be resolved from the candidate sources (see T-clock)")
+	}
+	for _, sorted := range sorters {
+		root := cx.root(sorted)
+		var rev *ssa.Parameter
+		for _, prm := range sorted.Params {
+			if c09IsBool(prm.Type()) {
+				rev = prm
+			}
+		}
+		calls := cx.callSites(sorted, root, func(c CallSite) bool {
+			f := c.Callee()
+			if f == nil || f.Pkg == nil || (f.Pkg.Pkg.Path() != "sort" && f.Pkg.Pkg.Path() != "slices") {
+				return false
+			}
+			return !c.IsStatic("sort", "", "Reverse")
+		})
+		n := 0
+		for _, s := range calls {
+			c := s.call()
+			n++
+			key := fmt.Sprintf("%s#sort-call-%d", FuncKey(sorted), n)
+			site := p.Pos(c.Pos())
+			if !(c.IsStatic("sort", "", "Sort") || c.IsStatic("sort", "", "Stable")) {
+				r.Undecided("T-tiebreak", key, site, "sorts with "+c.CalleeKey()+": the rule only follows sort.Sort/sort.Stable over a type with a Less method")
+				continue
+			}
+			isReverse := func(v c09V) bool {
+				call, ok := v.V.(*ssa.Call)
+				return ok && (CallSite{call.Parent(), call}).IsStatic("sort", "", "Reverse")
+			}
+			isRev := func(v c09V) bool {
+				o := cx.origin(v)
+				return rev != nil && o.V == ssa.Value(rev) && o.F == root
+			}
+			// the values the sorted argument may take (phi edges), each with what is known about `reverse` there
+			type leaf struct {
+				v                    c09V
+				reversed, known, rev bool
+			}
+			var leaves []leaf
+			var expand func(v c09V, reversed, known, val bool, depth int)
+			expand = func(v c09V, reversed, known, val bool, depth int) {
+				v = cx.originUntil(v, func(x c09V) bool {
+					if _, isPhi := x.V.(*ssa.Phi); isPhi {
+						return originValue(x.V) == x.V
+					}
+					return isReverse(x) || cx.sortedElem(x.V.Type())
+				})
+				switch x := v.V.(type) {
+				case *ssa.Phi:
+					if depth < 6 {
+						for i, e := range x.Edges {
+							k2, v2 := cx.boolOnEdge(x.Block().Preds[i], x.Block(), v.F, isRev)
+							if known && k2 && v2 != val {
+								continue
+							}
+							if k2 {
+								expand(c09V{e, v.F}, reversed, true, v2, depth+1)
+							} else {
+								expand(c09V{e, v.F}, reversed, known, val, depth+1)
+							}
+						}
+						return
+					}
+				case *ssa.Call:
+					if isReverse(v) && depth < 6 {
+						if !known {
+							known, val = cx.boolAt(x.Block(), v.F, isRev)
+						}
+						expand(c09V{x.Call.Args[0], v.F}, !reversed, known, val, depth+1)
+						return
+					}
+				}
+				leaves = append(leaves, leaf{v, reversed, known, val})
+			}
+			expand(s.val(c.Args()[0]), false, false, false, 0)
+			kb, vb := cx.boolAt(c.Block(), s.F, isRev)
+			status, detail := "ok", ""
+			for _, l := range leaves {
+				if !cx.sortedElem(l.v.V.Type()) {
+					status, detail = "violated", fmt.Sprintf("permanodes are sorted with %s instead of a []pnAndTime comparator type: the (time, ref) order the continue matcher assumes is not established", l.v.V.Type())
+					break
+				}
+				checkLess(l.v.V.Type(), site)
+				known, want := l.known, l.rev
+				if !known {
+					known, want = kb, vb
+				}
+				switch {
+				case !known:
+					if status == "ok" {
+						status, detail = "undecided", "sort call is not under a fact about the reverse parameter"
+					}
+				case want != l.reversed:
+					status, detail = "violated", fmt.Sprintf("reverse=%v is requested here but the slice is sorted %s: newest-first sources enumerate oldest-first, so the matcher (which admits older items) repeats/skips", want, map[bool]string{true: "descending", false: "ascending"}[l.reversed])
+				default:
+					if status == "ok" {
+						detail += fmt.Sprintf(" [reverse=%v: %s]", want, map[bool]string{true: "sort.Reverse applied", false: "ascending"}[l.reversed])
+					}
+				}
+			}
+			switch status {
+			case "violated":
+				r.Violation("T-tiebreak", key, site, detail)
+			case "undecided":
+				r.Undecided("T-tiebreak", key, site, detail)
+			default:
+				r.OK("T-tiebreak", key, site, "sort over a []pnAndTime comparator type, sort.Reverse applied iff reverse"+detail)
+			}
+		}
+		if n == 0 {
+			r.Violation("T-tiebreak", FuncKey(sorted)+"#sort-call", p.Pos(sorted.Pos()), FuncKey(sorted)+" no longer sorts: enumeration order is map order")
+		}
+	}
+	return matcherFuncs
+}
+
+// ---------------------------------------------------------------------------
+// Token writer: the store to SearchResult.Continue in the effective body of Handler.Query
 
 type c09Writer struct {
-	fn       *ssa.Function
-	sprintf  *ssa.Call
+	fn       *ssa.Function // declared function holding the store
+	store    c09Site
+	sprintf  c09Site
+	have     bool // sprintf resolved
 	site     string
 	format   string
 	lits     []string // literal text before verb0, between verb0 and verb1, after verb1
 	verbs    []byte
-	args     []ssa.Value // values formatted (inside MakeInterface)
-	timeArg  ssa.Value   // integer written
-	refArg   ssa.Value   // ref written
-	unix     *ssa.Call   // the (time.Time).UnixXxx call producing timeArg
+	args     []c09V    // values formatted (inside MakeInterface)
+	timeArg  c09V      // integer written
+	refArg   c09V      // ref written
+	unix     *ssa.Call // the (time.Time).UnixXxx call producing timeArg
 	timeBy   map[int64]*types.Func
 	problems []string // cannot follow
 	lastOK   bool
 	lastWhy  string
 }
 
-// isLastResult: v is res.Blobs[len(res.Blobs)-1].Blob.
-func (cx *c09Ctx) isLastResult(v ssa.Value) (bool, string) {
-	lf, ok := c09LoadedField(originValue(v))
+// isLastResult: v is <SearchResult>.Blobs[len(<same>.Blobs)-1].Blob.
+func (cx *c09Ctx) isLastResult(v c09V) (bool, string) {
+	lf, o, ok := cx.loadedField(v)
 	if !ok || !c09IsRef(lf.Type) {
 		return false, "?the ref written in the token is not a field of a result element"
 	}
-	el, ok := originValue(lf.Base).(*ssa.UnOp)
-	if !ok || el.Op != token.MUL {
+	el := cx.origin(c09V{lf.Base, o.F})
+	ld, ok := el.V.(*ssa.UnOp)
+	if !ok || ld.Op != token.MUL {
 		return false, "?the ref written in the token is not read from an element of a slice"
 	}
-	ia, ok := el.X.(*ssa.IndexAddr)
+	ia, ok := ld.X.(*ssa.IndexAddr)
 	if !ok {
 		return false, "?the ref written in the token is not read from an element of a slice"
 	}
-	sf, ok := c09LoadedField(originValue(ia.X))
-	if !ok || sf.Owner == nil || sf.Owner.Obj() != cx.tResult.Obj() {
+	sf, so, ok := cx.loadedField(c09V{ia.X, el.F})
+	if !ok || !sf.is(cx.tResult, "") {
 		return false, "the ref written in the token is not taken from SearchResult.Blobs"
 	}
-	bo, ok := originValue(ia.Index).(*ssa.BinOp)
-	if ok && bo.Op == token.SUB {
-		if one, isC := ConstInt(bo.Y); isC && one == 1 {
-			if ln, ok := originValue(bo.X).(*ssa.Call); ok {
+	io := cx.origin(c09V{ia.Index, el.F})
+	if bo, ok := io.V.(*ssa.BinOp); ok && bo.Op == token.SUB {
+		if one, isC := cx.constInt(c09V{bo.Y, io.F}); isC && one == 1 {
+			lo := cx.origin(c09V{bo.X, io.F})
+			if ln, ok := lo.V.(*ssa.Call); ok {
 				if b, ok := ln.Call.Value.(*ssa.Builtin); ok && b.Name() == "len" {
-					if lf2, ok := c09LoadedField(originValue(ln.Call.Args[0])); ok && lf2.Owner == sf.Owner && lf2.Name == sf.Name && AccessPath(lf2.Base) == AccessPath(sf.Base) {
-						return true, ""
+					if lf2, o2, ok := cx.loadedField(c09V{ln.Call.Args[0], lo.F}); ok && lf2.Owner == sf.Owner && lf2.Name == sf.Name {
+						b1, b2 := c09V{lf2.Base, o2.F}, c09V{sf.Base, so.F}
+						if cx.sameOrigin(b1, b2) || (o2.F == so.F && AccessPath(lf2.Base) == AccessPath(sf.Base) && !strings.HasPrefix(AccessPath(sf.Base), "?")) {
+							return true, ""
+						}
 					}
 				}
 			}
@@ -1109,20 +2618,26 @@ func c09ParseFormat(f string) (lits []string, verbs []byte, ok bool) {
 }
 
 func (cx *c09Ctx) analyseWriter() *c09Writer {
-	fn := cx.p.Func("pkg/search", "SearchQuery", "setResultContinue")
-	w := &c09Writer{fn: fn, timeBy: map[int64]*types.Func{}, site: cx.p.Pos(fn.Pos())}
-	stores := c09StoresToField(c09WithLits(fn), cx.tResult, "Continue")
+	q := cx.q.fn
+	w := &c09Writer{fn: q, timeBy: map[int64]*types.Func{}, site: cx.p.Pos(q.Pos())}
+	stores := cx.fieldStores(q, cx.q, cx.tResult, "Continue")
 	if len(stores) != 1 {
-		w.problems = append(w.problems, fmt.Sprintf("%d stores to SearchResult.Continue (want exactly one token writer)", len(stores)))
+		if len(stores) > 1 {
+			w.fn, w.site = stores[0].top(), cx.p.Pos(stores[0].In.Pos())
+		}
+		w.problems = append(w.problems, fmt.Sprintf("%d stores to SearchResult.Continue in the effective body of %s (want exactly one token writer)", len(stores), FuncKey(q)))
 		return w
 	}
-	call, ok := originValue(stores[0].Val).(*ssa.Call)
+	st := stores[0]
+	w.store, w.fn, w.site = st, st.top(), cx.p.Pos(st.In.Pos())
+	val := cx.origin(st.val(st.store().Val))
+	call, ok := val.V.(*ssa.Call)
 	if !ok || !(CallSite{call.Parent(), call}).IsStatic("fmt", "", "Sprintf") {
 		w.problems = append(w.problems, "the token is not built by fmt.Sprintf; the rule cannot read its format")
 		return w
 	}
-	w.sprintf, w.site = call, cx.p.Pos(call.Pos())
-	format, ok := ConstString(call.Call.Args[0])
+	w.sprintf, w.have, w.site = c09Site{call, val.F}, true, cx.p.Pos(call.Pos())
+	format, ok := cx.constString(c09V{call.Call.Args[0], val.F})
 	if !ok {
 		w.problems = append(w.problems, "token format is not a constant string")
 		return w
@@ -1135,35 +2650,35 @@ func (cx *c09Ctx) analyseWriter() *c09Writer {
 	}
 	for _, a := range c09Varargs(call.Call.Args[1]) {
 		if mi, ok := a.(*ssa.MakeInterface); ok {
-			w.args = append(w.args, mi.X)
+			w.args = append(w.args, c09V{mi.X, val.F})
 		} else {
-			w.args = append(w.args, a)
+			w.args = append(w.args, c09V{a, val.F})
 		}
 	}
-	if len(w.verbs) != 2 || len(w.args) != 2 || w.args[0] == nil || w.args[1] == nil {
+	if len(w.verbs) != 2 || len(w.args) != 2 || w.args[0].V == nil || w.args[1].V == nil {
 		w.problems = append(w.problems, fmt.Sprintf("token format %q with %d arguments: expected <prefix><integer time><separator><ref>", format, len(w.args)))
 		return w
 	}
 	w.timeArg, w.refArg = w.args[0], w.args[1]
 	w.lastOK, w.lastWhy = cx.isLastResult(w.refArg)
 	// the integer must be a UnixXxx() of a time value
-	tv := w.timeArg
+	tv := cx.origin(w.timeArg)
 	for {
-		if cv, ok := tv.(*ssa.Convert); ok {
-			tv = cv.X
+		if cv, ok := tv.V.(*ssa.Convert); ok {
+			tv = cx.origin(c09V{cv.X, tv.F})
 			continue
 		}
 		break
 	}
-	uc, ok := tv.(*ssa.Call)
-	if !ok || uc.Call.StaticCallee() == nil || !c09IsTime(uc.Call.StaticCallee().Signature.Recv().Type()) {
+	uc, ok := tv.V.(*ssa.Call)
+	if !ok || uc.Call.StaticCallee() == nil || uc.Call.StaticCallee().Signature.Recv() == nil || !c09IsTime(uc.Call.StaticCallee().Signature.Recv().Type()) {
 		w.problems = append(w.problems, "the integer in the token is not the result of a time.Time method")
 		return w
 	}
 	w.unix = uc
 	// the time value, per sort
-	for _, lf := range cx.expandBySort(uc.Call.Args[0]) {
-		ex, ok := lf.V.(*ssa.Extract)
+	for _, lf := range cx.expandBySort(c09V{uc.Call.Args[0], tv.F}) {
+		ex, ok := lf.V.V.(*ssa.Extract)
 		var tcall *ssa.Call
 		if ok && ex.Index == 0 {
 			tcall, _ = ex.Tuple.(*ssa.Call)
@@ -1173,7 +2688,7 @@ func (cx *c09Ctx) analyseWriter() *c09Writer {
 			continue
 		}
 		// ref consistency: the time is the time of the ref written in the token
-		if n := len(tcall.Call.Args); n == 0 || !sameOrigin(tcall.Call.Args[n-1], w.refArg) {
+		if n := len(tcall.Call.Args); n == 0 || !cx.sameField(c09V{tcall.Call.Args[n-1], lf.V.F}, w.refArg, 0) {
 			w.problems = append(w.problems, "token time is computed for a different ref than the ref written in the token")
 		}
 		type tagged struct {
@@ -1182,18 +2697,21 @@ func (cx *c09Ctx) analyseWriter() *c09Writer {
 			has bool
 		}
 		var fs []tagged
-		if sc := tcall.Call.StaticCallee(); sc != nil {
+		if sc := tcall.Call.StaticCallee(); sc != nil && sc.Synthetic == "" {
 			f, _ := sc.Object().(*types.Func)
 			fs = append(fs, tagged{f, lf.Sort, lf.HasSort})
 		} else {
-			for _, fl := range cx.expandBySort(tcall.Call.Value) {
+			for _, fl := range cx.expandBySort(c09V{tcall.Call.Value, lf.V.F}) {
+				if c, isC := fl.V.V.(*ssa.Const); isC && c.Value == nil {
+					continue // nil function: calling it panics, no token is written on that path
+				}
 				k, has := fl.Sort, fl.HasSort
 				if !has {
 					k, has = lf.Sort, lf.HasSort
 				} else if lf.HasSort && lf.Sort != k {
 					continue
 				}
-				fs = append(fs, tagged{c09MethodOfFuncValue(fl.V), k, has})
+				fs = append(fs, tagged{c09MethodOfFuncValue(fl.V.V), k, has})
 			}
 		}
 		for _, t := range fs {
@@ -1214,20 +2732,197 @@ func (cx *c09Ctx) analyseWriter() *c09Writer {
 }
 
 // ---------------------------------------------------------------------------
+// Token reader: the calls applied to text derived from SearchQuery.Continue,
+// and the continue constraint built from their results
+
+type c09Reader struct {
+	fn                                    *ssa.Function // declared function holding the integer parse (for keys)
+	parses, hasPrefix, indexes, refParses []c09Site
+	unixes                                []c09Site
+	parsed                                c09V // integer result of the single parse
+	unixV, refV, refOKV                   c09V // rebuilt time, parsed ref and its ok
+}
+
+func (cx *c09Ctx) isToken(v c09V) bool {
+	f, _, ok := cx.loadedField(v)
+	return ok && f.is(cx.tQuery, "Continue")
+}
+
+func (cx *c09Ctx) fromToken(v c09V) bool { return cx.dependsOn(v, cx.isToken) }
+
+func (cx *c09Ctx) analyseReader() *c09Reader {
+	q := cx.q.fn
+	rd := &c09Reader{}
+	classify := func(c CallSite) string {
+		f := c.Callee()
+		if f == nil || f.Pkg == nil {
+			return ""
+		}
+		switch path, name := f.Pkg.Pkg.Path(), f.Name(); {
+		case path == "strconv" && (name == "ParseInt" || name == "ParseUint" || name == "Atoi"):
+			return "parse"
+		case path == "strings" && (name == "HasPrefix" || name == "TrimPrefix" || name == "CutPrefix"):
+			return "prefix"
+		case path == "strings" && (name == "Index" || name == "IndexByte" || name == "IndexRune" || name == "LastIndex" || name == "LastIndexByte"):
+			return "index"
+		case path == "time" && f.Signature.Recv() == nil && strings.HasPrefix(name, "Unix"):
+			return "unix"
+		case path == "perkeep.org/pkg/blob" && f.Signature.Recv() == nil && strings.HasPrefix(name, "Parse"):
+			return "ref"
+		}
+		return ""
+	}
+	var unixCand []c09Site
+	for _, s := range cx.callSites(q, cx.q, func(c CallSite) bool { return classify(c) != "" }) {
+		c := s.call()
+		kind := classify(c)
+		if kind == "unix" {
+			unixCand = append(unixCand, s)
+			continue
+		}
+		if len(c.Args()) == 0 || !cx.fromToken(s.val(c.Args()[0])) {
+			continue
+		}
+		switch kind {
+		case "parse":
+			rd.parses = append(rd.parses, s)
+		case "prefix":
+			rd.hasPrefix = append(rd.hasPrefix, s)
+		case "index":
+			rd.indexes = append(rd.indexes, s)
+		case "ref":
+			rd.refParses = append(rd.refParses, s)
+		}
+	}
+	if len(rd.parses) == 1 {
+		pc := rd.parses[0]
+		if rv := ResultValue(pc.call().Value(), 0); rv != nil {
+			rd.parsed = pc.val(rv)
+		}
+	}
+	for _, s := range unixCand {
+		for _, a := range s.call().Args() {
+			if rd.parsed.V != nil && cx.dependsOn(s.val(a), func(x c09V) bool { return x == rd.parsed }) {
+				rd.unixes = append(rd.unixes, s)
+				break
+			}
+		}
+	}
+	if len(rd.unixes) > 0 {
+		rd.unixV = rd.unixes[0].val(rd.unixes[0].call().Value())
+	}
+	if len(rd.refParses) == 1 {
+		c := rd.refParses[0].call().Value()
+		if v := ResultValue(c, 0); v != nil {
+			rd.refV = rd.refParses[0].val(v)
+		}
+		if c.Call.Signature().Results().Len() == 2 {
+			if v := ResultValue(c, 1); v != nil {
+				rd.refOKV = rd.refParses[0].val(v)
+			}
+		}
+	}
+	switch {
+	case len(rd.parses) > 0:
+		rd.fn = rd.parses[0].top()
+	case len(rd.unixes) > 0:
+		rd.fn = rd.unixes[0].top()
+	case len(rd.hasPrefix) > 0:
+		rd.fn = rd.hasPrefix[0].top()
+	case len(rd.refParses) > 0:
+		rd.fn = rd.refParses[0].top()
+	}
+	return rd
+}
+
+// c09Interp: how the continue constraint is filled from the token.
+type c09Interp struct {
+	fn         *ssa.Function // declared function holding the stores (for keys)
+	site       string
+	bySort     map[int64]string
+	refOK      bool
+	problems   []string
+	violations []string
+	timeStores []c09Site // stores of a token-derived time into a PermanodeContinueConstraint field
+	refStores  []c09Site // stores of a token-derived ref
+	exact      bool      // every token-derived value stored is exactly the reader's rebuilt time / parsed ref
+	inexact    string
+}
+
+// interpretation: which PermanodeContinueConstraint time field receives the
+// time rebuilt from the token under which sort.
+func (cx *c09Ctx) interpretation(rd *c09Reader) *c09Interp {
+	q := cx.q.fn
+	ip := &c09Interp{fn: q, site: cx.p.Pos(q.Pos()), bySort: map[int64]string{}, exact: true}
+	st := cx.tPCC.Underlying().(*types.Struct)
+	first := true
+	for i := 0; i < st.NumFields(); i++ {
+		fld := st.Field(i)
+		stores := cx.fieldStores(q, cx.q, cx.tPCC, fld.Name())
+		for _, s := range stores {
+			if first {
+				ip.fn, ip.site, first = s.top(), cx.p.Pos(s.In.Pos()), false
+			}
+			switch {
+			case c09IsRef(fld.Type()):
+				for _, lf := range cx.expandBySort(s.val(s.store().Val)) {
+					if c, isC := lf.V.V.(*ssa.Const); isC && c.Value == nil {
+						continue
+					}
+					if !cx.fromToken(lf.V) {
+						continue
+					}
+					ip.refOK = true
+					ip.refStores = append(ip.refStores, s)
+					if rd.refV.V == nil || lf.V != rd.refV {
+						ip.exact, ip.inexact = false, "PermanodeContinueConstraint."+fld.Name()+" receives a value derived from the token that is not the ref parsed by blob.Parse"
+					}
+				}
+			case c09IsTime(fld.Type()):
+				for _, lf := range cx.expandBySort(s.val(s.store().Val)) {
+					if c, isC := lf.V.V.(*ssa.Const); isC && c.Value == nil {
+						continue // zero time: field left unset on this path
+					}
+					if !cx.fromToken(lf.V) {
+						ip.problems = append(ip.problems, "PermanodeContinueConstraint."+fld.Name()+" receives a value that is neither the token time nor the zero time")
+						continue
+					}
+					ip.timeStores = append(ip.timeStores, s)
+					if rd.unixV.V == nil || lf.V != rd.unixV {
+						ip.exact, ip.inexact = false, "PermanodeContinueConstraint."+fld.Name()+" receives a value derived from the token that is not the time rebuilt by time.Unix"
+					}
+					if !lf.HasSort {
+						// the store itself sits under the sort fact (`case K: cc.LastMod = t`)
+						lf.Sort, lf.HasSort = cx.sortAt(s.In.Block(), s.F)
+					}
+					if !lf.HasSort {
+						ip.violations = append(ip.violations, "PermanodeContinueConstraint."+fld.Name()+" receives the token time regardless of q.Sort: the matcher may compare the token with the wrong clock")
+						continue
+					}
+					if prev, dup := ip.bySort[lf.Sort]; dup && prev != fld.Name() {
+						ip.violations = append(ip.violations, "under "+cx.sortName(lf.Sort)+" both "+prev+" and "+fld.Name()+" receive the token time: checkValid rejects the constraint / the matcher uses the first clock only")
+					}
+					ip.bySort[lf.Sort] = fld.Name()
+				}
+			}
+		}
+	}
+	return ip
+}
+
+// ---------------------------------------------------------------------------
 // T-codec
 
-func ruleC09Codec(cx *c09Ctx, w *c09Writer) {
+func ruleC09Codec(cx *c09Ctx, w *c09Writer, rd *c09Reader, ip *c09Interp) {
 	p, r := cx.p, cx.r
 	wkey := FuncKey(w.fn) + "#format"
-	rd := p.Func("pkg/search", "", "parsePermanodeContinueToken")
-	rkey := FuncKey(rd)
 	defer r.Floor("T-codec", 7)
-	if len(w.problems) > 0 && (w.sprintf == nil || len(w.verbs) != 2 || w.unix == nil) {
+	if len(w.problems) > 0 && (!w.have || len(w.verbs) != 2 || w.unix == nil) {
 		r.Undecided("T-codec", wkey, w.site, strings.Join(w.problems, "; "))
 		return
 	}
 	// writer side: integer verb, signed 64-bit nanoseconds
-	tb, _ := w.timeArg.Type().Underlying().(*types.Basic)
+	tb, _ := w.timeArg.V.Type().Underlying().(*types.Basic)
 	wSigned := tb != nil && tb.Info()&types.IsInteger != 0 && tb.Info()&types.IsUnsigned == 0
 	wBits := 0
 	if tb != nil {
@@ -1247,7 +2942,7 @@ func ruleC09Codec(cx *c09Ctx, w *c09Writer) {
 		r.Violation("T-codec", wkey, w.site, "token time is written with time.Time."+unixName+"(), which drops sub-unit precision: a permanode whose time has nanoseconds never Equals its own token time, so the tie filter does not apply and the last item is returned again")
 	case w.lits[0] == "" || w.lits[1] == "" || strings.ContainsAny(w.lits[1], "0123456789-+"):
 		r.Violation("T-codec", wkey, w.site, fmt.Sprintf("token format %q has no literal prefix or no unambiguous separator between time and ref", w.format))
-	case !(w.verbs[1] == 'v' || w.verbs[1] == 's') || !c09IsRef(w.refArg.Type()):
+	case !(w.verbs[1] == 'v' || w.verbs[1] == 's') || !c09IsRef(w.refArg.V.Type()):
 		r.Violation("T-codec", wkey, w.site, fmt.Sprintf("token format %q does not write the blob.Ref with %%v/%%s (its String form, which blob.Parse reads)", w.format))
 	default:
 		r.OK("T-codec", wkey, w.site, fmt.Sprintf("format %q: prefix %q, %s %d-bit UnixNano in base %d, separator %q, ref as String()", w.format, w.lits[0], map[bool]string{true: "signed", false: "unsigned"}[wSigned], wBits, base, w.lits[1]))
@@ -1255,72 +2950,51 @@ func ruleC09Codec(cx *c09Ctx, w *c09Writer) {
 	prefix, sep := w.lits[0], w.lits[1]
 
 	// reader
-	var strParam *ssa.Parameter
-	for _, prm := range rd.Params {
-		if b, ok := prm.Type().Underlying().(*types.Basic); ok && b.Kind() == types.String {
-			strParam = prm
-		}
+	rfn := rd.fn
+	if rfn == nil {
+		rfn = ip.fn
 	}
-	if strParam == nil {
-		brokenf("anchor unresolved: string parameter of parsePermanodeContinueToken")
-	}
-	fromParam := func(v ssa.Value) bool {
-		return DependsOn(v, func(x ssa.Value) bool { return x == ssa.Value(strParam) })
-	}
-	var parses, hasPrefix, indexes, unixes, refParses []CallSite
-	for _, c := range CallsIn(rd, false) {
-		f := c.Callee()
-		if f == nil || f.Pkg == nil {
-			continue
-		}
-		switch path, name := f.Pkg.Pkg.Path(), f.Name(); {
-		case path == "strconv" && (name == "ParseInt" || name == "ParseUint" || name == "Atoi"):
-			parses = append(parses, c)
-		case path == "strings" && (name == "HasPrefix" || name == "TrimPrefix" || name == "CutPrefix"):
-			hasPrefix = append(hasPrefix, c)
-		case path == "strings" && (name == "Index" || name == "IndexByte" || name == "IndexRune" || name == "LastIndex" || name == "LastIndexByte"):
-			indexes = append(indexes, c)
-		case path == "time" && f.Signature.Recv() == nil && strings.HasPrefix(name, "Unix"):
-			unixes = append(unixes, c)
-		case path == "perkeep.org/pkg/blob" && f.Signature.Recv() == nil && strings.HasPrefix(name, "Parse"):
-			refParses = append(refParses, c)
-		}
-	}
+	rkey := FuncKey(rfn)
 	// (a) prefix
 	{
-		key, site := rkey+"#prefix", p.Pos(rd.Pos())
-		okp, detail := false, "the reader never checks the token prefix with strings.HasPrefix/TrimPrefix/CutPrefix on its argument"
-		for _, c := range hasPrefix {
+		key, site := rkey+"#prefix", p.Pos(rfn.Pos())
+		okp, detail := false, "the reader never checks the token prefix with strings.HasPrefix/TrimPrefix/CutPrefix on text derived from SearchQuery.Continue"
+		for _, s := range rd.hasPrefix {
+			c := s.call()
 			site = p.Pos(c.Pos())
-			s, isConst := ConstString(c.Args()[1])
-			if !fromParam(c.Args()[0]) || !isConst {
+			str, isConst := cx.constString(s.val(c.Args()[1]))
+			if !isConst {
 				continue
 			}
-			if s != prefix {
-				detail = fmt.Sprintf("reader expects prefix %q, writer emits %q: every token is rejected and paging restarts from the first page", s, prefix)
+			if str != prefix {
+				detail = fmt.Sprintf("reader expects prefix %q, writer emits %q: every token is rejected and paging restarts from the first page", str, prefix)
 				continue
 			}
 			okp, detail = true, fmt.Sprintf("reader checks the writer's prefix %q", prefix)
 			break
 		}
-		// every const-low slice of the parameter must skip exactly the prefix
-		for _, b := range rd.Blocks {
-			for _, in := range b.Instrs {
-				if sl, ok := in.(*ssa.Slice); ok && sl.X == ssa.Value(strParam) && sl.Low != nil {
-					if n, isC := ConstInt(sl.Low); isC && okp && n != int64(len(prefix)) {
-						okp, detail = false, fmt.Sprintf("reader strips %d bytes but the prefix %q has %d", n, prefix, len(prefix))
-					}
-				}
+		// every const-low slice of the raw token must skip exactly the prefix
+		for _, s := range cx.sites(cx.q.fn, cx.q, func(in ssa.Instruction) bool {
+			sl, ok := in.(*ssa.Slice)
+			return ok && sl.Low != nil && c09IsStringType(sl.X.Type())
+		}) {
+			sl := s.In.(*ssa.Slice)
+			if !cx.isToken(s.val(sl.X)) {
+				continue
+			}
+			if n, isC := cx.constInt(s.val(sl.Low)); isC && okp && n != int64(len(prefix)) {
+				okp, detail = false, fmt.Sprintf("reader strips %d bytes but the prefix %q has %d", n, prefix, len(prefix))
 			}
 		}
 		r.Check(okp, "T-codec", key, site, detail, detail)
 	}
 	// (b) integer parse
-	if len(parses) != 1 {
-		r.Undecided("T-codec", rkey+"#time-int", p.Pos(rd.Pos()), fmt.Sprintf("%d strconv integer parses in the reader (want one)", len(parses)))
+	if len(rd.parses) != 1 {
+		r.Undecided("T-codec", rkey+"#time-int", p.Pos(rfn.Pos()), fmt.Sprintf("%d strconv integer parses of text derived from the token (want one)", len(rd.parses)))
 		return
 	}
-	pc := parses[0]
+	ps := rd.parses[0]
+	pc := ps.call()
 	{
 		key, site := rkey+"#time-int", p.Pos(pc.Pos())
 		name := pc.Callee().Name()
@@ -1332,74 +3006,73 @@ func ruleC09Codec(cx *c09Ctx, w *c09Writer) {
 				bad = append(bad, fmt.Sprintf("writer formats a %s integer (UnixNano is negative before 1970) but the reader uses strconv.%s: tokens of pre-1970 permanodes are rejected, paging cannot get past them",
 					map[bool]string{true: "signed", false: "unsigned"}[wSigned], name))
 			}
-			if b, ok := ConstInt(pc.Args()[1]); !ok || b != base {
+			if b, ok := cx.constInt(ps.val(pc.Args()[1])); !ok || b != base {
 				bad = append(bad, fmt.Sprintf("reader parses base %d, writer formats base %d", b, base))
 			}
-			if bits, ok := ConstInt(pc.Args()[2]); !ok || bits != int64(wBits) {
+			if bits, ok := cx.constInt(ps.val(pc.Args()[2])); !ok || bits != int64(wBits) {
 				bad = append(bad, fmt.Sprintf("reader parses %d bits, writer formats %d bits", bits, wBits))
 			}
-		}
-		if !fromParam(pc.Args()[0]) {
-			bad = append(bad, "the parsed string does not derive from the token")
 		}
 		r.Check(len(bad) == 0, "T-codec", key, site,
 			fmt.Sprintf("strconv.%s(base %d, %d bits) matches the writer's %s integer", name, base, wBits, map[bool]string{true: "signed", false: "unsigned"}[wSigned]),
 			strings.Join(bad, "; "))
 	}
-	parsed := ResultValue(pc.Value(), 0)
-	isParsed := func(x ssa.Value) bool { return parsed != nil && x == parsed }
+	parsed := rd.parsed
 	// (c) separator
 	{
 		key, site := rkey+"#separator", p.Pos(pc.Pos())
 		okp, detail := false, "the reader does not locate the separator with strings.Index* on the token"
-		var col ssa.Value
-		for _, c := range indexes {
-			if !fromParam(c.Args()[0]) {
-				continue
-			}
-			s, isS := ConstString(c.Args()[1])
+		var col, searched c09V
+		for _, s := range rd.indexes {
+			c := s.call()
+			str, isS := cx.constString(s.val(c.Args()[1]))
 			if !isS {
-				if n, isN := ConstInt(c.Args()[1]); isN {
-					s, isS = string(rune(n)), true
+				if n, isN := cx.constInt(s.val(c.Args()[1])); isN {
+					str, isS = string(rune(n)), true
 				}
 			}
 			if !isS {
 				continue
 			}
 			site = p.Pos(c.Pos())
-			if s != sep {
-				detail = fmt.Sprintf("reader splits at %q, writer separates with %q", s, sep)
+			if str != sep {
+				detail = fmt.Sprintf("reader splits at %q, writer separates with %q", str, sep)
 				continue
 			}
-			okp, detail, col = true, fmt.Sprintf("reader splits at the writer's separator %q; time = text before it, ref = text after it", sep), c.Value()
+			okp, detail = true, fmt.Sprintf("reader splits at the writer's separator %q; time = text before it, ref = text after it", sep)
+			col, searched = s.val(c.Value()), s.val(c.Args()[0])
 			break
 		}
 		if okp {
 			// the integer text ends at col; the ref text starts at col+len(sep)
-			sl, isSl := originValue(pc.Args()[0]).(*ssa.Slice)
-			if !isSl || sl.High == nil || originValue(sl.High) != col {
-				okp, detail = false, "the integer text is not the token text up to the separator"
+			so := cx.live(ps.val(pc.Args()[0]))
+			sl, isSl := so.V.(*ssa.Slice)
+			if !isSl || sl.High == nil || cx.live(c09V{sl.High, so.F}) != col || cx.live(c09V{sl.X, so.F}) != cx.live(searched) {
+				okp, detail = false, "the integer text is not the searched text up to the separator"
 			}
 		}
 		if okp {
-			if len(refParses) != 1 {
-				okp, detail = false, fmt.Sprintf("%d blob.Parse* calls in the reader (want one)", len(refParses))
+			if len(rd.refParses) != 1 {
+				okp, detail = false, fmt.Sprintf("%d blob.Parse* calls on text derived from the token (want one)", len(rd.refParses))
 			} else {
-				sl, isSl := originValue(refParses[0].Args()[0]).(*ssa.Slice)
+				rs := rd.refParses[0]
+				so := cx.live(rs.val(rs.call().Args()[0]))
+				sl, isSl := so.V.(*ssa.Slice)
 				good := false
-				if isSl && sl.Low != nil && sl.High == nil {
-					if bo, ok := originValue(sl.Low).(*ssa.BinOp); ok && bo.Op == token.ADD {
+				if isSl && sl.Low != nil && sl.High == nil && cx.live(c09V{sl.X, so.F}) == cx.live(searched) {
+					lo := cx.live(c09V{sl.Low, so.F})
+					if bo, ok := lo.V.(*ssa.BinOp); ok && bo.Op == token.ADD {
 						x, y := bo.X, bo.Y
 						if _, isC := x.(*ssa.Const); isC {
 							x, y = y, x
 						}
-						if n, isC := ConstInt(y); isC && originValue(x) == col && n == int64(len(sep)) {
+						if n, isC := cx.constInt(c09V{y, lo.F}); isC && cx.live(c09V{x, lo.F}) == col && n == int64(len(sep)) {
 							good = true
 						}
 					}
 				}
 				if !good {
-					okp, detail = false, "the ref text is not the token text from separator+len(separator) to the end"
+					okp, detail = false, "the ref text is not the searched text from separator+len(separator) to the end"
 				}
 			}
 		}
@@ -1409,11 +3082,12 @@ func ruleC09Codec(cx *c09Ctx, w *c09Writer) {
 	{
 		key, site := rkey+"#time-unit", p.Pos(pc.Pos())
 		okp, detail := false, "the parsed integer is not turned into a time with time.Unix(0, n)"
-		for _, c := range unixes {
+		for _, s := range rd.unixes {
+			c := s.call()
 			site = p.Pos(c.Pos())
 			dep := -1
 			for i, a := range c.Args() {
-				if DependsOn(a, isParsed) {
+				if cx.dependsOn(s.val(a), func(x c09V) bool { return x == parsed }) {
 					dep = i
 				}
 			}
@@ -1422,9 +3096,9 @@ func ruleC09Codec(cx *c09Ctx, w *c09Writer) {
 			}
 			// only width/sign-preserving conversions between the parse and the call
 			pure := true
-			for v := c.Args()[dep]; v != parsed; {
-				cv, ok := v.(*ssa.Convert)
-				if !ok {
+			for v, n := cx.origin(s.val(c.Args()[dep])), 0; v != parsed; n++ {
+				cv, ok := v.V.(*ssa.Convert)
+				if !ok || n > 8 {
 					pure = false
 					break
 				}
@@ -1432,11 +3106,11 @@ func ruleC09Codec(cx *c09Ctx, w *c09Writer) {
 					pure = false
 					break
 				}
-				v = cv.X
+				v = cx.origin(c09V{cv.X, v.F})
 			}
 			sec, secConst := int64(-1), false
 			if len(c.Args()) == 2 {
-				sec, secConst = ConstInt(c.Args()[0])
+				sec, secConst = cx.constInt(s.val(c.Args()[0]))
 			}
 			switch {
 			case c.Callee().Name() != "Unix" || dep != 1 || !secConst || sec != 0:
@@ -1450,111 +3124,134 @@ func ruleC09Codec(cx *c09Ctx, w *c09Writer) {
 		}
 		r.Check(okp, "T-codec", key, site, detail, detail)
 	}
-	// (e) results: on every return that may report ok, time and ref are the parsed ones
+	// (e) results: the continue constraint receives the rebuilt time and the parsed ref, nothing else derived from the token
 	{
 		key := rkey + "#results"
-		okp, detail := true, ""
+		switch {
+		case len(ip.timeStores) == 0 || len(ip.refStores) == 0:
+			r.Violation("T-codec", key, ip.site, fmt.Sprintf("the continue constraint receives %d token-derived time(s) and %d token-derived ref(s): the reader's results do not reach the PermanodeContinueConstraint", len(ip.timeStores), len(ip.refStores)))
+		case !ip.exact:
+			r.Violation("T-codec", key, ip.site, ip.inexact)
+		default:
+			r.OK("T-codec", key, ip.site, "the PermanodeContinueConstraint receives exactly the time rebuilt by time.Unix and the ref parsed by blob.Parse")
+		}
+	}
+	// (f) the constraint is built only where both parses succeeded
+	{
+		key := FuncKey(ip.fn) + "#ok-guard"
+		good, why := true, ""
+		seen := map[c09Site]bool{}
 		n := 0
-		for _, ri := range Returns(rd) {
-			if len(ri.Results) != 3 {
-				okp, detail = false, "reader no longer returns (time, ref, ok)"
-				break
+		for _, s := range append(append([]c09Site{}, ip.timeStores...), ip.refStores...) {
+			if seen[s] {
+				continue
 			}
-			if c, isC := originValue(ri.Results[2]).(*ssa.Const); isC && c.Value != nil && !constant.BoolVal(c.Value) {
-				continue // ok=false
-			}
+			seen[s] = true
 			n++
-			tcall, isCall := originValue(ri.Results[0]).(*ssa.Call)
-			if !isCall || len(unixes) == 0 || tcall != unixes[0].Value() {
-				okp, detail = false, "a return that may report ok does not return the time rebuilt from the token"
-			}
-			if len(refParses) == 1 {
-				if ri.Results[1] != ResultValue(refParses[0].Value(), 0) {
-					okp, detail = false, "a return that may report ok does not return the ref parsed from the token"
-				}
-				if rs := refParses[0].Callee().Signature.Results(); rs.Len() == 2 && ri.Results[2] != ResultValue(refParses[0].Value(), 1) {
-					okp, detail = false, "ok is not the result of parsing the ref"
+			for _, P := range append(append([]c09Site{}, rd.parses...), rd.refParses...) {
+				if ok, w := cx.successDominated(P, s, 0); !ok {
+					good, why = false, fmt.Sprintf("%s: %s", P.call().CalleeKey(), w)
 				}
 			}
 		}
-		if okp && n == 0 {
-			okp, detail = false, "the reader never reports ok"
+		site := ip.site
+		switch {
+		case n == 0:
+			r.Undecided("T-codec", key, site, "no store of a token-derived value into the continue constraint found")
+		case !good:
+			r.Violation("T-codec", key, site, "token time/ref are stored into the continue constraint where the reader is not known to have succeeded ("+why+"): a malformed token becomes a zero-time continue constraint")
+		default:
+			r.OK("T-codec", key, site, "token time and ref are stored into the continue constraint only where the integer parse and the ref parse are known to have succeeded")
 		}
-		if okp {
-			detail = fmt.Sprintf("%d success return(s) return the rebuilt time, the parsed ref and its ok", n)
-		}
-		r.Check(okp, "T-codec", key, p.Pos(rd.Pos()), detail, detail)
 	}
-	// (f) the caller uses the values only under ok
-	add := p.Func("pkg/search", "SearchQuery", "addContinueConstraint")
-	for _, c := range CallsIn(add, true) {
-		if c.Callee() != rd || c.Value() == nil {
-			continue
-		}
-		okv := ResultValue(c.Value(), 2)
-		good := okv != nil
-		if good {
-			for _, i := range []int{0, 1} {
-				v := ResultValue(c.Value(), i)
-				if v == nil || v.Referrers() == nil {
-					continue
-				}
-				for _, u := range nonDebug(*v.Referrers()) {
-					under := false
-					for _, f := range FactsAt(u.Block()) {
-						if f.Cond == okv && f.Val {
-							under = true
-						}
-					}
-					if _, isPhi := u.(*ssa.Phi); isPhi {
-						under = true // selection only; the stores are checked by T-clock
-					}
-					if !under {
-						good = false
-					}
-				}
-			}
-		}
-		r.Check(good, "T-codec", FuncKey(add)+"#ok-guard", p.Pos(c.Pos()),
-			"token time and ref are used only where the reader's ok is true",
-			"token time/ref are used where the reader's ok is not known true: a malformed token becomes a zero-time continue constraint")
-	}
+}
+
+func c09IsStringType(t types.Type) bool {
+	b, ok := t.Underlying().(*types.Basic)
+	return ok && b.Info()&types.IsString != 0
 }
 
 // ---------------------------------------------------------------------------
 // T-clock
 
-// c09IndexKeys: which time function keys each lazySortedPermanodes field of Corpus.
+// indexSortKeys: which time function keys each lazySortedPermanodes field of
+// Corpus (role: the stores, anywhere in pkg/index, of a lazySortedPermanodes
+// into a Corpus field, and the pnTime stored into that same object).
 func (cx *c09Ctx) indexSortKeys() (byField map[string]*types.Func, problems []string) {
 	byField = map[string]*types.Func{}
-	fns := cx.p.FuncsIn("pkg/index")
-	for _, st := range c09StoresToField(fns, cx.tLSP, "pnTime") {
-		f := c09MethodOfFuncValue(st.Val)
-		fa, _ := c09FieldRef(st.Addr)
-		// where does this lazySortedPermanodes go?
-		var fields []string
-		var corpusBase ssa.Value
-		if refs := fa.Base.Referrers(); refs != nil {
-			for _, u := range *refs {
-				if s2, ok := u.(*ssa.Store); ok && s2.Val == fa.Base {
-					if cf, ok := c09FieldRef(s2.Addr); ok && cf.Owner != nil && cf.Owner.Obj() == cx.tCorpus.Obj() {
-						fields = append(fields, cf.Name)
-						corpusBase = cf.Base
-					}
-				}
-			}
-		}
-		if f == nil || len(fields) != 1 {
-			problems = append(problems, fmt.Sprintf("store to lazySortedPermanodes.pnTime in %s cannot be resolved to (Corpus field, declared method)", FuncKey(st.Parent())))
+	st := cx.tCorpus.Underlying().(*types.Struct)
+	for _, fn := range cx.p.FuncsIn("pkg/index") {
+		if fn.Parent() != nil {
 			continue
 		}
-		if mc, ok := originValue(st.Val).(*ssa.MakeClosure); ok && len(mc.Bindings) == 1 && corpusBase != nil && originValue(mc.Bindings[0]) != originValue(corpusBase) {
-			problems = append(problems, "pnTime of Corpus."+fields[0]+" is bound to a different corpus than the one that owns it")
+		root := cx.root(fn)
+		for i := 0; i < st.NumFields(); i++ {
+			fld := st.Field(i)
+			if !c09Is(fld.Type(), cx.tLSP) {
+				continue
+			}
+			var stores []c09Site
+			for _, d := range c09StoresToField(c09WithLits(fn), cx.tCorpus, fld.Name()) {
+				s := c09Site{d, root}
+				// the stored object is a parameter: look at it from the static callers
+				if _, isP := cx.origin(s.val(d.Val)).V.(*ssa.Parameter); isP {
+					n := 0
+					for _, c := range cx.p.StaticCallers(fn) {
+						if F := cx.child(cx.root(c.Fn), c.Instr, false); F != nil {
+							stores = append(stores, c09Site{d, F})
+							n++
+						}
+					}
+					if n > 0 {
+						continue
+					}
+				}
+				stores = append(stores, s)
+			}
+			for _, s := range stores {
+				fa, _ := c09FieldRef(s.store().Addr)
+				obj := cx.origin(s.val(s.store().Val))
+				if IsNilConst(obj.V) {
+					continue
+				}
+				al, ok := obj.V.(*ssa.Alloc)
+				if !ok || al.Referrers() == nil {
+					problems = append(problems, "Corpus."+fld.Name()+" is set in "+FuncKey(fn)+" to a lazySortedPermanodes the rule cannot follow to its construction")
+					continue
+				}
+				var f *types.Func
+				n := 0
+				for _, u := range *al.Referrers() {
+					pfa, isFA := u.(*ssa.FieldAddr)
+					if !isFA || pfa.Referrers() == nil {
+						continue
+					}
+					if pf, ok := c09FieldRef(pfa); !ok || pf.Name != "pnTime" {
+						continue
+					}
+					for _, u2 := range *pfa.Referrers() {
+						ps, isSt := u2.(*ssa.Store)
+						if !isSt || ps.Addr != ssa.Value(pfa) {
+							continue
+						}
+						n++
+						fv := cx.origin(c09V{ps.Val, obj.F})
+						f = c09MethodOfFuncValue(fv.V)
+						if mc, ok := fv.V.(*ssa.MakeClosure); ok && len(mc.Bindings) == 1 && !cx.sameOrigin(c09V{mc.Bindings[0], fv.F}, s.val(fa.Base)) {
+							problems = append(problems, "pnTime of Corpus."+fld.Name()+" is bound to a different corpus than the one that owns it")
+						}
+					}
+				}
+				if f == nil || n != 1 {
+					problems = append(problems, fmt.Sprintf("pnTime of the lazySortedPermanodes stored in Corpus.%s (%s) cannot be resolved to a declared method (%d stores)", fld.Name(), FuncKey(fn), n))
+					continue
+				}
+				if prev, dup := byField[fld.Name()]; dup && prev != f {
+					problems = append(problems, "Corpus."+fld.Name()+" is keyed by two different time functions")
+				}
+				byField[fld.Name()] = f
+			}
 		}
-		if prev, dup := byField[fields[0]]; dup && prev != f {
-			problems = append(problems, "Corpus."+fields[0]+" is keyed by two different time functions")
-		}
-		byField[fields[0]] = f
 	}
 	return
 }
@@ -1562,102 +3259,162 @@ func (cx *c09Ctx) indexSortKeys() (byField map[string]*types.Func, problems []st
 type c09Source struct {
 	site     string
 	enum     *ssa.Function
+	sorter   *ssa.Function // the lazySortedPermanodes method that yields the slice
 	field    string
 	newest   bool   // newest-first requested
-	sorted   bool   // candidateSource.sorted known true at the return
+	sorted   bool   // candidateSource.sorted known true where the send function is installed
 	problem  string // cannot follow
 	violated string
 }
 
-// sourcesBySort: for each `q.Sort == K` arm of pickCandidateSource that installs
-// a send function, the Corpus enumerator it calls.
+// sourcesBySort: for each `q.Sort == K` arm (effective body of Handler.Query)
+// that installs a candidateSource.send function, the Corpus enumerator it calls.
 func (cx *c09Ctx) sourcesBySort() map[int64]*c09Source {
-	pick := cx.p.Func("pkg/search", "SearchQuery", "pickCandidateSource")
+	q := cx.q.fn
 	out := map[int64]*c09Source{}
-	for _, st := range c09StoresToField([]*ssa.Function{pick}, cx.tCandSrc, "send") {
-		k, ok := cx.sortAt(st.Block())
+	flags := cx.fieldStores(q, cx.q, cx.tCandSrc, "sorted")
+	for _, st := range cx.fieldStores(q, cx.q, cx.tCandSrc, "send") {
+		k, ok := cx.sortAt(st.In.Block(), st.F)
 		if !ok {
 			continue
 		}
-		s := &c09Source{site: cx.p.Pos(st.Pos())}
+		s := &c09Source{site: cx.p.Pos(st.In.Pos())}
 		if _, dup := out[k]; dup {
 			s.problem = "two send functions installed under " + cx.sortName(k)
 			out[k] = s
 			continue
 		}
 		out[k] = s
-		// the branch must be the permanode-only, corpus-backed one
-		onlyPN := false
-		for _, f := range FactsAt(st.Block()) {
-			if c, ok := originValue(f.Cond).(*ssa.Call); ok && f.Val && c.Call.StaticCallee() != nil && c.Call.StaticCallee().Name() == "onlyMatchesPermanode" {
-				onlyPN = true
-			}
-		}
-		if !onlyPN {
-			s.problem = "send function for " + cx.sortName(k) + " is not installed under onlyMatchesPermanode()"
-			continue
-		}
-		// sorted flag: last store to .sorted that dominates this store
-		var flag *ssa.Store
-		for _, fs := range c09StoresToField([]*ssa.Function{pick}, cx.tCandSrc, "sorted") {
-			if Precedes(fs, st) && (flag == nil || Precedes(flag, fs)) {
-				flag = fs
+		// sorted flag: last store to .sorted that precedes this store
+		var flag *c09Site
+		for i := range flags {
+			fs := flags[i]
+			if cx.precedes(fs, st) && (flag == nil || cx.precedes(*flag, fs)) {
+				flag = &flags[i]
 			}
 		}
 		if flag != nil {
-			if c, ok := flag.Val.(*ssa.Const); ok && c.Value != nil && constant.BoolVal(c.Value) {
+			if c, ok := cx.origin(flag.val(flag.store().Val)).V.(*ssa.Const); ok && c.Value != nil && c.Value.Kind() == constant.Bool && constant.BoolVal(c.Value) {
 				s.sorted = true
 			}
 		}
-		lit, _ := originValue(st.Val).(*ssa.MakeClosure)
+		fv := cx.origin(st.val(st.store().Val))
 		var body *ssa.Function
-		if lit != nil {
-			body, _ = lit.Fn.(*ssa.Function)
-		} else if f, ok := originValue(st.Val).(*ssa.Function); ok {
-			body = f
+		switch x := fv.V.(type) {
+		case *ssa.MakeClosure:
+			body, _ = x.Fn.(*ssa.Function)
+		case *ssa.Function:
+			body = x
 		}
-		if body == nil {
-			s.problem = "send function is not a function literal"
-			continue
-		}
-		var enums []CallSite
-		for _, c := range CallsIn(body, true) {
-			if rt := c.RecvType(); rt != nil && c09Is(rt, cx.tCorpus) && c.Callee() != nil {
-				enums = append(enums, c)
+		if body != nil && body.Synthetic != "" {
+			// a method value (`sender.lastModified`): the declared method behind the bound wrapper
+			body = nil
+			if mo := c09MethodOfFuncValue(fv.V); mo != nil {
+				body = cx.p.SSA.FuncValue(mo)
 			}
 		}
+		if body == nil || body.Blocks == nil || body.Synthetic != "" {
+			s.problem = "send function is not a function literal or declared function"
+			continue
+		}
+		bodyF := fv.F
+		if body.Parent() == nil {
+			bodyF = cx.root(body) // a declared function used as the send value: its own activation
+		}
+		enums := cx.callSites(body, bodyF, func(c CallSite) bool {
+			rt := c.RecvType()
+			return rt != nil && c09Is(rt, cx.tCorpus) && c.Callee() != nil && c.Callee().Blocks != nil
+		})
 		if len(enums) != 1 {
 			s.problem = fmt.Sprintf("send function calls %d Corpus methods (want one enumerator)", len(enums))
 			continue
 		}
 		ec := enums[0]
-		s.enum = ec.Callee()
-		// inside the enumerator: exactly one lazySortedPermanodes.sorted call
-		var sc []CallSite
-		for _, c := range CallsIn(s.enum, false) {
-			if rt := c.RecvType(); rt != nil && c09Is(rt, cx.tLSP) && c.Callee() != nil && c.Callee().Signature.Results().Len() == 1 {
-				sc = append(sc, c)
+		s.enum = ec.call().Callee()
+		E := cx.child(ec.F, ec.call().Instr, true)
+		if E == nil {
+			s.problem = "cannot enter the Corpus enumerator " + FuncKey(s.enum)
+			continue
+		}
+		// inside the enumerator's effective body: exactly one lazySortedPermanodes method yielding the slice
+		sc := cx.callSites(s.enum, E, func(c CallSite) bool {
+			rt := c.RecvType()
+			if rt == nil || !c09Is(rt, cx.tLSP) || c.Callee() == nil || c.Callee().Signature.Results().Len() != 1 {
+				return false
+			}
+			sl, ok := c.Callee().Signature.Results().At(0).Type().Underlying().(*types.Slice)
+			return ok && c09Is(sl.Elem(), cx.tPnTime)
+		})
+		// a wrapper method of lazySortedPermanodes calling the real one shows up twice: keep the outermost
+		var outer []c09Site
+		for _, c := range sc {
+			inner := false
+			for _, d := range sc {
+				for f := c.F; f != nil; f = f.parent {
+					if f.site != nil && ssa.Instruction(f.site) == d.In && f.parent == d.F {
+						inner = true
+					}
+				}
+			}
+			if !inner {
+				outer = append(outer, c)
 			}
 		}
+		all := sc
+		sc = outer
 		if len(sc) != 1 {
 			s.violated = fmt.Sprintf("%s enumerates from %d lazySortedPermanodes slices: the source picked for %s is not one (time, ref)-sorted list", FuncKey(s.enum), len(sc), cx.sortName(k))
 			continue
 		}
-		lf, ok := c09LoadedField(originValue(sc[0].Args()[0]))
-		if !ok || lf.Owner == nil || lf.Owner.Obj() != cx.tCorpus.Obj() {
-			s.problem = "receiver of sorted() is not a field of the Corpus"
+		sc0 := sc[0]
+		// the sorting method proper: the innermost lazySortedPermanodes method (a wrapper may sit in between) taking the direction
+		inner := sc0
+		hasDir := func(c c09Site) bool {
+			n := 0
+			for _, prm := range c.call().Callee().Params {
+				if c09IsBool(prm.Type()) {
+					n++
+				}
+			}
+			return n == 1 && len(c.call().Args()) == 2
+		}
+		for _, c := range all {
+			if hasDir(c) && (!hasDir(inner) || c.F.depth > inner.F.depth) {
+				inner = c
+			}
+		}
+		s.sorter = inner.call().Callee()
+		lf, _, ok := cx.loadedField(sc0.val(sc0.call().Args()[0]))
+		if !ok || !lf.is(cx.tCorpus, "") {
+			s.problem = "receiver of the sorting method is not a field of the Corpus"
 			continue
 		}
 		s.field = lf.Name
-		// the sorted slice and the callback reach the same call (or the slice is ranged over here)
+		// the sorted slice and the caller's callback reach the same call, or the slice is ranged over where the callback is called
+		slice := cx.origin(sc0.val(sc0.call().Value()))
+		isCallback := func(v c09V) bool {
+			// a function-typed parameter handed in from outside the enumerator
+			o := cx.origin(v)
+			prm, isP := o.V.(*ssa.Parameter)
+			if !isP || !c09IsFuncType(prm.Type()) {
+				return false
+			}
+			for f := E; f != nil; f = f.parent {
+				if f == o.F {
+					return true
+				}
+			}
+			return false
+		}
 		passed := false
-		for _, c := range CallsIn(s.enum, false) {
+		for _, c := range cx.callSites(s.enum, E, func(CallSite) bool { return true }) {
+			cs := c.call()
 			hasSlice, hasFn := false, false
-			for _, a := range c.Args() {
-				if originValue(a) == ssa.Value(sc[0].Value()) {
+			for _, a := range cs.Args() {
+				if cx.origin(c.val(a)) == slice {
 					hasSlice = true
 				}
-				if _, isP := originValue(a).(*ssa.Parameter); isP && c09IsFuncType(a.Type()) {
+				if c09IsFuncType(a.Type()) && isCallback(c.val(a)) {
 					hasFn = true
 				}
 			}
@@ -1666,85 +3423,55 @@ func (cx *c09Ctx) sourcesBySort() map[int64]*c09Source {
 			}
 		}
 		if !passed {
-			s.problem = "cannot see the sorted slice and the callback being handed to one enumeration helper"
-			continue
-		}
-		// direction
-		rev := originValue(sc[0].Args()[1])
-		if prm, ok := rev.(*ssa.Parameter); ok {
-			for i, ep := range s.enum.Params {
-				if ep == prm {
-					rev = originValue(ec.Args()[i])
+			// or: the callback is called with a value derived from an element read from the sorted slice
+			isElem := func(v c09V) bool {
+				var x ssa.Value
+				switch in := v.V.(type) {
+				case *ssa.IndexAddr:
+					x = in.X
+				case *ssa.Index:
+					x = in.X
+				case *ssa.Range:
+					x = in.X
+				default:
+					return false
+				}
+				return cx.origin(c09V{x, v.F}) == slice
+			}
+			for _, x := range cx.callSites(s.enum, E, func(c CallSite) bool {
+				return !c.Common().IsInvoke() && c.Common().StaticCallee() == nil
+			}) {
+				cs := x.call()
+				if !isCallback(x.val(cs.Common().Value)) {
+					continue
+				}
+				for _, a := range cs.Common().Args {
+					if cx.dependsOn(x.val(a), isElem) {
+						passed = true
+					}
 				}
 			}
 		}
-		if c, ok := rev.(*ssa.Const); ok && c.Value != nil && c.Value.Kind() == constant.Bool {
+		if !passed {
+			s.problem = "cannot see the sorted slice and the callback being handed to one enumeration helper (or the slice being ranged over where the callback is called)"
+			continue
+		}
+		// direction
+		if !hasDir(inner) {
+			s.problem = "the sorting method takes no direction the rule can read"
+			continue
+		}
+		rev := cx.origin(inner.val(inner.call().Args()[1]))
+		if c, ok := rev.V.(*ssa.Const); ok && c.Value != nil && c.Value.Kind() == constant.Bool {
 			s.newest = constant.BoolVal(c.Value)
 		} else {
-			s.problem = "direction requested from sorted() is not a constant"
+			s.problem = "direction requested from the sorting method is not a constant"
 		}
 	}
 	return out
 }
 
-func c09IsFuncType(t types.Type) bool { _, ok := t.Underlying().(*types.Signature); return ok }
-
-// contFieldsBySort: which PermanodeContinueConstraint time field receives the
-// parsed token time under which sort, in addContinueConstraint.
-func (cx *c09Ctx) contFieldsBySort() (bySort map[int64]string, refOK bool, problems []string, violations []string, site string) {
-	add := cx.p.Func("pkg/search", "SearchQuery", "addContinueConstraint")
-	rd := cx.p.Func("pkg/search", "", "parsePermanodeContinueToken")
-	bySort = map[int64]string{}
-	site = cx.p.Pos(add.Pos())
-	var tok *ssa.Call
-	for _, c := range CallsIn(add, true) {
-		if c.Callee() == rd && c.Value() != nil {
-			tok = c.Value()
-			site = cx.p.Pos(c.Pos())
-		}
-	}
-	if tok == nil {
-		violations = append(violations, "addContinueConstraint no longer parses the token with parsePermanodeContinueToken")
-		return
-	}
-	tokT, tokR := ResultValue(tok, 0), ResultValue(tok, 1)
-	st := cx.tPCC.Underlying().(*types.Struct)
-	for i := 0; i < st.NumFields(); i++ {
-		fld := st.Field(i)
-		stores := c09StoresToField(c09WithLits(add), cx.tPCC, fld.Name())
-		switch {
-		case c09IsRef(fld.Type()):
-			for _, s := range stores {
-				if tokR != nil && sameOrigin(s.Val, tokR) {
-					refOK = true
-				}
-			}
-		case c09IsTime(fld.Type()):
-			for _, s := range stores {
-				for _, lf := range cx.expandBySort(s.Val) {
-					if c, isC := lf.V.(*ssa.Const); isC && c.Value == nil {
-						continue // zero time: field left unset on this path
-					}
-					if tokT == nil || lf.V != tokT {
-						problems = append(problems, "PermanodeContinueConstraint."+fld.Name()+" receives a value that is neither the token time nor the zero time")
-						continue
-					}
-					if !lf.HasSort {
-						violations = append(violations, "PermanodeContinueConstraint."+fld.Name()+" receives the token time regardless of q.Sort: the matcher may compare the token with the wrong clock")
-						continue
-					}
-					if prev, dup := bySort[lf.Sort]; dup && prev != fld.Name() {
-						violations = append(violations, "under "+cx.sortName(lf.Sort)+" both "+prev+" and "+fld.Name()+" receive the token time: checkValid rejects the constraint / the matcher uses the first clock only")
-					}
-					bySort[lf.Sort] = fld.Name()
-				}
-			}
-		}
-	}
-	return
-}
-
-func ruleC09Clock(cx *c09Ctx, w *c09Writer, m *c09Matcher, matcherFuncs map[string]map[*types.Func]bool) {
+func ruleC09Clock(cx *c09Ctx, w *c09Writer, m *c09Matcher, matcherFuncs map[string]map[*types.Func]bool, srcs map[int64]*c09Source, sorters []*ssa.Function, ip *c09Interp) {
 	p, r := cx.p, cx.r
 	defer r.Floor("T-clock", 10)
 	wfn := FuncKey(w.fn)
@@ -1756,13 +3483,18 @@ func ruleC09Clock(cx *c09Ctx, w *c09Writer, m *c09Matcher, matcherFuncs map[stri
 		r.Violation("T-clock", wfn+"#token-time", w.site, fmt.Sprintf("only %d sort(s) write a continue token (LastModifiedDesc and CreatedDesc are expected to be continuable)", len(w.timeBy)))
 	}
 	keys, kprob := cx.indexSortKeys()
-	srcs := cx.sourcesBySort()
-	contFld, refOK, aprob, aviol, asite := cx.contFieldsBySort()
-	pick := FuncKey(p.Func("pkg/search", "SearchQuery", "pickCandidateSource"))
-	add := FuncKey(p.Func("pkg/search", "SearchQuery", "addContinueConstraint"))
+	// the function that installs the send functions (for keys)
+	pickFn := cx.q.fn
+	if ss := cx.fieldStores(cx.q.fn, cx.q, cx.tCandSrc, "send"); len(ss) > 0 {
+		pickFn = ss[0].top()
+	}
+	pick := FuncKey(pickFn)
+	add := FuncKey(ip.fn)
 
 	// the sort key stored in pnAndTime.t comes from lsp.pnTime of the same ref
-	cx.checkSortKeyUse()
+	for _, s := range sorters {
+		cx.checkSortKeyUse(s)
+	}
 
 	for _, k := range c09SortedKeys(w.timeBy) {
 		name := cx.sortName(k)
@@ -1773,7 +3505,7 @@ func ruleC09Clock(cx *c09Ctx, w *c09Writer, m *c09Matcher, matcherFuncs map[stri
 		skey := pick + "#source/" + name
 		switch {
 		case s == nil:
-			r.Violation("T-clock", skey, w.site, "a continue token is written for "+name+" but pickCandidateSource installs no dedicated sorted source for it: results are post-sorted without a ref tie-break, the token's tie-break does not match")
+			r.Violation("T-clock", skey, w.site, "a continue token is written for "+name+" but no dedicated sorted source is installed for it: results are post-sorted without a ref tie-break, the token's tie-break does not match")
 		case s.violated != "":
 			r.Violation("T-clock", skey, s.site, s.violated)
 		case s.problem != "":
@@ -1804,19 +3536,19 @@ func ruleC09Clock(cx *c09Ctx, w *c09Writer, m *c09Matcher, matcherFuncs map[stri
 		}
 		// (iii) continue field and matcher
 		akey := add + "#token-field/" + name
-		fld, have := contFld[k]
+		fld, have := ip.bySort[k]
 		switch {
-		case len(aviol) > 0:
-			r.Violation("T-clock", akey, asite, strings.Join(aviol, "; "))
-		case len(aprob) > 0:
-			r.Undecided("T-clock", akey, asite, strings.Join(aprob, "; "))
+		case len(ip.violations) > 0:
+			r.Violation("T-clock", akey, ip.site, strings.Join(ip.violations, "; "))
+		case len(ip.problems) > 0:
+			r.Undecided("T-clock", akey, ip.site, strings.Join(ip.problems, "; "))
 		case !have:
-			r.Violation("T-clock", akey, asite, "a token is written for "+name+" but addContinueConstraint stores its time in no PermanodeContinueConstraint field under that sort: the token is ignored (first page again) or rejected by checkValid")
+			r.Violation("T-clock", akey, ip.site, "a token is written for "+name+" but its time is stored in no PermanodeContinueConstraint field under that sort: the token is ignored (first page again) or rejected by checkValid")
 		default:
-			r.OK("T-clock", akey, asite, "token time is stored in PermanodeContinueConstraint."+fld+" under "+name)
+			r.OK("T-clock", akey, ip.site, "token time is stored in PermanodeContinueConstraint."+fld+" under "+name)
 		}
 		mkey := FuncKey(m.fn) + "#continue-clock/" + name
-		if have && len(aviol) == 0 {
+		if have && len(ip.violations) == 0 {
 			var mfs []*types.Func
 			for f := range matcherFuncs[fld] {
 				mfs = append(mfs, f)
@@ -1827,11 +3559,11 @@ func ruleC09Clock(cx *c09Ctx, w *c09Writer, m *c09Matcher, matcherFuncs map[stri
 			case len(mfs) != 1:
 				r.Undecided("T-clock", mkey, p.Pos(m.fn.Pos()), fmt.Sprintf("matcher compares %d different item clocks with %s", len(mfs), fld))
 			case srcFn != nil && mfs[0] != srcFn:
-				r.Violation("T-clock", mkey, p.Pos(m.entry.Instrs[0].Pos()), fmt.Sprintf("with %s set (sort %s) the matcher compares %s(item) with the token, but the list is ordered by %s: items whose two clocks differ are skipped or repeated", fld, name, c09FuncName(mfs[0]), c09FuncName(srcFn)))
+				r.Violation("T-clock", mkey, p.Pos(m.pos), fmt.Sprintf("with %s set (sort %s) the matcher compares %s(item) with the token, but the list is ordered by %s: items whose two clocks differ are skipped or repeated", fld, name, c09FuncName(mfs[0]), c09FuncName(srcFn)))
 			case srcFn == nil:
 				r.Undecided("T-clock", mkey, p.Pos(m.fn.Pos()), "source clock unresolved")
 			default:
-				r.OK("T-clock", mkey, p.Pos(m.entry.Instrs[0].Pos()), fmt.Sprintf("with %s set the matcher compares %s(item) with the token = sort key of the source for %s", fld, c09FuncName(mfs[0]), name))
+				r.OK("T-clock", mkey, p.Pos(m.pos), fmt.Sprintf("with %s set the matcher compares %s(item) with the token = sort key of the source for %s", fld, c09FuncName(mfs[0]), name))
 			}
 		}
 	}
@@ -1840,124 +3572,66 @@ func ruleC09Clock(cx *c09Ctx, w *c09Writer, m *c09Matcher, matcherFuncs map[stri
 	} else {
 		r.Check(w.lastOK, "T-clock", wfn+"#token-ref-is-last", w.site, "the token names the last element of the page (res.Blobs[len-1])", w.lastWhy)
 	}
-	r.Check(refOK, "T-clock", add+"#token-ref", asite,
+	r.Check(ip.refOK, "T-clock", add+"#token-ref", ip.site,
 		"the token's ref is stored in the continue constraint's ref field (tie-break reference)",
 		"the parsed token ref is not stored in the continue constraint: the tie filter compares with the zero ref")
-	cx.checkPlanOrder()
-	cx.checkConjunction()
+	cx.checkWrap(ip)
 }
 
-// checkSortKeyUse: in lazySortedPermanodes.sorted the time stored next to a ref
-// is lsp.pnTime(that ref).
-func (cx *c09Ctx) checkSortKeyUse() {
-	fn := cx.p.Func("pkg/index", "lazySortedPermanodes", "sorted")
+// checkSortKeyUse: in the effective body of the sorting method every
+// pnAndTime built field by field carries lsp.pnTime(its own ref) as its time.
+func (cx *c09Ctx) checkSortKeyUse(fn *ssa.Function) {
+	root := cx.root(fn)
 	key := FuncKey(fn) + "#sort-key"
-	ts := c09StoresToField(c09WithLits(fn), cx.tPnTime, "t")
-	ps := c09StoresToField(c09WithLits(fn), cx.tPnTime, "pn")
-	if len(ts) != 1 || len(ps) != 1 {
-		cx.r.Undecided("T-clock", key, cx.p.Pos(fn.Pos()), fmt.Sprintf("%d/%d stores to pnAndTime.t/.pn (want one each)", len(ts), len(ps)))
+	ts := cx.fieldStores(fn, root, cx.tPnTime, "t")
+	ps := cx.fieldStores(fn, root, cx.tPnTime, "pn")
+	if len(ts) == 0 || len(ts) != len(ps) {
+		cx.r.Undecided("T-clock", key, cx.p.Pos(fn.Pos()), fmt.Sprintf("%d/%d stores to pnAndTime.t/.pn in the effective body of %s (want matching pairs)", len(ts), len(ps), FuncKey(fn)))
 		return
 	}
-	okp, detail := false, "pnAndTime.t is not the first result of a call through lsp.pnTime"
-	if ex, ok := originValue(ts[0].Val).(*ssa.Extract); ok && ex.Index == 0 {
-		if call, ok := ex.Tuple.(*ssa.Call); ok {
-			lf, isF := c09LoadedField(originValue(call.Call.Value))
-			switch {
-			case !isF || lf.Owner == nil || lf.Owner.Obj() != cx.tLSP.Obj() || lf.Name != "pnTime":
-			case len(call.Call.Args) != 1 || !sameOrigin(call.Call.Args[0], ps[0].Val):
-				detail = "the time stored next to a ref is computed for a different ref"
-			default:
-				okp, detail = true, "pnAndTime{pn, t}: t = lsp.pnTime(pn) — the slice byPermanodeTime sorts is keyed by the configured clock"
+	okp, detail := true, ""
+	for _, t := range ts {
+		tf, _ := c09FieldRef(t.store().Addr)
+		var pn *c09Site
+		for i := range ps {
+			if pf, _ := c09FieldRef(ps[i].store().Addr); ps[i].F == t.F && pf.Base == tf.Base {
+				pn = &ps[i]
 			}
 		}
-	}
-	cx.r.Check(okp, "T-clock", key, cx.p.Pos(ts[0].Pos()), detail, detail)
-}
-
-// checkPlanOrder: in plannedQuery no store to Sort can happen after the token
-// has been interpreted (addContinueConstraint switches on q.Sort; Query later
-// writes the next token under the final Sort).
-func (cx *c09Ctx) checkPlanOrder() {
-	fn := cx.p.Func("pkg/search", "SearchQuery", "plannedQuery")
-	add := cx.p.Func("pkg/search", "SearchQuery", "addContinueConstraint")
-	key := FuncKey(fn) + "#sort-fixed-before-token"
-	var call ssa.Instruction
-	for _, c := range CallsIn(fn, false) {
-		if c.Callee() == add {
-			call = c.Instr
+		if pn == nil {
+			okp, detail = false, "a pnAndTime receives a time but no ref next to it"
+			continue
 		}
-	}
-	if call == nil {
-		cx.r.Violation("T-clock", key, cx.p.Pos(fn.Pos()), "plannedQuery no longer calls addContinueConstraint: continue tokens are ignored, every page is the first page")
-		return
-	}
-	after := ReachableFrom(call, nil)
-	bad := ""
-	for _, st := range c09StoresToField([]*ssa.Function{fn}, cx.tQuery, "Sort") {
-		if after[st] {
-			bad = "q.Sort is assigned (line " + fmt.Sprint(cx.p.Fset.Position(st.Pos()).Line) + ") after addContinueConstraint interpreted the token under the previous Sort: with the default sort the token is dropped and the page repeats"
-		}
-	}
-	for _, st := range c09StoresToField([]*ssa.Function{fn}, cx.tQuery, "Constraint") {
-		if after[st] {
-			if c, ok := originValue(st.Val).(*ssa.Call); ok && c.Call.StaticCallee() != nil && len(c.Call.Args) == 1 {
-				if lf, ok := c09LoadedField(originValue(c.Call.Args[0])); ok && lf.Name == "Constraint" {
-					continue // pq.Constraint = optimizePlan(pq.Constraint): rewrites the whole, continue-wrapped constraint
+		good, why := false, "pnAndTime.t is not the first result of a call through lsp.pnTime"
+		tv := cx.origin(t.val(t.store().Val))
+		if ex, ok := tv.V.(*ssa.Extract); ok && ex.Index == 0 {
+			if call, ok := ex.Tuple.(*ssa.Call); ok {
+				lf, _, isF := cx.loadedField(c09V{call.Call.Value, tv.F})
+				switch {
+				case !isF || !lf.is(cx.tLSP, "pnTime"):
+				case len(call.Call.Args) != 1 || !cx.sameOrigin(c09V{call.Call.Args[0], tv.F}, pn.val(pn.store().Val)):
+					why = "the time stored next to a ref is computed for a different ref"
+				default:
+					good = true
 				}
 			}
-			bad = "q.Constraint is replaced after addContinueConstraint wrapped it: the continue constraint is lost"
 		}
-	}
-	cx.r.Check(bad == "", "T-clock", key, cx.p.Pos(call.Pos()),
-		"Sort (incl. the CreatedDesc default) and Constraint are final before the token is interpreted", bad)
-}
-
-// checkConjunction: the continue constraint is and-ed with the base constraint.
-func (cx *c09Ctx) checkConjunction() {
-	add := cx.p.Func("pkg/search", "SearchQuery", "addContinueConstraint")
-	key := FuncKey(add) + "#conjunction"
-	fns := c09WithLits(add)
-	ops := c09StoresToField(fns, cx.tLogical, "Op")
-	okp, detail := true, ""
-	if len(ops) != 1 {
-		cx.r.Undecided("T-clock", key, cx.p.Pos(add.Pos()), fmt.Sprintf("%d LogicalConstraint.Op stores (want one)", len(ops)))
-		return
-	}
-	if s, _ := ConstString(ops[0].Val); s != "and" {
-		okp, detail = false, fmt.Sprintf("continue constraint is combined with Op %q instead of \"and\": the token no longer restricts the result (everything matches)", s)
-	}
-	base, _ := c09FieldRef(ops[0].Addr)
-	var sides []ssa.Value
-	for _, n := range []string{"A", "B"} {
-		for _, s := range c09StoresToField(fns, cx.tLogical, n) {
-			if f, _ := c09FieldRef(s.Addr); f.Base == base.Base {
-				sides = append(sides, s.Val)
-			}
+		if !good {
+			okp, detail = false, why
 		}
-	}
-	hasBase, hasCont := false, false
-	for _, v := range sides {
-		if lf, ok := c09LoadedField(originValue(v)); ok && lf.Owner != nil && lf.Owner.Obj() == cx.tQuery.Obj() && lf.Name == "Constraint" {
-			hasBase = true
-		}
-		if c09HoldsContinue(v, cx) {
-			hasCont = true
-		}
-	}
-	if okp && !(hasBase && hasCont) {
-		okp, detail = false, "the and-node does not combine the previous q.Constraint with the new continue constraint"
 	}
 	if okp {
-		detail = "q.Constraint = and(Permanode{Continue: token}, previous q.Constraint)"
+		detail = fmt.Sprintf("pnAndTime{pn, t}: t = lsp.pnTime(pn) (%d construction site(s)) — the slice the comparator sorts is keyed by the configured clock", len(ts))
 	}
-	cx.r.Check(okp, "T-clock", key, cx.p.Pos(ops[0].Pos()), detail, detail)
+	cx.r.Check(okp, "T-clock", key, cx.p.Pos(ts[0].In.Pos()), detail, detail)
 }
 
-// c09HoldsContinue: v is a freshly allocated Constraint whose Permanode field
-// holds a PermanodeConstraint whose Continue field is set.
-func c09HoldsContinue(v ssa.Value, cx *c09Ctx) bool {
-	al, ok := originValue(v).(*ssa.Alloc)
-	if !ok || al.Referrers() == nil {
+// holdsContinue: v is a freshly allocated Constraint/PermanodeConstraint whose
+// fields (transitively) hold a PermanodeContinueConstraint.
+func (cx *c09Ctx) holdsContinue(v c09V, depth int) bool {
+	o := cx.origin(v)
+	al, ok := o.V.(*ssa.Alloc)
+	if !ok || al.Referrers() == nil || depth > 6 {
 		return false
 	}
 	for _, u := range *al.Referrers() {
@@ -1973,7 +3647,7 @@ func c09HoldsContinue(v ssa.Value, cx *c09Ctx) bool {
 			if c09Is(st.Val.Type(), cx.tPCC) {
 				return true
 			}
-			if c09HoldsContinue(st.Val, cx) {
+			if cx.holdsContinue(c09V{st.Val, o.F}, depth+1) {
 				return true
 			}
 		}
@@ -1981,86 +3655,288 @@ func c09HoldsContinue(v ssa.Value, cx *c09Ctx) bool {
 	return false
 }
 
-// ---------------------------------------------------------------------------
+// checkWrap: (1) the continue constraint is and-ed with the previous
+// constraint and installed as SearchQuery.Constraint; (2) once that has
+// happened no store to SearchQuery.Sort and no replacement of
+// SearchQuery.Constraint can follow (the token was interpreted under the Sort of
+// that moment; Query later writes the next token under the final Sort).
+func (cx *c09Ctx) checkWrap(ip *c09Interp) {
+	q := cx.q.fn
+	add := FuncKey(ip.fn)
+	ckey := add + "#conjunction"
+	// W: the store that installs a constraint holding the continue constraint
+	var wraps []c09Site
+	cstores := cx.fieldStores(q, cx.q, cx.tQuery, "Constraint")
+	for _, s := range cstores {
+		if cx.holdsContinue(s.val(s.store().Val), 0) {
+			wraps = append(wraps, s)
+		}
+	}
+	if len(wraps) != 1 {
+		cx.r.Violation("T-clock", ckey, ip.site, fmt.Sprintf("%d stores install a constraint holding the continue constraint as SearchQuery.Constraint (want one): continue tokens are ignored, every page is the first page", len(wraps)))
+		return
+	}
+	W := wraps[0]
+	// (1) the and-node
+	{
+		okp, detail := true, ""
+		top := cx.origin(W.val(W.store().Val))
+		var node c09V // the LogicalConstraint object
+		if al, ok := top.V.(*ssa.Alloc); ok && al.Referrers() != nil {
+			for _, u := range *al.Referrers() {
+				fa, ok := u.(*ssa.FieldAddr)
+				if !ok || fa.Referrers() == nil {
+					continue
+				}
+				for _, u2 := range *fa.Referrers() {
+					if st, ok := u2.(*ssa.Store); ok && st.Addr == ssa.Value(fa) && c09Is(st.Val.Type(), cx.tLogical) {
+						node = cx.origin(c09V{st.Val, top.F})
+					}
+				}
+			}
+		}
+		nal, _ := node.V.(*ssa.Alloc)
+		if nal == nil || nal.Referrers() == nil {
+			cx.r.Undecided("T-clock", ckey, cx.p.Pos(W.In.Pos()), "the constraint installed with the continue constraint is not a freshly built LogicalConstraint the rule can follow")
+		} else {
+			op, hasOp := "", false
+			hasBase, hasCont := false, false
+			for _, u := range *nal.Referrers() {
+				fa, ok := u.(*ssa.FieldAddr)
+				if !ok || fa.Referrers() == nil {
+					continue
+				}
+				nf, _ := c09FieldRef(fa)
+				for _, u2 := range *fa.Referrers() {
+					st, ok := u2.(*ssa.Store)
+					if !ok || st.Addr != ssa.Value(fa) {
+						continue
+					}
+					sv := c09V{st.Val, node.F}
+					if nf.Name == "Op" {
+						op, hasOp = cx.constString(sv)
+						continue
+					}
+					if lf, _, ok := cx.loadedField(sv); ok && lf.is(cx.tQuery, "Constraint") {
+						hasBase = true
+					}
+					if cx.holdsContinue(sv, 0) {
+						hasCont = true
+					}
+				}
+			}
+			switch {
+			case !hasOp || op != "and":
+				okp, detail = false, fmt.Sprintf("continue constraint is combined with Op %q instead of \"and\": the token no longer restricts the result (everything matches)", op)
+			case !(hasBase && hasCont):
+				okp, detail = false, "the and-node does not combine the previous q.Constraint with the new continue constraint"
+			default:
+				detail = "q.Constraint = and(Permanode{Continue: token}, previous q.Constraint)"
+			}
+			cx.r.Check(okp, "T-clock", ckey, cx.p.Pos(W.In.Pos()), detail, detail)
+		}
+	}
+	// (2) nothing changes Sort / replaces Constraint afterwards
+	sorts := cx.fieldStores(q, cx.q, cx.tQuery, "Sort")
+	// key: the function of the lowest activation that sees both the wrap and the Sort stores
+	A := W.F
+	for _, s := range sorts {
+		if l := c09LCA(A, s.F); l != nil {
+			A = l
+		}
+	}
+	pkey := FuncKey(A.fn) + "#sort-fixed-before-token"
+	bad, undec := "", ""
+	for _, s := range sorts {
+		reach, known := cx.reachableAfter(W, s)
+		switch {
+		case !known:
+			undec = "cannot order the store to SearchQuery.Sort in " + FuncKey(s.top()) + " against the wrapping of the constraint"
+		case reach:
+			bad = "q.Sort is assigned in " + FuncKey(s.top()) + " after the token was interpreted under the previous Sort: with the default sort the token is dropped and the page repeats"
+		}
+	}
+	for _, s := range cstores {
+		if s == W {
+			continue
+		}
+		reach, known := cx.reachableAfter(W, s)
+		if !known || !reach {
+			continue
+		}
+		// pq.Constraint = f(pq.Constraint): rewrites the whole, continue-wrapped constraint
+		rewrite := false
+		if c, ok := originValue(s.store().Val).(*ssa.Call); ok {
+			for _, a := range c.Call.Args {
+				if lf, ok := c09LoadedField(originValue(a)); ok && lf.is(cx.tQuery, "Constraint") {
+					rewrite = true
+				}
+			}
+		}
+		if !rewrite {
+			bad = "q.Constraint is replaced in " + FuncKey(s.top()) + " after the continue constraint was and-ed in: the continue constraint is lost"
+		}
+	}
+	site := cx.p.Pos(c09SiteIn(W, A).Pos())
+	switch {
+	case bad != "":
+		cx.r.Violation("T-clock", pkey, site, bad)
+	case undec != "":
+		cx.r.Undecided("T-clock", pkey, site, undec)
+	default:
+		cx.r.OK("T-clock", pkey, site, "Sort (incl. the CreatedDesc default) and Constraint are final before the token is interpreted")
+	}
+}
 
-func runC09(p *Program, r *Reporter) {
-	cx := c09NewCtx(p, r)
-	w := cx.analyseWriter()
-	m := cx.findMatcher()
-	r.Analysed("functions", 9)
-	mf := ruleC09Tiebreak(cx, m)
-	ruleC09Clock(cx, w, m, mf)
-	ruleC09Codec(cx, w)
-	ruleC09Around(cx)
+func c09SiteIn(s c09Site, A *c09Frame) ssa.Instruction {
+	if in := c09LiftTo(s, A); in != nil {
+		return in
+	}
+	return s.In
 }
 
 // ---------------------------------------------------------------------------
-// T-around: a pivot that was not found yields no results.
+// T-around: a pivot that was not found, or that the matcher rejected, yields no results.
 
-func ruleC09Around(cx *c09Ctx) {
+// c09Loc names a boolean location: a variable cell or a struct field.
+func c09Loc(addr ssa.Value) (any, bool) {
+	if cell, ok := varOf(addr); ok {
+		return cell, true
+	}
+	if f, ok := c09FieldRef(addr); ok && f.Owner != nil {
+		return f.Owner.Obj().Pkg().Path() + "." + f.Owner.Obj().Name() + "." + f.Name, true
+	}
+	return nil, false
+}
+
+func ruleC09Around(cx *c09Ctx, w *c09Writer) {
 	p, r := cx.p, cx.r
-	fn := p.Func("pkg/search", "Handler", "Query")
+	fn := cx.q.fn
 	key := FuncKey(fn) + "#pivot-miss-clears-results"
 	defer r.Floor("T-around", 1)
-	isAroundEq := func(cond ssa.Value, val bool) bool {
-		bo, ok := cond.(*ssa.BinOp)
-		if !ok || !((bo.Op == token.EQL && val) || (bo.Op == token.NEQ && !val)) {
-			return false
+	// cond==val says q.Around == X: returns X
+	aroundEq := func(f c09Fact) (c09V, bool) {
+		bo, ok := f.Cond.V.(*ssa.BinOp)
+		if !ok || !((bo.Op == token.EQL && f.Val) || (bo.Op == token.NEQ && !f.Val)) {
+			return c09V{}, false
 		}
-		for _, o := range []ssa.Value{bo.X, bo.Y} {
-			if lf, ok := c09LoadedField(originValue(o)); ok && lf.Owner != nil && lf.Owner.Obj() == cx.tQuery.Obj() && lf.Name == "Around" {
-				return true
+		for i, o := range []ssa.Value{bo.X, bo.Y} {
+			if lf, _, ok := cx.loadedField(c09V{o, f.Cond.F}); ok && lf.is(cx.tQuery, "Around") {
+				return c09V{[]ssa.Value{bo.Y, bo.X}[i], f.Cond.F}, true
+			}
+		}
+		return c09V{}, false
+	}
+	isAroundCmp := func(v c09V) bool {
+		if bo, ok := v.V.(*ssa.BinOp); ok && (bo.Op == token.EQL || bo.Op == token.NEQ) {
+			_, ok := aroundEq(c09Fact{v, bo.Op == token.EQL})
+			return ok
+		}
+		return false
+	}
+	// the candidate was accepted by the matcher: a fact `m == true` where m is the boolean
+	// first result of a call that received the candidate ref
+	matched := func(facts []c09Fact, cand c09V) bool {
+		for _, f := range facts {
+			if !f.Val {
+				continue
+			}
+			o := cx.origin(f.Cond)
+			var call *ssa.Call
+			switch x := o.V.(type) {
+			case *ssa.Extract:
+				if x.Index == 0 {
+					call, _ = x.Tuple.(*ssa.Call)
+				}
+			case *ssa.Call:
+				call = x
+			}
+			if call == nil || !c09IsBool(o.V.Type()) {
+				continue
+			}
+			args := call.Call.Args
+			for _, a := range args {
+				if c09IsRef(a.Type()) && cx.sameField(c09V{a, o.F}, cand, 0) {
+					return true
+				}
 			}
 		}
 		return false
 	}
-	// (1) the "pivot found" flags: bool variables of Query set to true where q.Around == <candidate ref>
-	found := map[ssa.Value]bool{}
-	for _, f := range c09WithLits(fn) {
-		for _, b := range f.Blocks {
-			for _, in := range b.Instrs {
-				st, ok := in.(*ssa.Store)
-				if !ok {
-					continue
-				}
-				c, isC := st.Val.(*ssa.Const)
-				if !isC || c.Value == nil || c.Value.Kind() != constant.Bool || !constant.BoolVal(c.Value) {
-					continue
-				}
-				cell, ok := varOf(st.Addr)
-				if !ok {
-					continue
-				}
-				for _, ft := range FactsAt(b) {
-					if isAroundEq(ft.Cond, ft.Val) {
-						found[cell] = true
-					}
+	// (1) the "pivot found" flags: bool locations set where q.Around == <candidate ref>
+	found := map[any]bool{}
+	var unmatched []c09Site
+	for _, s := range cx.sites(fn, cx.q, func(in ssa.Instruction) bool {
+		st, ok := in.(*ssa.Store)
+		return ok && c09IsBool(st.Val.Type())
+	}) {
+		st := s.store()
+		loc, ok := c09Loc(st.Addr)
+		if !ok {
+			continue
+		}
+		facts := cx.factsAt(st.Block(), s.F)
+		var cand c09V
+		isFlag := false
+		if c, isC := st.Val.(*ssa.Const); isC {
+			if c.Value == nil || c.Value.Kind() != constant.Bool || !constant.BoolVal(c.Value) {
+				continue
+			}
+			for _, ft := range facts {
+				if x, ok := aroundEq(ft); ok {
+					cand, isFlag = x, true
 				}
 			}
+		} else if cx.dependsOn(s.val(st.Val), isAroundCmp) {
+			// found = found || q.Around == ref: the stored value itself carries the comparison
+			cx.dependsOn(s.val(st.Val), func(v c09V) bool {
+				if isAroundCmp(v) {
+					bo := v.V.(*ssa.BinOp)
+					cand, _ = aroundEq(c09Fact{v, bo.Op == token.EQL})
+					isFlag = true
+					return true
+				}
+				return false
+			})
+		}
+		if !isFlag {
+			continue
+		}
+		found[loc] = true
+		if !matched(facts, cand) {
+			unmatched = append(unmatched, s)
 		}
 	}
 	if len(found) == 0 {
 		r.Violation("T-around", key, p.Pos(fn.Pos()), "Query never records that the Around pivot was matched: a query whose pivot does not match cannot be told from one whose pivot does")
 		return
 	}
+	if len(unmatched) > 0 {
+		r.Violation("T-around", key, p.Pos(unmatched[0].In.Pos()), "the Around pivot is recorded as found where the matcher is not known to have accepted that candidate: a pivot that does not satisfy the constraint yields a window instead of nothing")
+		return
+	}
 	// (2) results are cleared where a flag is known false
-	var clears []*ssa.Store
-	for _, st := range c09StoresToField([]*ssa.Function{fn}, cx.tResult, "Blobs") {
-		if !IsNilConst(st.Val) {
+	var clears []c09Site
+	for _, s := range cx.fieldStores(fn, cx.q, cx.tResult, "Blobs") {
+		v := cx.origin(s.val(s.store().Val))
+		empty := IsNilConst(v.V)
+		if sl, ok := v.V.(*ssa.Slice); ok && sl.High != nil {
+			if n, isC := cx.constInt(c09V{sl.High, v.F}); isC && n == 0 {
+				empty = true
+			}
+		}
+		if !empty {
 			continue
 		}
-		for _, ft := range FactsAt(st.Block()) {
-			cond, val := ft.Cond, ft.Val
-			for {
-				if u, ok := cond.(*ssa.UnOp); ok && u.Op == token.NOT {
-					cond, val = u.X, !val
-					continue
-				}
-				break
+		for _, ft := range cx.factsAt(s.In.Block(), s.F) {
+			if ft.Val {
+				continue
 			}
-			if ld, ok := cond.(*ssa.UnOp); ok && ld.Op == token.MUL && !val {
-				if cell, ok := varOf(ld.X); ok && found[cell] {
-					clears = append(clears, st)
+			for _, c := range []c09V{ft.Cond, cx.origin(ft.Cond)} {
+				if ld, ok := c.V.(*ssa.UnOp); ok && ld.Op == token.MUL {
+					if loc, ok := c09Loc(ld.X); ok && found[loc] {
+						clears = append(clears, s)
+					}
 				}
 			}
 		}
@@ -2072,13 +3948,51 @@ func ruleC09Around(cx *c09Ctx) {
 	// (3) the clear precedes the point where results are used further (token, describe): it must not be
 	// reachable from a call that reads the results for the reply
 	st := clears[0]
-	okp, detail := true, "results are set to nil on the path where the Around pivot was wanted but never matched"
-	for _, c := range CallsIn(fn, false) {
-		if f := c.Callee(); f != nil && (f.Name() == "setResultContinue" || f.Name() == "DescribeLocked") {
-			if ReachableFrom(c.Instr, nil)[st] {
-				okp, detail = false, "results are cleared only after "+f.Name()+" already used them"
+	okp, detail := true, "the pivot is recorded only for a candidate the matcher accepted, and results are set to nil on the path where the Around pivot was wanted but never matched"
+	var users []c09Site
+	if w.store.In != nil {
+		users = append(users, w.store)
+	}
+	users = append(users, cx.callSites(fn, cx.q, func(c CallSite) bool {
+		f := c.Callee()
+		return f != nil && f.Name() == "DescribeLocked" && c.Fn == fn
+	})...)
+	for _, u := range users {
+		if reach, known := cx.reachableAfter(u, st); known && reach {
+			what := "the reply was described"
+			if u == w.store {
+				what = "the continue token was written"
+			}
+			okp, detail = false, "results are cleared only after "+what+" from them"
+		}
+	}
+	r.Check(okp, "T-around", key, p.Pos(st.In.Pos()), detail, detail)
+}
+
+// ---------------------------------------------------------------------------
+
+func runC09(p *Program, r *Reporter) {
+	cx := c09NewCtx(p, r)
+	w := cx.analyseWriter()
+	m := cx.findMatcher()
+	rd := cx.analyseReader()
+	ip := cx.interpretation(rd)
+	srcs := cx.sourcesBySort()
+	var sorters []*ssa.Function
+	for _, k := range c09SortedKeys(srcs) {
+		if s := srcs[k].sorter; s != nil {
+			dup := false
+			for _, t := range sorters {
+				dup = dup || t == s
+			}
+			if !dup {
+				sorters = append(sorters, s)
 			}
 		}
 	}
-	r.Check(okp, "T-around", key, p.Pos(st.Pos()), detail, detail)
+	r.Analysed("functions", len(cx.reach(cx.q.fn, cx.q).fns)+1)
+	mf := ruleC09Tiebreak(cx, m, sorters)
+	ruleC09Clock(cx, w, m, mf, srcs, sorters, ip)
+	ruleC09Codec(cx, w, rd, ip)
+	ruleC09Around(cx, w)
 }
